@@ -1400,13 +1400,13 @@ fn negative(out: Out) {
     kani::cover!(minimum > 0x7fff_ffff, "MINIMUM with the top bit set");
 }
 
-// @harness name=c05_neg_nxdomain props=C05 panics=C05,C01 tier=quick mem=4 t=900 kani="--no-assertion-reach-checks" cbmc="--max-field-sensitivity-array-size 256 --unwindset _RNCNvMs_NtNtCskjFBwtpsoHr_8quandary7message6writerNtB6_6Writer30write_compressed_unhinted_name0Ba_.0:4,_RNCNvMs_NtNtCskjFBwtpsoHr_8quandary7message6writerNtB6_6Writer30write_compressed_unhinted_names_0Ba_.0:4,_RNvMs_NtNtCskjFBwtpsoHr_8quandary7message6writerNtB4_6Writer30write_compressed_unhinted_name.0:4,_RNvMs_NtNtCskjFBwtpsoHr_8quandary7message6writerNtB4_6Writer30write_compressed_unhinted_name.1:4,_RINvNvMNtNtCs8xvirJzNMvV_4core5slice5asciiSh27eq_ignore_ascii_case_chunks21eq_ignore_ascii_innerKj10_ECskjFBwtpsoHr_8quandary.0:3,_RNvMNtNtCs8xvirJzNMvV_4core5slice5asciiSh27eq_ignore_ascii_case_simpleCskjFBwtpsoHr_8quandary.0:3,_RINvMNtNtCs8xvirJzNMvV_4core5slice5asciiSh27eq_ignore_ascii_case_chunksKj10_ECskjFBwtpsoHr_8quandary.0:3,_RNvNtNtCskjFBwtpsoHr_8quandary4name4wire23parse_uncompressed_name.0:5,_RNvMs_NtCskjFBwtpsoHr_8quandary4nameNtB4_4Name15initialize_into.0:5,_RINvNtCs8xvirJzNMvV_4core3ptr9drop_glueSTjINtNtCs6xMQmN1AWUs_5alloc5boxed3BoxNtNtCskjFBwtpsoHr_8quandary4name4NameEEEB1h_.0:3,_RINvNtNtCskjFBwtpsoHr_8quandary6server5query11do_referralNtNtB2_10kani_query8MockZoneEB6_.0:2,_RINvNtNtCskjFBwtpsoHr_8quandary6server5query11do_referralNtNtB2_10kani_query8MockZoneEB6_.1:2,_RINvNtNtCskjFBwtpsoHr_8quandary6server5query11do_referralNtNtB2_10kani_query8MockZoneEB6_.2:2" stubs="M1,T0"
+// @harness name=c05_neg_nxdomain props=C05 panics=C05,C01 tier=quick mem=2 t=900 kani="--no-assertion-reach-checks" cbmc="--max-field-sensitivity-array-size 256 --unwindset _RNCNvMs_NtNtCskjFBwtpsoHr_8quandary7message6writerNtB6_6Writer30write_compressed_unhinted_name0Ba_.0:4,_RNCNvMs_NtNtCskjFBwtpsoHr_8quandary7message6writerNtB6_6Writer30write_compressed_unhinted_names_0Ba_.0:4,_RNvMs_NtNtCskjFBwtpsoHr_8quandary7message6writerNtB4_6Writer30write_compressed_unhinted_name.0:4,_RNvMs_NtNtCskjFBwtpsoHr_8quandary7message6writerNtB4_6Writer30write_compressed_unhinted_name.1:4,_RINvNvMNtNtCs8xvirJzNMvV_4core5slice5asciiSh27eq_ignore_ascii_case_chunks21eq_ignore_ascii_innerKj10_ECskjFBwtpsoHr_8quandary.0:3,_RNvMNtNtCs8xvirJzNMvV_4core5slice5asciiSh27eq_ignore_ascii_case_simpleCskjFBwtpsoHr_8quandary.0:3,_RINvMNtNtCs8xvirJzNMvV_4core5slice5asciiSh27eq_ignore_ascii_case_chunksKj10_ECskjFBwtpsoHr_8quandary.0:3,_RNvNtNtCskjFBwtpsoHr_8quandary4name4wire23parse_uncompressed_name.0:5,_RNvMs_NtCskjFBwtpsoHr_8quandary4nameNtB4_4Name15initialize_into.0:5,_RINvNtCs8xvirJzNMvV_4core3ptr9drop_glueSTjINtNtCs6xMQmN1AWUs_5alloc5boxed3BoxNtNtCskjFBwtpsoHr_8quandary4name4NameEEEB1h_.0:3,_RINvNtNtCskjFBwtpsoHr_8quandary6server5query11do_referralNtNtB2_10kani_query8MockZoneEB6_.0:2,_RINvNtNtCskjFBwtpsoHr_8quandary6server5query11do_referralNtNtB2_10kani_query8MockZoneEB6_.1:2,_RINvNtNtCskjFBwtpsoHr_8quandary6server5query11do_referralNtNtB2_10kani_query8MockZoneEB6_.2:2" stubs="M1,T0"
 //   fn="Server::handle_non_axfr_query,answer,add_negative_caching_soa,read_soa_minimum,Writer::add_authority_rr,Writer::finish"
 //   bound="UDP, limit 64; question a. A IN; zone apex root, class IN; lookup(a.) = NxDomain; SOA RDATA 22 octets (MNAME ., RNAME ., low octets of 4 words symbolic, MINIMUM full u32; MINIMUM >= 2^31: TTL 0 or min() both accepted); unwind 7"
 //   sym="soa_ttl:u32, minimum:u32, 4 SOA octets, synth:bool"
 proof!(c05_neg_nxdomain, 7, negative(Out::NxDomain));
 
-// @harness name=c05_neg_norecords props=C05 panics=C05,C01 tier=thorough mem=4 t=900 kani="--no-assertion-reach-checks" cbmc="--max-field-sensitivity-array-size 256 --unwindset _RNCNvMs_NtNtCskjFBwtpsoHr_8quandary7message6writerNtB6_6Writer30write_compressed_unhinted_name0Ba_.0:4,_RNCNvMs_NtNtCskjFBwtpsoHr_8quandary7message6writerNtB6_6Writer30write_compressed_unhinted_names_0Ba_.0:4,_RNvMs_NtNtCskjFBwtpsoHr_8quandary7message6writerNtB4_6Writer30write_compressed_unhinted_name.0:4,_RNvMs_NtNtCskjFBwtpsoHr_8quandary7message6writerNtB4_6Writer30write_compressed_unhinted_name.1:4,_RINvNvMNtNtCs8xvirJzNMvV_4core5slice5asciiSh27eq_ignore_ascii_case_chunks21eq_ignore_ascii_innerKj10_ECskjFBwtpsoHr_8quandary.0:3,_RNvMNtNtCs8xvirJzNMvV_4core5slice5asciiSh27eq_ignore_ascii_case_simpleCskjFBwtpsoHr_8quandary.0:3,_RINvMNtNtCs8xvirJzNMvV_4core5slice5asciiSh27eq_ignore_ascii_case_chunksKj10_ECskjFBwtpsoHr_8quandary.0:3,_RNvNtNtCskjFBwtpsoHr_8quandary4name4wire23parse_uncompressed_name.0:5,_RNvMs_NtCskjFBwtpsoHr_8quandary4nameNtB4_4Name15initialize_into.0:5,_RINvNtCs8xvirJzNMvV_4core3ptr9drop_glueSTjINtNtCs6xMQmN1AWUs_5alloc5boxed3BoxNtNtCskjFBwtpsoHr_8quandary4name4NameEEEB1h_.0:3,_RINvNtNtCskjFBwtpsoHr_8quandary6server5query11do_referralNtNtB2_10kani_query8MockZoneEB6_.0:2,_RINvNtNtCskjFBwtpsoHr_8quandary6server5query11do_referralNtNtB2_10kani_query8MockZoneEB6_.1:2,_RINvNtNtCskjFBwtpsoHr_8quandary6server5query11do_referralNtNtB2_10kani_query8MockZoneEB6_.2:2" stubs="M1,T0"
+// @harness name=c05_neg_norecords props=C05 panics=C05,C01 tier=thorough mem=2 t=900 kani="--no-assertion-reach-checks" cbmc="--max-field-sensitivity-array-size 256 --unwindset _RNCNvMs_NtNtCskjFBwtpsoHr_8quandary7message6writerNtB6_6Writer30write_compressed_unhinted_name0Ba_.0:4,_RNCNvMs_NtNtCskjFBwtpsoHr_8quandary7message6writerNtB6_6Writer30write_compressed_unhinted_names_0Ba_.0:4,_RNvMs_NtNtCskjFBwtpsoHr_8quandary7message6writerNtB4_6Writer30write_compressed_unhinted_name.0:4,_RNvMs_NtNtCskjFBwtpsoHr_8quandary7message6writerNtB4_6Writer30write_compressed_unhinted_name.1:4,_RINvNvMNtNtCs8xvirJzNMvV_4core5slice5asciiSh27eq_ignore_ascii_case_chunks21eq_ignore_ascii_innerKj10_ECskjFBwtpsoHr_8quandary.0:3,_RNvMNtNtCs8xvirJzNMvV_4core5slice5asciiSh27eq_ignore_ascii_case_simpleCskjFBwtpsoHr_8quandary.0:3,_RINvMNtNtCs8xvirJzNMvV_4core5slice5asciiSh27eq_ignore_ascii_case_chunksKj10_ECskjFBwtpsoHr_8quandary.0:3,_RNvNtNtCskjFBwtpsoHr_8quandary4name4wire23parse_uncompressed_name.0:5,_RNvMs_NtCskjFBwtpsoHr_8quandary4nameNtB4_4Name15initialize_into.0:5,_RINvNtCs8xvirJzNMvV_4core3ptr9drop_glueSTjINtNtCs6xMQmN1AWUs_5alloc5boxed3BoxNtNtCskjFBwtpsoHr_8quandary4name4NameEEEB1h_.0:3,_RINvNtNtCskjFBwtpsoHr_8quandary6server5query11do_referralNtNtB2_10kani_query8MockZoneEB6_.0:2,_RINvNtNtCskjFBwtpsoHr_8quandary6server5query11do_referralNtNtB2_10kani_query8MockZoneEB6_.1:2,_RINvNtNtCskjFBwtpsoHr_8quandary6server5query11do_referralNtNtB2_10kani_query8MockZoneEB6_.2:2" stubs="M1,T0"
 //   fn="Server::handle_non_axfr_query,answer,add_negative_caching_soa,read_soa_minimum,Writer::add_authority_rr,Writer::finish"
 //   bound="as c05_neg_nxdomain with lookup(a.) = NoRecords (possibly wildcard-synthesized); unwind 7"
 //   sym="soa_ttl:u32, minimum:u32, 4 SOA octets, synth:bool"
@@ -1427,7 +1427,7 @@ fn bad_soa(has_soa: bool, raw: &[u8], out: Out) {
     kani::cover!(n == QEND_A, "empty server failure");
 }
 
-// @harness name=c05_neg_no_soa props=C05 panics=C05,C01 tier=thorough mem=4 t=900 kani="--no-assertion-reach-checks" cbmc="--max-field-sensitivity-array-size 256 --unwindset _RNCNvMs_NtNtCskjFBwtpsoHr_8quandary7message6writerNtB6_6Writer30write_compressed_unhinted_name0Ba_.0:4,_RNCNvMs_NtNtCskjFBwtpsoHr_8quandary7message6writerNtB6_6Writer30write_compressed_unhinted_names_0Ba_.0:4,_RNvMs_NtNtCskjFBwtpsoHr_8quandary7message6writerNtB4_6Writer30write_compressed_unhinted_name.0:4,_RNvMs_NtNtCskjFBwtpsoHr_8quandary7message6writerNtB4_6Writer30write_compressed_unhinted_name.1:4,_RINvNvMNtNtCs8xvirJzNMvV_4core5slice5asciiSh27eq_ignore_ascii_case_chunks21eq_ignore_ascii_innerKj10_ECskjFBwtpsoHr_8quandary.0:3,_RNvMNtNtCs8xvirJzNMvV_4core5slice5asciiSh27eq_ignore_ascii_case_simpleCskjFBwtpsoHr_8quandary.0:3,_RINvMNtNtCs8xvirJzNMvV_4core5slice5asciiSh27eq_ignore_ascii_case_chunksKj10_ECskjFBwtpsoHr_8quandary.0:3,_RNvNtNtCskjFBwtpsoHr_8quandary4name4wire23parse_uncompressed_name.0:5,_RNvMs_NtCskjFBwtpsoHr_8quandary4nameNtB4_4Name15initialize_into.0:5,_RINvNtCs8xvirJzNMvV_4core3ptr9drop_glueSTjINtNtCs6xMQmN1AWUs_5alloc5boxed3BoxNtNtCskjFBwtpsoHr_8quandary4name4NameEEEB1h_.0:3,_RINvNtNtCskjFBwtpsoHr_8quandary6server5query11do_referralNtNtB2_10kani_query8MockZoneEB6_.0:2,_RINvNtNtCskjFBwtpsoHr_8quandary6server5query11do_referralNtNtB2_10kani_query8MockZoneEB6_.1:2,_RINvNtNtCskjFBwtpsoHr_8quandary6server5query11do_referralNtNtB2_10kani_query8MockZoneEB6_.2:2" stubs="M1,T0"
+// @harness name=c05_neg_no_soa props=C05 panics=C05,C01 tier=thorough mem=2 t=900 kani="--no-assertion-reach-checks" cbmc="--max-field-sensitivity-array-size 256 --unwindset _RNCNvMs_NtNtCskjFBwtpsoHr_8quandary7message6writerNtB6_6Writer30write_compressed_unhinted_name0Ba_.0:4,_RNCNvMs_NtNtCskjFBwtpsoHr_8quandary7message6writerNtB6_6Writer30write_compressed_unhinted_names_0Ba_.0:4,_RNvMs_NtNtCskjFBwtpsoHr_8quandary7message6writerNtB4_6Writer30write_compressed_unhinted_name.0:4,_RNvMs_NtNtCskjFBwtpsoHr_8quandary7message6writerNtB4_6Writer30write_compressed_unhinted_name.1:4,_RINvNvMNtNtCs8xvirJzNMvV_4core5slice5asciiSh27eq_ignore_ascii_case_chunks21eq_ignore_ascii_innerKj10_ECskjFBwtpsoHr_8quandary.0:3,_RNvMNtNtCs8xvirJzNMvV_4core5slice5asciiSh27eq_ignore_ascii_case_simpleCskjFBwtpsoHr_8quandary.0:3,_RINvMNtNtCs8xvirJzNMvV_4core5slice5asciiSh27eq_ignore_ascii_case_chunksKj10_ECskjFBwtpsoHr_8quandary.0:3,_RNvNtNtCskjFBwtpsoHr_8quandary4name4wire23parse_uncompressed_name.0:5,_RNvMs_NtCskjFBwtpsoHr_8quandary4nameNtB4_4Name15initialize_into.0:5,_RINvNtCs8xvirJzNMvV_4core3ptr9drop_glueSTjINtNtCs6xMQmN1AWUs_5alloc5boxed3BoxNtNtCskjFBwtpsoHr_8quandary4name4NameEEEB1h_.0:3,_RINvNtNtCskjFBwtpsoHr_8quandary6server5query11do_referralNtNtB2_10kani_query8MockZoneEB6_.0:2,_RINvNtNtCskjFBwtpsoHr_8quandary6server5query11do_referralNtNtB2_10kani_query8MockZoneEB6_.1:2,_RINvNtNtCskjFBwtpsoHr_8quandary6server5query11do_referralNtNtB2_10kani_query8MockZoneEB6_.2:2" stubs="M1,T0"
 //   fn="Server::handle_non_axfr_query,answer,add_negative_caching_soa"
 //   bound="UDP, limit 64; question a. A IN; NxDomain and NoRecords in a zone whose soa() is None; unwind 7" sym="none"
 proof!(c05_neg_no_soa, 7, {
@@ -1436,7 +1436,7 @@ proof!(c05_neg_no_soa, 7, {
     bad_soa(false, &raw, Out::NoRecords);
 });
 
-// @harness name=c05_neg_soa_short props=C05 panics=C05,C01 tier=thorough mem=4 t=900 kani="--no-assertion-reach-checks" cbmc="--max-field-sensitivity-array-size 256 --unwindset _RNCNvMs_NtNtCskjFBwtpsoHr_8quandary7message6writerNtB6_6Writer30write_compressed_unhinted_name0Ba_.0:4,_RNCNvMs_NtNtCskjFBwtpsoHr_8quandary7message6writerNtB6_6Writer30write_compressed_unhinted_names_0Ba_.0:4,_RNvMs_NtNtCskjFBwtpsoHr_8quandary7message6writerNtB4_6Writer30write_compressed_unhinted_name.0:4,_RNvMs_NtNtCskjFBwtpsoHr_8quandary7message6writerNtB4_6Writer30write_compressed_unhinted_name.1:4,_RINvNvMNtNtCs8xvirJzNMvV_4core5slice5asciiSh27eq_ignore_ascii_case_chunks21eq_ignore_ascii_innerKj10_ECskjFBwtpsoHr_8quandary.0:3,_RNvMNtNtCs8xvirJzNMvV_4core5slice5asciiSh27eq_ignore_ascii_case_simpleCskjFBwtpsoHr_8quandary.0:3,_RINvMNtNtCs8xvirJzNMvV_4core5slice5asciiSh27eq_ignore_ascii_case_chunksKj10_ECskjFBwtpsoHr_8quandary.0:3,_RNvNtNtCskjFBwtpsoHr_8quandary4name4wire23parse_uncompressed_name.0:5,_RNvMs_NtCskjFBwtpsoHr_8quandary4nameNtB4_4Name15initialize_into.0:5,_RINvNtCs8xvirJzNMvV_4core3ptr9drop_glueSTjINtNtCs6xMQmN1AWUs_5alloc5boxed3BoxNtNtCskjFBwtpsoHr_8quandary4name4NameEEEB1h_.0:3,_RINvNtNtCskjFBwtpsoHr_8quandary6server5query11do_referralNtNtB2_10kani_query8MockZoneEB6_.0:2,_RINvNtNtCskjFBwtpsoHr_8quandary6server5query11do_referralNtNtB2_10kani_query8MockZoneEB6_.1:2,_RINvNtNtCskjFBwtpsoHr_8quandary6server5query11do_referralNtNtB2_10kani_query8MockZoneEB6_.2:2" stubs="M1,T0"
+// @harness name=c05_neg_soa_short props=C05 panics=C05,C01 tier=thorough mem=2 t=900 kani="--no-assertion-reach-checks" cbmc="--max-field-sensitivity-array-size 256 --unwindset _RNCNvMs_NtNtCskjFBwtpsoHr_8quandary7message6writerNtB6_6Writer30write_compressed_unhinted_name0Ba_.0:4,_RNCNvMs_NtNtCskjFBwtpsoHr_8quandary7message6writerNtB6_6Writer30write_compressed_unhinted_names_0Ba_.0:4,_RNvMs_NtNtCskjFBwtpsoHr_8quandary7message6writerNtB4_6Writer30write_compressed_unhinted_name.0:4,_RNvMs_NtNtCskjFBwtpsoHr_8quandary7message6writerNtB4_6Writer30write_compressed_unhinted_name.1:4,_RINvNvMNtNtCs8xvirJzNMvV_4core5slice5asciiSh27eq_ignore_ascii_case_chunks21eq_ignore_ascii_innerKj10_ECskjFBwtpsoHr_8quandary.0:3,_RNvMNtNtCs8xvirJzNMvV_4core5slice5asciiSh27eq_ignore_ascii_case_simpleCskjFBwtpsoHr_8quandary.0:3,_RINvMNtNtCs8xvirJzNMvV_4core5slice5asciiSh27eq_ignore_ascii_case_chunksKj10_ECskjFBwtpsoHr_8quandary.0:3,_RNvNtNtCskjFBwtpsoHr_8quandary4name4wire23parse_uncompressed_name.0:5,_RNvMs_NtCskjFBwtpsoHr_8quandary4nameNtB4_4Name15initialize_into.0:5,_RINvNtCs8xvirJzNMvV_4core3ptr9drop_glueSTjINtNtCs6xMQmN1AWUs_5alloc5boxed3BoxNtNtCskjFBwtpsoHr_8quandary4name4NameEEEB1h_.0:3,_RINvNtNtCskjFBwtpsoHr_8quandary6server5query11do_referralNtNtB2_10kani_query8MockZoneEB6_.0:2,_RINvNtNtCskjFBwtpsoHr_8quandary6server5query11do_referralNtNtB2_10kani_query8MockZoneEB6_.1:2,_RINvNtNtCskjFBwtpsoHr_8quandary6server5query11do_referralNtNtB2_10kani_query8MockZoneEB6_.2:2" stubs="M1,T0"
 //   fn="Server::handle_non_axfr_query,answer,add_negative_caching_soa,read_soa_minimum"
 //   bound="UDP, limit 64; NxDomain; SOA RDATA of 21 octets (one short) and of 23 octets (one too many), contents symbolic after the two root names; unwind 7"
 //   sym="19 / 21 RDATA octets"
@@ -1455,7 +1455,7 @@ proof!(c05_neg_soa_short, 7, {
     bad_soa(true, &long, Out::NxDomain);
 });
 
-// @harness name=c05_neg_soa_badname props=C05 panics=C05,C01 tier=thorough mem=4 t=900 kani="--no-assertion-reach-checks" cbmc="--max-field-sensitivity-array-size 256 --unwindset _RNCNvMs_NtNtCskjFBwtpsoHr_8quandary7message6writerNtB6_6Writer30write_compressed_unhinted_name0Ba_.0:4,_RNCNvMs_NtNtCskjFBwtpsoHr_8quandary7message6writerNtB6_6Writer30write_compressed_unhinted_names_0Ba_.0:4,_RNvMs_NtNtCskjFBwtpsoHr_8quandary7message6writerNtB4_6Writer30write_compressed_unhinted_name.0:4,_RNvMs_NtNtCskjFBwtpsoHr_8quandary7message6writerNtB4_6Writer30write_compressed_unhinted_name.1:4,_RINvNvMNtNtCs8xvirJzNMvV_4core5slice5asciiSh27eq_ignore_ascii_case_chunks21eq_ignore_ascii_innerKj10_ECskjFBwtpsoHr_8quandary.0:3,_RNvMNtNtCs8xvirJzNMvV_4core5slice5asciiSh27eq_ignore_ascii_case_simpleCskjFBwtpsoHr_8quandary.0:3,_RINvMNtNtCs8xvirJzNMvV_4core5slice5asciiSh27eq_ignore_ascii_case_chunksKj10_ECskjFBwtpsoHr_8quandary.0:3,_RNvNtNtCskjFBwtpsoHr_8quandary4name4wire23parse_uncompressed_name.0:5,_RNvMs_NtCskjFBwtpsoHr_8quandary4nameNtB4_4Name15initialize_into.0:5,_RINvNtCs8xvirJzNMvV_4core3ptr9drop_glueSTjINtNtCs6xMQmN1AWUs_5alloc5boxed3BoxNtNtCskjFBwtpsoHr_8quandary4name4NameEEEB1h_.0:3,_RINvNtNtCskjFBwtpsoHr_8quandary6server5query11do_referralNtNtB2_10kani_query8MockZoneEB6_.0:2,_RINvNtNtCskjFBwtpsoHr_8quandary6server5query11do_referralNtNtB2_10kani_query8MockZoneEB6_.1:2,_RINvNtNtCskjFBwtpsoHr_8quandary6server5query11do_referralNtNtB2_10kani_query8MockZoneEB6_.2:2" stubs="M1,T0"
+// @harness name=c05_neg_soa_badname props=C05 panics=C05,C01 tier=thorough mem=2 t=900 kani="--no-assertion-reach-checks" cbmc="--max-field-sensitivity-array-size 256 --unwindset _RNCNvMs_NtNtCskjFBwtpsoHr_8quandary7message6writerNtB6_6Writer30write_compressed_unhinted_name0Ba_.0:4,_RNCNvMs_NtNtCskjFBwtpsoHr_8quandary7message6writerNtB6_6Writer30write_compressed_unhinted_names_0Ba_.0:4,_RNvMs_NtNtCskjFBwtpsoHr_8quandary7message6writerNtB4_6Writer30write_compressed_unhinted_name.0:4,_RNvMs_NtNtCskjFBwtpsoHr_8quandary7message6writerNtB4_6Writer30write_compressed_unhinted_name.1:4,_RINvNvMNtNtCs8xvirJzNMvV_4core5slice5asciiSh27eq_ignore_ascii_case_chunks21eq_ignore_ascii_innerKj10_ECskjFBwtpsoHr_8quandary.0:3,_RNvMNtNtCs8xvirJzNMvV_4core5slice5asciiSh27eq_ignore_ascii_case_simpleCskjFBwtpsoHr_8quandary.0:3,_RINvMNtNtCs8xvirJzNMvV_4core5slice5asciiSh27eq_ignore_ascii_case_chunksKj10_ECskjFBwtpsoHr_8quandary.0:3,_RNvNtNtCskjFBwtpsoHr_8quandary4name4wire23parse_uncompressed_name.0:5,_RNvMs_NtCskjFBwtpsoHr_8quandary4nameNtB4_4Name15initialize_into.0:5,_RINvNtCs8xvirJzNMvV_4core3ptr9drop_glueSTjINtNtCs6xMQmN1AWUs_5alloc5boxed3BoxNtNtCskjFBwtpsoHr_8quandary4name4NameEEEB1h_.0:3,_RINvNtNtCskjFBwtpsoHr_8quandary6server5query11do_referralNtNtB2_10kani_query8MockZoneEB6_.0:2,_RINvNtNtCskjFBwtpsoHr_8quandary6server5query11do_referralNtNtB2_10kani_query8MockZoneEB6_.1:2,_RINvNtNtCskjFBwtpsoHr_8quandary6server5query11do_referralNtNtB2_10kani_query8MockZoneEB6_.2:2" stubs="M1,T0"
 //   fn="Server::handle_non_axfr_query,answer,add_negative_caching_soa,read_soa_minimum,Name::validate_uncompressed"
 //   bound="UDP, limit 64; NoRecords; SOA RDATA of 22 octets whose MNAME starts with a label length octet >= 64 (symbolic: compression pointers and reserved label types), and one whose RNAME label runs past the end; unwind 7"
 //   sym="first octet in 64..=255"
@@ -1473,7 +1473,7 @@ proof!(c05_neg_soa_badname, 7, {
 // 2. positive answers (RFC 1034 4.3.2 steps 3a, 4, 6)
 // --------------------------------------------------------------------------
 
-// @harness name=c05_found_a props=C05 panics=C05,C01 tier=quick mem=4 t=900 kani="--no-assertion-reach-checks" cbmc="--max-field-sensitivity-array-size 256 --unwindset _RNCNvMs_NtNtCskjFBwtpsoHr_8quandary7message6writerNtB6_6Writer30write_compressed_unhinted_name0Ba_.0:4,_RNCNvMs_NtNtCskjFBwtpsoHr_8quandary7message6writerNtB6_6Writer30write_compressed_unhinted_names_0Ba_.0:4,_RNvMs_NtNtCskjFBwtpsoHr_8quandary7message6writerNtB4_6Writer30write_compressed_unhinted_name.0:4,_RNvMs_NtNtCskjFBwtpsoHr_8quandary7message6writerNtB4_6Writer30write_compressed_unhinted_name.1:4,_RINvNvMNtNtCs8xvirJzNMvV_4core5slice5asciiSh27eq_ignore_ascii_case_chunks21eq_ignore_ascii_innerKj10_ECskjFBwtpsoHr_8quandary.0:3,_RNvMNtNtCs8xvirJzNMvV_4core5slice5asciiSh27eq_ignore_ascii_case_simpleCskjFBwtpsoHr_8quandary.0:3,_RINvMNtNtCs8xvirJzNMvV_4core5slice5asciiSh27eq_ignore_ascii_case_chunksKj10_ECskjFBwtpsoHr_8quandary.0:3,_RNvNtNtCskjFBwtpsoHr_8quandary4name4wire23parse_uncompressed_name.0:5,_RNvMs_NtCskjFBwtpsoHr_8quandary4nameNtB4_4Name15initialize_into.0:5,_RINvNtCs8xvirJzNMvV_4core3ptr9drop_glueSTjINtNtCs6xMQmN1AWUs_5alloc5boxed3BoxNtNtCskjFBwtpsoHr_8quandary4name4NameEEEB1h_.0:3,_RINvNtNtCskjFBwtpsoHr_8quandary6server5query11do_referralNtNtB2_10kani_query8MockZoneEB6_.0:2,_RINvNtNtCskjFBwtpsoHr_8quandary6server5query11do_referralNtNtB2_10kani_query8MockZoneEB6_.1:2,_RINvNtNtCskjFBwtpsoHr_8quandary6server5query11do_referralNtNtB2_10kani_query8MockZoneEB6_.2:2" stubs="M1,T0"
+// @harness name=c05_found_a props=C05 panics=C05,C01 tier=quick mem=2 t=900 kani="--no-assertion-reach-checks" cbmc="--max-field-sensitivity-array-size 256 --unwindset _RNCNvMs_NtNtCskjFBwtpsoHr_8quandary7message6writerNtB6_6Writer30write_compressed_unhinted_name0Ba_.0:4,_RNCNvMs_NtNtCskjFBwtpsoHr_8quandary7message6writerNtB6_6Writer30write_compressed_unhinted_names_0Ba_.0:4,_RNvMs_NtNtCskjFBwtpsoHr_8quandary7message6writerNtB4_6Writer30write_compressed_unhinted_name.0:4,_RNvMs_NtNtCskjFBwtpsoHr_8quandary7message6writerNtB4_6Writer30write_compressed_unhinted_name.1:4,_RINvNvMNtNtCs8xvirJzNMvV_4core5slice5asciiSh27eq_ignore_ascii_case_chunks21eq_ignore_ascii_innerKj10_ECskjFBwtpsoHr_8quandary.0:3,_RNvMNtNtCs8xvirJzNMvV_4core5slice5asciiSh27eq_ignore_ascii_case_simpleCskjFBwtpsoHr_8quandary.0:3,_RINvMNtNtCs8xvirJzNMvV_4core5slice5asciiSh27eq_ignore_ascii_case_chunksKj10_ECskjFBwtpsoHr_8quandary.0:3,_RNvNtNtCskjFBwtpsoHr_8quandary4name4wire23parse_uncompressed_name.0:5,_RNvMs_NtCskjFBwtpsoHr_8quandary4nameNtB4_4Name15initialize_into.0:5,_RINvNtCs8xvirJzNMvV_4core3ptr9drop_glueSTjINtNtCs6xMQmN1AWUs_5alloc5boxed3BoxNtNtCskjFBwtpsoHr_8quandary4name4NameEEEB1h_.0:3,_RINvNtNtCskjFBwtpsoHr_8quandary6server5query11do_referralNtNtB2_10kani_query8MockZoneEB6_.0:2,_RINvNtNtCskjFBwtpsoHr_8quandary6server5query11do_referralNtNtB2_10kani_query8MockZoneEB6_.1:2,_RINvNtNtCskjFBwtpsoHr_8quandary6server5query11do_referralNtNtB2_10kani_query8MockZoneEB6_.2:2" stubs="M1,T0"
 //   fn="Server::handle_non_axfr_query,answer,do_additional_section_processing,Writer::add_answer_rrset,Writer::finish"
 //   bound="UDP, limit 64; question a. A IN; lookup(a.) = Found(A RRset of one RDATA), synthesized from *. or not; unwind 7"
 //   sym="ttl:u32, 4 RDATA octets, synth:bool"
@@ -1499,7 +1499,7 @@ proof!(c05_found_a, 7, {
     kani::cover!(ttl > 0x7fff_ffff, "TTL with the top bit set");
 });
 
-// @harness name=c05_found_a2 props=C05 panics=C05,C01 tier=thorough mem=4 t=900 kani="--no-assertion-reach-checks" cbmc="--max-field-sensitivity-array-size 256 --unwindset _RNCNvMs_NtNtCskjFBwtpsoHr_8quandary7message6writerNtB6_6Writer30write_compressed_unhinted_name0Ba_.0:4,_RNCNvMs_NtNtCskjFBwtpsoHr_8quandary7message6writerNtB6_6Writer30write_compressed_unhinted_names_0Ba_.0:4,_RNvMs_NtNtCskjFBwtpsoHr_8quandary7message6writerNtB4_6Writer30write_compressed_unhinted_name.0:4,_RNvMs_NtNtCskjFBwtpsoHr_8quandary7message6writerNtB4_6Writer30write_compressed_unhinted_name.1:4,_RINvNvMNtNtCs8xvirJzNMvV_4core5slice5asciiSh27eq_ignore_ascii_case_chunks21eq_ignore_ascii_innerKj10_ECskjFBwtpsoHr_8quandary.0:3,_RNvMNtNtCs8xvirJzNMvV_4core5slice5asciiSh27eq_ignore_ascii_case_simpleCskjFBwtpsoHr_8quandary.0:3,_RINvMNtNtCs8xvirJzNMvV_4core5slice5asciiSh27eq_ignore_ascii_case_chunksKj10_ECskjFBwtpsoHr_8quandary.0:3,_RNvNtNtCskjFBwtpsoHr_8quandary4name4wire23parse_uncompressed_name.0:5,_RNvMs_NtCskjFBwtpsoHr_8quandary4nameNtB4_4Name15initialize_into.0:5,_RINvNtCs8xvirJzNMvV_4core3ptr9drop_glueSTjINtNtCs6xMQmN1AWUs_5alloc5boxed3BoxNtNtCskjFBwtpsoHr_8quandary4name4NameEEEB1h_.0:3,_RINvNtNtCskjFBwtpsoHr_8quandary6server5query11do_referralNtNtB2_10kani_query8MockZoneEB6_.0:2,_RINvNtNtCskjFBwtpsoHr_8quandary6server5query11do_referralNtNtB2_10kani_query8MockZoneEB6_.1:2,_RINvNtNtCskjFBwtpsoHr_8quandary6server5query11do_referralNtNtB2_10kani_query8MockZoneEB6_.2:2" stubs="M1,T0"
+// @harness name=c05_found_a2 props=C05 panics=C05,C01 tier=thorough mem=2 t=900 kani="--no-assertion-reach-checks" cbmc="--max-field-sensitivity-array-size 256 --unwindset _RNCNvMs_NtNtCskjFBwtpsoHr_8quandary7message6writerNtB6_6Writer30write_compressed_unhinted_name0Ba_.0:4,_RNCNvMs_NtNtCskjFBwtpsoHr_8quandary7message6writerNtB6_6Writer30write_compressed_unhinted_names_0Ba_.0:4,_RNvMs_NtNtCskjFBwtpsoHr_8quandary7message6writerNtB4_6Writer30write_compressed_unhinted_name.0:4,_RNvMs_NtNtCskjFBwtpsoHr_8quandary7message6writerNtB4_6Writer30write_compressed_unhinted_name.1:4,_RINvNvMNtNtCs8xvirJzNMvV_4core5slice5asciiSh27eq_ignore_ascii_case_chunks21eq_ignore_ascii_innerKj10_ECskjFBwtpsoHr_8quandary.0:3,_RNvMNtNtCs8xvirJzNMvV_4core5slice5asciiSh27eq_ignore_ascii_case_simpleCskjFBwtpsoHr_8quandary.0:3,_RINvMNtNtCs8xvirJzNMvV_4core5slice5asciiSh27eq_ignore_ascii_case_chunksKj10_ECskjFBwtpsoHr_8quandary.0:3,_RNvNtNtCskjFBwtpsoHr_8quandary4name4wire23parse_uncompressed_name.0:5,_RNvMs_NtCskjFBwtpsoHr_8quandary4nameNtB4_4Name15initialize_into.0:5,_RINvNtCs8xvirJzNMvV_4core3ptr9drop_glueSTjINtNtCs6xMQmN1AWUs_5alloc5boxed3BoxNtNtCskjFBwtpsoHr_8quandary4name4NameEEEB1h_.0:3,_RINvNtNtCskjFBwtpsoHr_8quandary6server5query11do_referralNtNtB2_10kani_query8MockZoneEB6_.0:2,_RINvNtNtCskjFBwtpsoHr_8quandary6server5query11do_referralNtNtB2_10kani_query8MockZoneEB6_.1:2,_RINvNtNtCskjFBwtpsoHr_8quandary6server5query11do_referralNtNtB2_10kani_query8MockZoneEB6_.2:2" stubs="M1,T0"
 //   fn="Server::handle_non_axfr_query,answer,Writer::add_answer_rrset,Writer::add_rrset"
 //   bound="UDP, limit 64; question a. A IN; lookup(a.) = Found(A RRset of two RDATA, equal or not); unwind 7"
 //   sym="ttl:u32, 8 RDATA octets"
@@ -1563,7 +1563,7 @@ fn found_target(rtype: u16, udp: bool, limit: usize, has_a: bool, has_aaaa: bool
     (check_response(&resp, n, &ex, udp, limit), n)
 }
 
-// @harness name=c05_found_mx props=C05,C04 panics=C05,C01 tier=quick mem=4.5 t=3600 kani="--no-assertion-reach-checks" cbmc="--max-field-sensitivity-array-size 256 --unwindset _RNCNvMs_NtNtCskjFBwtpsoHr_8quandary7message6writerNtB6_6Writer30write_compressed_unhinted_name0Ba_.0:4,_RNCNvMs_NtNtCskjFBwtpsoHr_8quandary7message6writerNtB6_6Writer30write_compressed_unhinted_names_0Ba_.0:4,_RNvMs_NtNtCskjFBwtpsoHr_8quandary7message6writerNtB4_6Writer30write_compressed_unhinted_name.0:4,_RNvMs_NtNtCskjFBwtpsoHr_8quandary7message6writerNtB4_6Writer30write_compressed_unhinted_name.1:4,_RINvNvMNtNtCs8xvirJzNMvV_4core5slice5asciiSh27eq_ignore_ascii_case_chunks21eq_ignore_ascii_innerKj10_ECskjFBwtpsoHr_8quandary.0:3,_RNvMNtNtCs8xvirJzNMvV_4core5slice5asciiSh27eq_ignore_ascii_case_simpleCskjFBwtpsoHr_8quandary.0:3,_RINvMNtNtCs8xvirJzNMvV_4core5slice5asciiSh27eq_ignore_ascii_case_chunksKj10_ECskjFBwtpsoHr_8quandary.0:3,_RNvNtNtCskjFBwtpsoHr_8quandary4name4wire23parse_uncompressed_name.0:5,_RNvMs_NtCskjFBwtpsoHr_8quandary4nameNtB4_4Name15initialize_into.0:5,_RINvNtCs8xvirJzNMvV_4core3ptr9drop_glueSTjINtNtCs6xMQmN1AWUs_5alloc5boxed3BoxNtNtCskjFBwtpsoHr_8quandary4name4NameEEEB1h_.0:3,_RINvNtNtCskjFBwtpsoHr_8quandary6server5query11do_referralNtNtB2_10kani_query8MockZoneEB6_.0:2,_RINvNtNtCskjFBwtpsoHr_8quandary6server5query11do_referralNtNtB2_10kani_query8MockZoneEB6_.1:2,_RINvNtNtCskjFBwtpsoHr_8quandary6server5query11do_referralNtNtB2_10kani_query8MockZoneEB6_.2:2" stubs="M1,T0"
+// @harness name=c05_found_mx props=C05,C04 panics=C05,C01 tier=quick mem=2 t=1800 kani="--no-assertion-reach-checks" cbmc="--max-field-sensitivity-array-size 256 --unwindset _RNCNvMs_NtNtCskjFBwtpsoHr_8quandary7message6writerNtB6_6Writer30write_compressed_unhinted_name0Ba_.0:4,_RNCNvMs_NtNtCskjFBwtpsoHr_8quandary7message6writerNtB6_6Writer30write_compressed_unhinted_names_0Ba_.0:4,_RNvMs_NtNtCskjFBwtpsoHr_8quandary7message6writerNtB4_6Writer30write_compressed_unhinted_name.0:4,_RNvMs_NtNtCskjFBwtpsoHr_8quandary7message6writerNtB4_6Writer30write_compressed_unhinted_name.1:4,_RINvNvMNtNtCs8xvirJzNMvV_4core5slice5asciiSh27eq_ignore_ascii_case_chunks21eq_ignore_ascii_innerKj10_ECskjFBwtpsoHr_8quandary.0:3,_RNvMNtNtCs8xvirJzNMvV_4core5slice5asciiSh27eq_ignore_ascii_case_simpleCskjFBwtpsoHr_8quandary.0:3,_RINvMNtNtCs8xvirJzNMvV_4core5slice5asciiSh27eq_ignore_ascii_case_chunksKj10_ECskjFBwtpsoHr_8quandary.0:3,_RNvNtNtCskjFBwtpsoHr_8quandary4name4wire23parse_uncompressed_name.0:5,_RNvMs_NtCskjFBwtpsoHr_8quandary4nameNtB4_4Name15initialize_into.0:5,_RINvNtCs8xvirJzNMvV_4core3ptr9drop_glueSTjINtNtCs6xMQmN1AWUs_5alloc5boxed3BoxNtNtCskjFBwtpsoHr_8quandary4name4NameEEEB1h_.0:3,_RINvNtNtCskjFBwtpsoHr_8quandary6server5query11do_referralNtNtB2_10kani_query8MockZoneEB6_.0:2,_RINvNtNtCskjFBwtpsoHr_8quandary6server5query11do_referralNtNtB2_10kani_query8MockZoneEB6_.1:2,_RINvNtNtCskjFBwtpsoHr_8quandary6server5query11do_referralNtNtB2_10kani_query8MockZoneEB6_.2:2" stubs="M1,T0"
 //   fn="Server::handle_non_axfr_query,answer,do_additional_section_processing,add_additional_addresses,execute_allowing_truncation,read_name_from_rdata,Writer::add_answer_rrset,Writer::add_additional_rrset"
 //   bound="UDP, limit 64; question a. MX IN; lookup(a.) = Found(MX .. b.); lookup_addrs(b.) = Found with an A: 52 octets, complete; unwind 7"
 //   sym="TTL of the RRset, fixed RDATA octets, TTLs and octets of the address records"
@@ -1572,7 +1572,7 @@ proof!(c05_found_mx, 7, {
     kani::cover!(case == COMPLETE && n == 52, "MX answer with the A of the exchange");
 });
 
-// @harness name=c05_found_mx_both props=C05,C04 panics=C05,C01 tier=thorough mem=4.5 t=3600 kani="--no-assertion-reach-checks" cbmc="--max-field-sensitivity-array-size 256 --unwindset _RNCNvMs_NtNtCskjFBwtpsoHr_8quandary7message6writerNtB6_6Writer30write_compressed_unhinted_name0Ba_.0:4,_RNCNvMs_NtNtCskjFBwtpsoHr_8quandary7message6writerNtB6_6Writer30write_compressed_unhinted_names_0Ba_.0:4,_RNvMs_NtNtCskjFBwtpsoHr_8quandary7message6writerNtB4_6Writer30write_compressed_unhinted_name.0:4,_RNvMs_NtNtCskjFBwtpsoHr_8quandary7message6writerNtB4_6Writer30write_compressed_unhinted_name.1:4,_RINvNvMNtNtCs8xvirJzNMvV_4core5slice5asciiSh27eq_ignore_ascii_case_chunks21eq_ignore_ascii_innerKj10_ECskjFBwtpsoHr_8quandary.0:3,_RNvMNtNtCs8xvirJzNMvV_4core5slice5asciiSh27eq_ignore_ascii_case_simpleCskjFBwtpsoHr_8quandary.0:3,_RINvMNtNtCs8xvirJzNMvV_4core5slice5asciiSh27eq_ignore_ascii_case_chunksKj10_ECskjFBwtpsoHr_8quandary.0:3,_RNvNtNtCskjFBwtpsoHr_8quandary4name4wire23parse_uncompressed_name.0:5,_RNvMs_NtCskjFBwtpsoHr_8quandary4nameNtB4_4Name15initialize_into.0:5,_RINvNtCs8xvirJzNMvV_4core3ptr9drop_glueSTjINtNtCs6xMQmN1AWUs_5alloc5boxed3BoxNtNtCskjFBwtpsoHr_8quandary4name4NameEEEB1h_.0:3,_RINvNtNtCskjFBwtpsoHr_8quandary6server5query11do_referralNtNtB2_10kani_query8MockZoneEB6_.0:2,_RINvNtNtCskjFBwtpsoHr_8quandary6server5query11do_referralNtNtB2_10kani_query8MockZoneEB6_.1:2,_RINvNtNtCskjFBwtpsoHr_8quandary6server5query11do_referralNtNtB2_10kani_query8MockZoneEB6_.2:2" stubs="M1,T0"
+// @harness name=c05_found_mx_both props=C05,C04 panics=C05,C01 tier=thorough mem=2 t=1800 kani="--no-assertion-reach-checks" cbmc="--max-field-sensitivity-array-size 256 --unwindset _RNCNvMs_NtNtCskjFBwtpsoHr_8quandary7message6writerNtB6_6Writer30write_compressed_unhinted_name0Ba_.0:4,_RNCNvMs_NtNtCskjFBwtpsoHr_8quandary7message6writerNtB6_6Writer30write_compressed_unhinted_names_0Ba_.0:4,_RNvMs_NtNtCskjFBwtpsoHr_8quandary7message6writerNtB4_6Writer30write_compressed_unhinted_name.0:4,_RNvMs_NtNtCskjFBwtpsoHr_8quandary7message6writerNtB4_6Writer30write_compressed_unhinted_name.1:4,_RINvNvMNtNtCs8xvirJzNMvV_4core5slice5asciiSh27eq_ignore_ascii_case_chunks21eq_ignore_ascii_innerKj10_ECskjFBwtpsoHr_8quandary.0:3,_RNvMNtNtCs8xvirJzNMvV_4core5slice5asciiSh27eq_ignore_ascii_case_simpleCskjFBwtpsoHr_8quandary.0:3,_RINvMNtNtCs8xvirJzNMvV_4core5slice5asciiSh27eq_ignore_ascii_case_chunksKj10_ECskjFBwtpsoHr_8quandary.0:3,_RNvNtNtCskjFBwtpsoHr_8quandary4name4wire23parse_uncompressed_name.0:5,_RNvMs_NtCskjFBwtpsoHr_8quandary4nameNtB4_4Name15initialize_into.0:5,_RINvNtCs8xvirJzNMvV_4core3ptr9drop_glueSTjINtNtCs6xMQmN1AWUs_5alloc5boxed3BoxNtNtCskjFBwtpsoHr_8quandary4name4NameEEEB1h_.0:3,_RINvNtNtCskjFBwtpsoHr_8quandary6server5query11do_referralNtNtB2_10kani_query8MockZoneEB6_.0:2,_RINvNtNtCskjFBwtpsoHr_8quandary6server5query11do_referralNtNtB2_10kani_query8MockZoneEB6_.1:2,_RINvNtNtCskjFBwtpsoHr_8quandary6server5query11do_referralNtNtB2_10kani_query8MockZoneEB6_.2:2" stubs="M1,T0"
 //   fn="Server::handle_non_axfr_query,answer,do_additional_section_processing,add_additional_addresses,execute_allowing_truncation,read_name_from_rdata,Writer::add_answer_rrset,Writer::add_additional_rrset"
 //   bound="UDP, limit 64; question a. MX IN; lookup(a.) = Found(MX .. b.); lookup_addrs(b.) = Found with A and AAAA: 80 octets needed: the AAAA is optional data and is dropped, no TC; unwind 7"
 //   sym="TTL of the RRset, fixed RDATA octets, TTLs and octets of the address records"
@@ -1581,7 +1581,7 @@ proof!(c05_found_mx_both, 7, {
     kani::cover!(case == PARTIAL && n == 52, "AAAA of the exchange dropped without TC");
 });
 
-// @harness name=c05_found_mx_aaaa props=C05,C04 panics=C05,C01 tier=thorough mem=4.5 t=3600 kani="--no-assertion-reach-checks" cbmc="--max-field-sensitivity-array-size 256 --unwindset _RNCNvMs_NtNtCskjFBwtpsoHr_8quandary7message6writerNtB6_6Writer30write_compressed_unhinted_name0Ba_.0:4,_RNCNvMs_NtNtCskjFBwtpsoHr_8quandary7message6writerNtB6_6Writer30write_compressed_unhinted_names_0Ba_.0:4,_RNvMs_NtNtCskjFBwtpsoHr_8quandary7message6writerNtB4_6Writer30write_compressed_unhinted_name.0:4,_RNvMs_NtNtCskjFBwtpsoHr_8quandary7message6writerNtB4_6Writer30write_compressed_unhinted_name.1:4,_RINvNvMNtNtCs8xvirJzNMvV_4core5slice5asciiSh27eq_ignore_ascii_case_chunks21eq_ignore_ascii_innerKj10_ECskjFBwtpsoHr_8quandary.0:3,_RNvMNtNtCs8xvirJzNMvV_4core5slice5asciiSh27eq_ignore_ascii_case_simpleCskjFBwtpsoHr_8quandary.0:3,_RINvMNtNtCs8xvirJzNMvV_4core5slice5asciiSh27eq_ignore_ascii_case_chunksKj10_ECskjFBwtpsoHr_8quandary.0:3,_RNvNtNtCskjFBwtpsoHr_8quandary4name4wire23parse_uncompressed_name.0:5,_RNvMs_NtCskjFBwtpsoHr_8quandary4nameNtB4_4Name15initialize_into.0:5,_RINvNtCs8xvirJzNMvV_4core3ptr9drop_glueSTjINtNtCs6xMQmN1AWUs_5alloc5boxed3BoxNtNtCskjFBwtpsoHr_8quandary4name4NameEEEB1h_.0:3,_RINvNtNtCskjFBwtpsoHr_8quandary6server5query11do_referralNtNtB2_10kani_query8MockZoneEB6_.0:2,_RINvNtNtCskjFBwtpsoHr_8quandary6server5query11do_referralNtNtB2_10kani_query8MockZoneEB6_.1:2,_RINvNtNtCskjFBwtpsoHr_8quandary6server5query11do_referralNtNtB2_10kani_query8MockZoneEB6_.2:2" stubs="M1,T0"
+// @harness name=c05_found_mx_aaaa props=C05,C04 panics=C05,C01 tier=thorough mem=2 t=1800 kani="--no-assertion-reach-checks" cbmc="--max-field-sensitivity-array-size 256 --unwindset _RNCNvMs_NtNtCskjFBwtpsoHr_8quandary7message6writerNtB6_6Writer30write_compressed_unhinted_name0Ba_.0:4,_RNCNvMs_NtNtCskjFBwtpsoHr_8quandary7message6writerNtB6_6Writer30write_compressed_unhinted_names_0Ba_.0:4,_RNvMs_NtNtCskjFBwtpsoHr_8quandary7message6writerNtB4_6Writer30write_compressed_unhinted_name.0:4,_RNvMs_NtNtCskjFBwtpsoHr_8quandary7message6writerNtB4_6Writer30write_compressed_unhinted_name.1:4,_RINvNvMNtNtCs8xvirJzNMvV_4core5slice5asciiSh27eq_ignore_ascii_case_chunks21eq_ignore_ascii_innerKj10_ECskjFBwtpsoHr_8quandary.0:3,_RNvMNtNtCs8xvirJzNMvV_4core5slice5asciiSh27eq_ignore_ascii_case_simpleCskjFBwtpsoHr_8quandary.0:3,_RINvMNtNtCs8xvirJzNMvV_4core5slice5asciiSh27eq_ignore_ascii_case_chunksKj10_ECskjFBwtpsoHr_8quandary.0:3,_RNvNtNtCskjFBwtpsoHr_8quandary4name4wire23parse_uncompressed_name.0:5,_RNvMs_NtCskjFBwtpsoHr_8quandary4nameNtB4_4Name15initialize_into.0:5,_RINvNtCs8xvirJzNMvV_4core3ptr9drop_glueSTjINtNtCs6xMQmN1AWUs_5alloc5boxed3BoxNtNtCskjFBwtpsoHr_8quandary4name4NameEEEB1h_.0:3,_RINvNtNtCskjFBwtpsoHr_8quandary6server5query11do_referralNtNtB2_10kani_query8MockZoneEB6_.0:2,_RINvNtNtCskjFBwtpsoHr_8quandary6server5query11do_referralNtNtB2_10kani_query8MockZoneEB6_.1:2,_RINvNtNtCskjFBwtpsoHr_8quandary6server5query11do_referralNtNtB2_10kani_query8MockZoneEB6_.2:2" stubs="M1,T0"
 //   fn="Server::handle_non_axfr_query,answer,do_additional_section_processing,add_additional_addresses,execute_allowing_truncation,read_name_from_rdata,Writer::add_answer_rrset,Writer::add_additional_rrset"
 //   bound="UDP, limit 64; question a. MX IN; lookup(a.) = Found(MX .. b.); lookup_addrs(b.) = Found with an AAAA: 64 octets, fits exactly; unwind 7"
 //   sym="TTL of the RRset, fixed RDATA octets, TTLs and octets of the address records"
@@ -1590,7 +1590,7 @@ proof!(c05_found_mx_aaaa, 7, {
     kani::cover!(case == COMPLETE && n == 64, "MX answer with the AAAA of the exchange");
 });
 
-// @harness name=c05_found_mx_none props=C05,C04 panics=C05,C01 tier=thorough mem=4.5 t=3600 kani="--no-assertion-reach-checks" cbmc="--max-field-sensitivity-array-size 256 --unwindset _RNCNvMs_NtNtCskjFBwtpsoHr_8quandary7message6writerNtB6_6Writer30write_compressed_unhinted_name0Ba_.0:4,_RNCNvMs_NtNtCskjFBwtpsoHr_8quandary7message6writerNtB6_6Writer30write_compressed_unhinted_names_0Ba_.0:4,_RNvMs_NtNtCskjFBwtpsoHr_8quandary7message6writerNtB4_6Writer30write_compressed_unhinted_name.0:4,_RNvMs_NtNtCskjFBwtpsoHr_8quandary7message6writerNtB4_6Writer30write_compressed_unhinted_name.1:4,_RINvNvMNtNtCs8xvirJzNMvV_4core5slice5asciiSh27eq_ignore_ascii_case_chunks21eq_ignore_ascii_innerKj10_ECskjFBwtpsoHr_8quandary.0:3,_RNvMNtNtCs8xvirJzNMvV_4core5slice5asciiSh27eq_ignore_ascii_case_simpleCskjFBwtpsoHr_8quandary.0:3,_RINvMNtNtCs8xvirJzNMvV_4core5slice5asciiSh27eq_ignore_ascii_case_chunksKj10_ECskjFBwtpsoHr_8quandary.0:3,_RNvNtNtCskjFBwtpsoHr_8quandary4name4wire23parse_uncompressed_name.0:5,_RNvMs_NtCskjFBwtpsoHr_8quandary4nameNtB4_4Name15initialize_into.0:5,_RINvNtCs8xvirJzNMvV_4core3ptr9drop_glueSTjINtNtCs6xMQmN1AWUs_5alloc5boxed3BoxNtNtCskjFBwtpsoHr_8quandary4name4NameEEEB1h_.0:3,_RINvNtNtCskjFBwtpsoHr_8quandary6server5query11do_referralNtNtB2_10kani_query8MockZoneEB6_.0:2,_RINvNtNtCskjFBwtpsoHr_8quandary6server5query11do_referralNtNtB2_10kani_query8MockZoneEB6_.1:2,_RINvNtNtCskjFBwtpsoHr_8quandary6server5query11do_referralNtNtB2_10kani_query8MockZoneEB6_.2:2" stubs="M1,T0"
+// @harness name=c05_found_mx_none props=C05,C04 panics=C05,C01 tier=thorough mem=2 t=1800 kani="--no-assertion-reach-checks" cbmc="--max-field-sensitivity-array-size 256 --unwindset _RNCNvMs_NtNtCskjFBwtpsoHr_8quandary7message6writerNtB6_6Writer30write_compressed_unhinted_name0Ba_.0:4,_RNCNvMs_NtNtCskjFBwtpsoHr_8quandary7message6writerNtB6_6Writer30write_compressed_unhinted_names_0Ba_.0:4,_RNvMs_NtNtCskjFBwtpsoHr_8quandary7message6writerNtB4_6Writer30write_compressed_unhinted_name.0:4,_RNvMs_NtNtCskjFBwtpsoHr_8quandary7message6writerNtB4_6Writer30write_compressed_unhinted_name.1:4,_RINvNvMNtNtCs8xvirJzNMvV_4core5slice5asciiSh27eq_ignore_ascii_case_chunks21eq_ignore_ascii_innerKj10_ECskjFBwtpsoHr_8quandary.0:3,_RNvMNtNtCs8xvirJzNMvV_4core5slice5asciiSh27eq_ignore_ascii_case_simpleCskjFBwtpsoHr_8quandary.0:3,_RINvMNtNtCs8xvirJzNMvV_4core5slice5asciiSh27eq_ignore_ascii_case_chunksKj10_ECskjFBwtpsoHr_8quandary.0:3,_RNvNtNtCskjFBwtpsoHr_8quandary4name4wire23parse_uncompressed_name.0:5,_RNvMs_NtCskjFBwtpsoHr_8quandary4nameNtB4_4Name15initialize_into.0:5,_RINvNtCs8xvirJzNMvV_4core3ptr9drop_glueSTjINtNtCs6xMQmN1AWUs_5alloc5boxed3BoxNtNtCskjFBwtpsoHr_8quandary4name4NameEEEB1h_.0:3,_RINvNtNtCskjFBwtpsoHr_8quandary6server5query11do_referralNtNtB2_10kani_query8MockZoneEB6_.0:2,_RINvNtNtCskjFBwtpsoHr_8quandary6server5query11do_referralNtNtB2_10kani_query8MockZoneEB6_.1:2,_RINvNtNtCskjFBwtpsoHr_8quandary6server5query11do_referralNtNtB2_10kani_query8MockZoneEB6_.2:2" stubs="M1,T0"
 //   fn="Server::handle_non_axfr_query,answer,do_additional_section_processing,add_additional_addresses,execute_allowing_truncation,read_name_from_rdata,Writer::add_answer_rrset,Writer::add_additional_rrset"
 //   bound="UDP, limit 64; question a. MX IN; lookup(a.) = Found(MX .. b.); lookup_addrs(b.) = Found with no address record: 36 octets, no additional data; unwind 7"
 //   sym="TTL of the RRset, fixed RDATA octets, TTLs and octets of the address records"
@@ -1599,7 +1599,7 @@ proof!(c05_found_mx_none, 7, {
     kani::cover!(case == COMPLETE && n == 36, "MX answer without additional data");
 });
 
-// @harness name=c05_found_ns props=C05,C04 panics=C05,C01 tier=thorough mem=4.5 t=3600 kani="--no-assertion-reach-checks" cbmc="--max-field-sensitivity-array-size 256 --unwindset _RNCNvMs_NtNtCskjFBwtpsoHr_8quandary7message6writerNtB6_6Writer30write_compressed_unhinted_name0Ba_.0:4,_RNCNvMs_NtNtCskjFBwtpsoHr_8quandary7message6writerNtB6_6Writer30write_compressed_unhinted_names_0Ba_.0:4,_RNvMs_NtNtCskjFBwtpsoHr_8quandary7message6writerNtB4_6Writer30write_compressed_unhinted_name.0:4,_RNvMs_NtNtCskjFBwtpsoHr_8quandary7message6writerNtB4_6Writer30write_compressed_unhinted_name.1:4,_RINvNvMNtNtCs8xvirJzNMvV_4core5slice5asciiSh27eq_ignore_ascii_case_chunks21eq_ignore_ascii_innerKj10_ECskjFBwtpsoHr_8quandary.0:3,_RNvMNtNtCs8xvirJzNMvV_4core5slice5asciiSh27eq_ignore_ascii_case_simpleCskjFBwtpsoHr_8quandary.0:3,_RINvMNtNtCs8xvirJzNMvV_4core5slice5asciiSh27eq_ignore_ascii_case_chunksKj10_ECskjFBwtpsoHr_8quandary.0:3,_RNvNtNtCskjFBwtpsoHr_8quandary4name4wire23parse_uncompressed_name.0:5,_RNvMs_NtCskjFBwtpsoHr_8quandary4nameNtB4_4Name15initialize_into.0:5,_RINvNtCs8xvirJzNMvV_4core3ptr9drop_glueSTjINtNtCs6xMQmN1AWUs_5alloc5boxed3BoxNtNtCskjFBwtpsoHr_8quandary4name4NameEEEB1h_.0:3,_RINvNtNtCskjFBwtpsoHr_8quandary6server5query11do_referralNtNtB2_10kani_query8MockZoneEB6_.0:2,_RINvNtNtCskjFBwtpsoHr_8quandary6server5query11do_referralNtNtB2_10kani_query8MockZoneEB6_.1:2,_RINvNtNtCskjFBwtpsoHr_8quandary6server5query11do_referralNtNtB2_10kani_query8MockZoneEB6_.2:2" stubs="M1,T0"
+// @harness name=c05_found_ns props=C05,C04 panics=C05,C01 tier=thorough mem=2 t=1800 kani="--no-assertion-reach-checks" cbmc="--max-field-sensitivity-array-size 256 --unwindset _RNCNvMs_NtNtCskjFBwtpsoHr_8quandary7message6writerNtB6_6Writer30write_compressed_unhinted_name0Ba_.0:4,_RNCNvMs_NtNtCskjFBwtpsoHr_8quandary7message6writerNtB6_6Writer30write_compressed_unhinted_names_0Ba_.0:4,_RNvMs_NtNtCskjFBwtpsoHr_8quandary7message6writerNtB4_6Writer30write_compressed_unhinted_name.0:4,_RNvMs_NtNtCskjFBwtpsoHr_8quandary7message6writerNtB4_6Writer30write_compressed_unhinted_name.1:4,_RINvNvMNtNtCs8xvirJzNMvV_4core5slice5asciiSh27eq_ignore_ascii_case_chunks21eq_ignore_ascii_innerKj10_ECskjFBwtpsoHr_8quandary.0:3,_RNvMNtNtCs8xvirJzNMvV_4core5slice5asciiSh27eq_ignore_ascii_case_simpleCskjFBwtpsoHr_8quandary.0:3,_RINvMNtNtCs8xvirJzNMvV_4core5slice5asciiSh27eq_ignore_ascii_case_chunksKj10_ECskjFBwtpsoHr_8quandary.0:3,_RNvNtNtCskjFBwtpsoHr_8quandary4name4wire23parse_uncompressed_name.0:5,_RNvMs_NtCskjFBwtpsoHr_8quandary4nameNtB4_4Name15initialize_into.0:5,_RINvNtCs8xvirJzNMvV_4core3ptr9drop_glueSTjINtNtCs6xMQmN1AWUs_5alloc5boxed3BoxNtNtCskjFBwtpsoHr_8quandary4name4NameEEEB1h_.0:3,_RINvNtNtCskjFBwtpsoHr_8quandary6server5query11do_referralNtNtB2_10kani_query8MockZoneEB6_.0:2,_RINvNtNtCskjFBwtpsoHr_8quandary6server5query11do_referralNtNtB2_10kani_query8MockZoneEB6_.1:2,_RINvNtNtCskjFBwtpsoHr_8quandary6server5query11do_referralNtNtB2_10kani_query8MockZoneEB6_.2:2" stubs="M1,T0"
 //   fn="Server::handle_non_axfr_query,answer,do_additional_section_processing,add_additional_addresses,execute_allowing_truncation,read_name_from_rdata,Writer::add_answer_rrset,Writer::add_additional_rrset"
 //   bound="UDP, limit 64; question a. NS IN; lookup(a.) = Found(NS .. b.); lookup_addrs(b.) = Found with an A: authoritative NS RRset (e.g. at the apex), 50 octets; unwind 7"
 //   sym="TTL of the RRset, fixed RDATA octets, TTLs and octets of the address records"
@@ -1608,7 +1608,7 @@ proof!(c05_found_ns, 7, {
     kani::cover!(case == COMPLETE && n == 50, "NS answer with the A of the server");
 });
 
-// @harness name=c05_found_srv props=C05,C04 panics=C05,C01 tier=thorough mem=4.5 t=3600 kani="--no-assertion-reach-checks" cbmc="--max-field-sensitivity-array-size 256 --unwindset _RNCNvMs_NtNtCskjFBwtpsoHr_8quandary7message6writerNtB6_6Writer30write_compressed_unhinted_name0Ba_.0:4,_RNCNvMs_NtNtCskjFBwtpsoHr_8quandary7message6writerNtB6_6Writer30write_compressed_unhinted_names_0Ba_.0:4,_RNvMs_NtNtCskjFBwtpsoHr_8quandary7message6writerNtB4_6Writer30write_compressed_unhinted_name.0:4,_RNvMs_NtNtCskjFBwtpsoHr_8quandary7message6writerNtB4_6Writer30write_compressed_unhinted_name.1:4,_RINvNvMNtNtCs8xvirJzNMvV_4core5slice5asciiSh27eq_ignore_ascii_case_chunks21eq_ignore_ascii_innerKj10_ECskjFBwtpsoHr_8quandary.0:3,_RNvMNtNtCs8xvirJzNMvV_4core5slice5asciiSh27eq_ignore_ascii_case_simpleCskjFBwtpsoHr_8quandary.0:3,_RINvMNtNtCs8xvirJzNMvV_4core5slice5asciiSh27eq_ignore_ascii_case_chunksKj10_ECskjFBwtpsoHr_8quandary.0:3,_RNvNtNtCskjFBwtpsoHr_8quandary4name4wire23parse_uncompressed_name.0:5,_RNvMs_NtCskjFBwtpsoHr_8quandary4nameNtB4_4Name15initialize_into.0:5,_RINvNtCs8xvirJzNMvV_4core3ptr9drop_glueSTjINtNtCs6xMQmN1AWUs_5alloc5boxed3BoxNtNtCskjFBwtpsoHr_8quandary4name4NameEEEB1h_.0:3,_RINvNtNtCskjFBwtpsoHr_8quandary6server5query11do_referralNtNtB2_10kani_query8MockZoneEB6_.0:2,_RINvNtNtCskjFBwtpsoHr_8quandary6server5query11do_referralNtNtB2_10kani_query8MockZoneEB6_.1:2,_RINvNtNtCskjFBwtpsoHr_8quandary6server5query11do_referralNtNtB2_10kani_query8MockZoneEB6_.2:2" stubs="M1,T0"
+// @harness name=c05_found_srv props=C05,C04 panics=C05,C01 tier=thorough mem=2 t=1800 kani="--no-assertion-reach-checks" cbmc="--max-field-sensitivity-array-size 256 --unwindset _RNCNvMs_NtNtCskjFBwtpsoHr_8quandary7message6writerNtB6_6Writer30write_compressed_unhinted_name0Ba_.0:4,_RNCNvMs_NtNtCskjFBwtpsoHr_8quandary7message6writerNtB6_6Writer30write_compressed_unhinted_names_0Ba_.0:4,_RNvMs_NtNtCskjFBwtpsoHr_8quandary7message6writerNtB4_6Writer30write_compressed_unhinted_name.0:4,_RNvMs_NtNtCskjFBwtpsoHr_8quandary7message6writerNtB4_6Writer30write_compressed_unhinted_name.1:4,_RINvNvMNtNtCs8xvirJzNMvV_4core5slice5asciiSh27eq_ignore_ascii_case_chunks21eq_ignore_ascii_innerKj10_ECskjFBwtpsoHr_8quandary.0:3,_RNvMNtNtCs8xvirJzNMvV_4core5slice5asciiSh27eq_ignore_ascii_case_simpleCskjFBwtpsoHr_8quandary.0:3,_RINvMNtNtCs8xvirJzNMvV_4core5slice5asciiSh27eq_ignore_ascii_case_chunksKj10_ECskjFBwtpsoHr_8quandary.0:3,_RNvNtNtCskjFBwtpsoHr_8quandary4name4wire23parse_uncompressed_name.0:5,_RNvMs_NtCskjFBwtpsoHr_8quandary4nameNtB4_4Name15initialize_into.0:5,_RINvNtCs8xvirJzNMvV_4core3ptr9drop_glueSTjINtNtCs6xMQmN1AWUs_5alloc5boxed3BoxNtNtCskjFBwtpsoHr_8quandary4name4NameEEEB1h_.0:3,_RINvNtNtCskjFBwtpsoHr_8quandary6server5query11do_referralNtNtB2_10kani_query8MockZoneEB6_.0:2,_RINvNtNtCskjFBwtpsoHr_8quandary6server5query11do_referralNtNtB2_10kani_query8MockZoneEB6_.1:2,_RINvNtNtCskjFBwtpsoHr_8quandary6server5query11do_referralNtNtB2_10kani_query8MockZoneEB6_.2:2" stubs="M1,T0"
 //   fn="Server::handle_non_axfr_query,answer,do_additional_section_processing,add_additional_addresses,execute_allowing_truncation,read_name_from_rdata,Writer::add_answer_rrset,Writer::add_additional_rrset"
 //   bound="UDP, limit 64; question a. SRV IN; lookup(a.) = Found(SRV .. b.); lookup_addrs(b.) = Found with an A: 56 octets; unwind 7"
 //   sym="TTL of the RRset, fixed RDATA octets, TTLs and octets of the address records"
@@ -1617,7 +1617,7 @@ proof!(c05_found_srv, 7, {
     kani::cover!(case == COMPLETE && n == 56, "SRV answer with the A of the target");
 });
 
-// @harness name=c05_found_mx_badrdata props=C05 panics=C05,C01 tier=thorough mem=4 t=900 kani="--no-assertion-reach-checks" cbmc="--max-field-sensitivity-array-size 256 --unwindset _RNCNvMs_NtNtCskjFBwtpsoHr_8quandary7message6writerNtB6_6Writer30write_compressed_unhinted_name0Ba_.0:4,_RNCNvMs_NtNtCskjFBwtpsoHr_8quandary7message6writerNtB6_6Writer30write_compressed_unhinted_names_0Ba_.0:4,_RNvMs_NtNtCskjFBwtpsoHr_8quandary7message6writerNtB4_6Writer30write_compressed_unhinted_name.0:4,_RNvMs_NtNtCskjFBwtpsoHr_8quandary7message6writerNtB4_6Writer30write_compressed_unhinted_name.1:4,_RINvNvMNtNtCs8xvirJzNMvV_4core5slice5asciiSh27eq_ignore_ascii_case_chunks21eq_ignore_ascii_innerKj10_ECskjFBwtpsoHr_8quandary.0:3,_RNvMNtNtCs8xvirJzNMvV_4core5slice5asciiSh27eq_ignore_ascii_case_simpleCskjFBwtpsoHr_8quandary.0:3,_RINvMNtNtCs8xvirJzNMvV_4core5slice5asciiSh27eq_ignore_ascii_case_chunksKj10_ECskjFBwtpsoHr_8quandary.0:3,_RNvNtNtCskjFBwtpsoHr_8quandary4name4wire23parse_uncompressed_name.0:5,_RNvMs_NtCskjFBwtpsoHr_8quandary4nameNtB4_4Name15initialize_into.0:5,_RINvNtCs8xvirJzNMvV_4core3ptr9drop_glueSTjINtNtCs6xMQmN1AWUs_5alloc5boxed3BoxNtNtCskjFBwtpsoHr_8quandary4name4NameEEEB1h_.0:3,_RINvNtNtCskjFBwtpsoHr_8quandary6server5query11do_referralNtNtB2_10kani_query8MockZoneEB6_.0:2,_RINvNtNtCskjFBwtpsoHr_8quandary6server5query11do_referralNtNtB2_10kani_query8MockZoneEB6_.1:2,_RINvNtNtCskjFBwtpsoHr_8quandary6server5query11do_referralNtNtB2_10kani_query8MockZoneEB6_.2:2" stubs="M1,T0"
+// @harness name=c05_found_mx_badrdata props=C05 panics=C05,C01 tier=thorough mem=2 t=900 kani="--no-assertion-reach-checks" cbmc="--max-field-sensitivity-array-size 256 --unwindset _RNCNvMs_NtNtCskjFBwtpsoHr_8quandary7message6writerNtB6_6Writer30write_compressed_unhinted_name0Ba_.0:4,_RNCNvMs_NtNtCskjFBwtpsoHr_8quandary7message6writerNtB6_6Writer30write_compressed_unhinted_names_0Ba_.0:4,_RNvMs_NtNtCskjFBwtpsoHr_8quandary7message6writerNtB4_6Writer30write_compressed_unhinted_name.0:4,_RNvMs_NtNtCskjFBwtpsoHr_8quandary7message6writerNtB4_6Writer30write_compressed_unhinted_name.1:4,_RINvNvMNtNtCs8xvirJzNMvV_4core5slice5asciiSh27eq_ignore_ascii_case_chunks21eq_ignore_ascii_innerKj10_ECskjFBwtpsoHr_8quandary.0:3,_RNvMNtNtCs8xvirJzNMvV_4core5slice5asciiSh27eq_ignore_ascii_case_simpleCskjFBwtpsoHr_8quandary.0:3,_RINvMNtNtCs8xvirJzNMvV_4core5slice5asciiSh27eq_ignore_ascii_case_chunksKj10_ECskjFBwtpsoHr_8quandary.0:3,_RNvNtNtCskjFBwtpsoHr_8quandary4name4wire23parse_uncompressed_name.0:5,_RNvMs_NtCskjFBwtpsoHr_8quandary4nameNtB4_4Name15initialize_into.0:5,_RINvNtCs8xvirJzNMvV_4core3ptr9drop_glueSTjINtNtCs6xMQmN1AWUs_5alloc5boxed3BoxNtNtCskjFBwtpsoHr_8quandary4name4NameEEEB1h_.0:3,_RINvNtNtCskjFBwtpsoHr_8quandary6server5query11do_referralNtNtB2_10kani_query8MockZoneEB6_.0:2,_RINvNtNtCskjFBwtpsoHr_8quandary6server5query11do_referralNtNtB2_10kani_query8MockZoneEB6_.1:2,_RINvNtNtCskjFBwtpsoHr_8quandary6server5query11do_referralNtNtB2_10kani_query8MockZoneEB6_.2:2" stubs="M1,T0"
 //   fn="Server::handle_non_axfr_query,answer,Writer::add_answer_rrset,Writer::add_rr,Rdata::components"
 //   bound="UDP, limit 64; question a. MX IN; lookup(a.) = Found(MX RDATA of one octet, and MX RDATA whose exchange name is cut short); unwind 7"
 //   sym="RDATA octets"
@@ -1699,7 +1699,7 @@ fn chain<const BUF: usize>(root_q: bool, targets: &[PN], raws: &[[u8; 5]], n: us
     check_response(&resp, n_resp, &ex, udp, limit);
 }
 
-// @harness name=c05_cname_found props=C05 panics=C05,C01 tier=quick mem=4 t=1200 kani="--no-assertion-reach-checks" cbmc="--max-field-sensitivity-array-size 256 --unwindset _RNCNvMs_NtNtCskjFBwtpsoHr_8quandary7message6writerNtB6_6Writer30write_compressed_unhinted_name0Ba_.0:4,_RNCNvMs_NtNtCskjFBwtpsoHr_8quandary7message6writerNtB6_6Writer30write_compressed_unhinted_names_0Ba_.0:4,_RNvMs_NtNtCskjFBwtpsoHr_8quandary7message6writerNtB4_6Writer30write_compressed_unhinted_name.0:4,_RNvMs_NtNtCskjFBwtpsoHr_8quandary7message6writerNtB4_6Writer30write_compressed_unhinted_name.1:4,_RINvNvMNtNtCs8xvirJzNMvV_4core5slice5asciiSh27eq_ignore_ascii_case_chunks21eq_ignore_ascii_innerKj10_ECskjFBwtpsoHr_8quandary.0:3,_RNvMNtNtCs8xvirJzNMvV_4core5slice5asciiSh27eq_ignore_ascii_case_simpleCskjFBwtpsoHr_8quandary.0:3,_RINvMNtNtCs8xvirJzNMvV_4core5slice5asciiSh27eq_ignore_ascii_case_chunksKj10_ECskjFBwtpsoHr_8quandary.0:3,_RNvNtNtCskjFBwtpsoHr_8quandary4name4wire23parse_uncompressed_name.0:5,_RNvMs_NtCskjFBwtpsoHr_8quandary4nameNtB4_4Name15initialize_into.0:5,_RINvNtCs8xvirJzNMvV_4core3ptr9drop_glueSTjINtNtCs6xMQmN1AWUs_5alloc5boxed3BoxNtNtCskjFBwtpsoHr_8quandary4name4NameEEEB1h_.0:3,_RINvNtNtCskjFBwtpsoHr_8quandary6server5query11do_referralNtNtB2_10kani_query8MockZoneEB6_.0:2,_RINvNtNtCskjFBwtpsoHr_8quandary6server5query11do_referralNtNtB2_10kani_query8MockZoneEB6_.1:2,_RINvNtNtCskjFBwtpsoHr_8quandary6server5query11do_referralNtNtB2_10kani_query8MockZoneEB6_.2:2" stubs="M1,T0"
+// @harness name=c05_cname_found props=C05 panics=C05,C01 tier=quick mem=2 t=1200 kani="--no-assertion-reach-checks" cbmc="--max-field-sensitivity-array-size 256 --unwindset _RNCNvMs_NtNtCskjFBwtpsoHr_8quandary7message6writerNtB6_6Writer30write_compressed_unhinted_name0Ba_.0:4,_RNCNvMs_NtNtCskjFBwtpsoHr_8quandary7message6writerNtB6_6Writer30write_compressed_unhinted_names_0Ba_.0:4,_RNvMs_NtNtCskjFBwtpsoHr_8quandary7message6writerNtB4_6Writer30write_compressed_unhinted_name.0:4,_RNvMs_NtNtCskjFBwtpsoHr_8quandary7message6writerNtB4_6Writer30write_compressed_unhinted_name.1:4,_RINvNvMNtNtCs8xvirJzNMvV_4core5slice5asciiSh27eq_ignore_ascii_case_chunks21eq_ignore_ascii_innerKj10_ECskjFBwtpsoHr_8quandary.0:3,_RNvMNtNtCs8xvirJzNMvV_4core5slice5asciiSh27eq_ignore_ascii_case_simpleCskjFBwtpsoHr_8quandary.0:3,_RINvMNtNtCs8xvirJzNMvV_4core5slice5asciiSh27eq_ignore_ascii_case_chunksKj10_ECskjFBwtpsoHr_8quandary.0:3,_RNvNtNtCskjFBwtpsoHr_8quandary4name4wire23parse_uncompressed_name.0:5,_RNvMs_NtCskjFBwtpsoHr_8quandary4nameNtB4_4Name15initialize_into.0:5,_RINvNtCs8xvirJzNMvV_4core3ptr9drop_glueSTjINtNtCs6xMQmN1AWUs_5alloc5boxed3BoxNtNtCskjFBwtpsoHr_8quandary4name4NameEEEB1h_.0:3,_RINvNtNtCskjFBwtpsoHr_8quandary6server5query11do_referralNtNtB2_10kani_query8MockZoneEB6_.0:2,_RINvNtNtCskjFBwtpsoHr_8quandary6server5query11do_referralNtNtB2_10kani_query8MockZoneEB6_.1:2,_RINvNtNtCskjFBwtpsoHr_8quandary6server5query11do_referralNtNtB2_10kani_query8MockZoneEB6_.2:2" stubs="M1,T0"
 //   fn="Server::handle_non_axfr_query,answer,do_cname,follow_cname_1,follow_cname_2,Writer::add_answer_rr,Writer::add_answer_rrset"
 //   bound="UDP, limit 64; question a. A IN; a. CNAME b.; lookup(b.) = Found(one A); unwind 7"
 //   sym="2 TTLs, 4 RDATA octets"
@@ -1709,7 +1709,7 @@ proof!(c05_cname_found, 7, {
     kani::cover!(true, "CNAME followed to an address");
 });
 
-// @harness name=c05_cname_nxdomain props=C05 panics=C05,C01 tier=thorough mem=4 t=1200 kani="--no-assertion-reach-checks" cbmc="--max-field-sensitivity-array-size 256 --unwindset _RNCNvMs_NtNtCskjFBwtpsoHr_8quandary7message6writerNtB6_6Writer30write_compressed_unhinted_name0Ba_.0:4,_RNCNvMs_NtNtCskjFBwtpsoHr_8quandary7message6writerNtB6_6Writer30write_compressed_unhinted_names_0Ba_.0:4,_RNvMs_NtNtCskjFBwtpsoHr_8quandary7message6writerNtB4_6Writer30write_compressed_unhinted_name.0:4,_RNvMs_NtNtCskjFBwtpsoHr_8quandary7message6writerNtB4_6Writer30write_compressed_unhinted_name.1:4,_RINvNvMNtNtCs8xvirJzNMvV_4core5slice5asciiSh27eq_ignore_ascii_case_chunks21eq_ignore_ascii_innerKj10_ECskjFBwtpsoHr_8quandary.0:3,_RNvMNtNtCs8xvirJzNMvV_4core5slice5asciiSh27eq_ignore_ascii_case_simpleCskjFBwtpsoHr_8quandary.0:3,_RINvMNtNtCs8xvirJzNMvV_4core5slice5asciiSh27eq_ignore_ascii_case_chunksKj10_ECskjFBwtpsoHr_8quandary.0:3,_RNvNtNtCskjFBwtpsoHr_8quandary4name4wire23parse_uncompressed_name.0:5,_RNvMs_NtCskjFBwtpsoHr_8quandary4nameNtB4_4Name15initialize_into.0:5,_RINvNtCs8xvirJzNMvV_4core3ptr9drop_glueSTjINtNtCs6xMQmN1AWUs_5alloc5boxed3BoxNtNtCskjFBwtpsoHr_8quandary4name4NameEEEB1h_.0:3,_RINvNtNtCskjFBwtpsoHr_8quandary6server5query11do_referralNtNtB2_10kani_query8MockZoneEB6_.0:2,_RINvNtNtCskjFBwtpsoHr_8quandary6server5query11do_referralNtNtB2_10kani_query8MockZoneEB6_.1:2,_RINvNtNtCskjFBwtpsoHr_8quandary6server5query11do_referralNtNtB2_10kani_query8MockZoneEB6_.2:2" stubs="M1,T0"
+// @harness name=c05_cname_nxdomain props=C05 panics=C05,C01 tier=thorough mem=2 t=1200 kani="--no-assertion-reach-checks" cbmc="--max-field-sensitivity-array-size 256 --unwindset _RNCNvMs_NtNtCskjFBwtpsoHr_8quandary7message6writerNtB6_6Writer30write_compressed_unhinted_name0Ba_.0:4,_RNCNvMs_NtNtCskjFBwtpsoHr_8quandary7message6writerNtB6_6Writer30write_compressed_unhinted_names_0Ba_.0:4,_RNvMs_NtNtCskjFBwtpsoHr_8quandary7message6writerNtB4_6Writer30write_compressed_unhinted_name.0:4,_RNvMs_NtNtCskjFBwtpsoHr_8quandary7message6writerNtB4_6Writer30write_compressed_unhinted_name.1:4,_RINvNvMNtNtCs8xvirJzNMvV_4core5slice5asciiSh27eq_ignore_ascii_case_chunks21eq_ignore_ascii_innerKj10_ECskjFBwtpsoHr_8quandary.0:3,_RNvMNtNtCs8xvirJzNMvV_4core5slice5asciiSh27eq_ignore_ascii_case_simpleCskjFBwtpsoHr_8quandary.0:3,_RINvMNtNtCs8xvirJzNMvV_4core5slice5asciiSh27eq_ignore_ascii_case_chunksKj10_ECskjFBwtpsoHr_8quandary.0:3,_RNvNtNtCskjFBwtpsoHr_8quandary4name4wire23parse_uncompressed_name.0:5,_RNvMs_NtCskjFBwtpsoHr_8quandary4nameNtB4_4Name15initialize_into.0:5,_RINvNtCs8xvirJzNMvV_4core3ptr9drop_glueSTjINtNtCs6xMQmN1AWUs_5alloc5boxed3BoxNtNtCskjFBwtpsoHr_8quandary4name4NameEEEB1h_.0:3,_RINvNtNtCskjFBwtpsoHr_8quandary6server5query11do_referralNtNtB2_10kani_query8MockZoneEB6_.0:2,_RINvNtNtCskjFBwtpsoHr_8quandary6server5query11do_referralNtNtB2_10kani_query8MockZoneEB6_.1:2,_RINvNtNtCskjFBwtpsoHr_8quandary6server5query11do_referralNtNtB2_10kani_query8MockZoneEB6_.2:2" stubs="M1,T0"
 //   fn="Server::handle_non_axfr_query,answer,do_cname,follow_cname_1,follow_cname_2,add_negative_caching_soa"
 //   bound="UDP, limit 64; question . A IN (QNAME = apex, so that CNAME + SOA fit in 64 octets); . CNAME b.; lookup(b.) = NxDomain; RFC 6604: NXDOMAIN; unwind 7"
 //   sym="CNAME TTL, SOA TTL, MINIMUM, 4 SOA octets"
@@ -1718,7 +1718,7 @@ proof!(c05_cname_nxdomain, 7, {
     kani::cover!(true, "CNAME to a name that does not exist");
 });
 
-// @harness name=c05_cname_norecords props=C05 panics=C05,C01 tier=thorough mem=4 t=1200 kani="--no-assertion-reach-checks" cbmc="--max-field-sensitivity-array-size 256 --unwindset _RNCNvMs_NtNtCskjFBwtpsoHr_8quandary7message6writerNtB6_6Writer30write_compressed_unhinted_name0Ba_.0:4,_RNCNvMs_NtNtCskjFBwtpsoHr_8quandary7message6writerNtB6_6Writer30write_compressed_unhinted_names_0Ba_.0:4,_RNvMs_NtNtCskjFBwtpsoHr_8quandary7message6writerNtB4_6Writer30write_compressed_unhinted_name.0:4,_RNvMs_NtNtCskjFBwtpsoHr_8quandary7message6writerNtB4_6Writer30write_compressed_unhinted_name.1:4,_RINvNvMNtNtCs8xvirJzNMvV_4core5slice5asciiSh27eq_ignore_ascii_case_chunks21eq_ignore_ascii_innerKj10_ECskjFBwtpsoHr_8quandary.0:3,_RNvMNtNtCs8xvirJzNMvV_4core5slice5asciiSh27eq_ignore_ascii_case_simpleCskjFBwtpsoHr_8quandary.0:3,_RINvMNtNtCs8xvirJzNMvV_4core5slice5asciiSh27eq_ignore_ascii_case_chunksKj10_ECskjFBwtpsoHr_8quandary.0:3,_RNvNtNtCskjFBwtpsoHr_8quandary4name4wire23parse_uncompressed_name.0:5,_RNvMs_NtCskjFBwtpsoHr_8quandary4nameNtB4_4Name15initialize_into.0:5,_RINvNtCs8xvirJzNMvV_4core3ptr9drop_glueSTjINtNtCs6xMQmN1AWUs_5alloc5boxed3BoxNtNtCskjFBwtpsoHr_8quandary4name4NameEEEB1h_.0:3,_RINvNtNtCskjFBwtpsoHr_8quandary6server5query11do_referralNtNtB2_10kani_query8MockZoneEB6_.0:2,_RINvNtNtCskjFBwtpsoHr_8quandary6server5query11do_referralNtNtB2_10kani_query8MockZoneEB6_.1:2,_RINvNtNtCskjFBwtpsoHr_8quandary6server5query11do_referralNtNtB2_10kani_query8MockZoneEB6_.2:2" stubs="M1,T0"
+// @harness name=c05_cname_norecords props=C05 panics=C05,C01 tier=thorough mem=2 t=1200 kani="--no-assertion-reach-checks" cbmc="--max-field-sensitivity-array-size 256 --unwindset _RNCNvMs_NtNtCskjFBwtpsoHr_8quandary7message6writerNtB6_6Writer30write_compressed_unhinted_name0Ba_.0:4,_RNCNvMs_NtNtCskjFBwtpsoHr_8quandary7message6writerNtB6_6Writer30write_compressed_unhinted_names_0Ba_.0:4,_RNvMs_NtNtCskjFBwtpsoHr_8quandary7message6writerNtB4_6Writer30write_compressed_unhinted_name.0:4,_RNvMs_NtNtCskjFBwtpsoHr_8quandary7message6writerNtB4_6Writer30write_compressed_unhinted_name.1:4,_RINvNvMNtNtCs8xvirJzNMvV_4core5slice5asciiSh27eq_ignore_ascii_case_chunks21eq_ignore_ascii_innerKj10_ECskjFBwtpsoHr_8quandary.0:3,_RNvMNtNtCs8xvirJzNMvV_4core5slice5asciiSh27eq_ignore_ascii_case_simpleCskjFBwtpsoHr_8quandary.0:3,_RINvMNtNtCs8xvirJzNMvV_4core5slice5asciiSh27eq_ignore_ascii_case_chunksKj10_ECskjFBwtpsoHr_8quandary.0:3,_RNvNtNtCskjFBwtpsoHr_8quandary4name4wire23parse_uncompressed_name.0:5,_RNvMs_NtCskjFBwtpsoHr_8quandary4nameNtB4_4Name15initialize_into.0:5,_RINvNtCs8xvirJzNMvV_4core3ptr9drop_glueSTjINtNtCs6xMQmN1AWUs_5alloc5boxed3BoxNtNtCskjFBwtpsoHr_8quandary4name4NameEEEB1h_.0:3,_RINvNtNtCskjFBwtpsoHr_8quandary6server5query11do_referralNtNtB2_10kani_query8MockZoneEB6_.0:2,_RINvNtNtCskjFBwtpsoHr_8quandary6server5query11do_referralNtNtB2_10kani_query8MockZoneEB6_.1:2,_RINvNtNtCskjFBwtpsoHr_8quandary6server5query11do_referralNtNtB2_10kani_query8MockZoneEB6_.2:2" stubs="M1,T0"
 //   fn="Server::handle_non_axfr_query,answer,do_cname,follow_cname_1,follow_cname_2,add_negative_caching_soa"
 //   bound="as c05_cname_nxdomain with lookup(b.) = NoRecords: NOERROR; unwind 7"
 //   sym="CNAME TTL, SOA TTL, MINIMUM, 4 SOA octets"
@@ -1727,7 +1727,7 @@ proof!(c05_cname_norecords, 7, {
     kani::cover!(true, "CNAME to a name without the type");
 });
 
-// @harness name=c05_cname_out_of_zone props=C05 panics=C05,C01 tier=thorough mem=4 t=1200 kani="--no-assertion-reach-checks" cbmc="--max-field-sensitivity-array-size 256 --unwindset _RNCNvMs_NtNtCskjFBwtpsoHr_8quandary7message6writerNtB6_6Writer30write_compressed_unhinted_name0Ba_.0:4,_RNCNvMs_NtNtCskjFBwtpsoHr_8quandary7message6writerNtB6_6Writer30write_compressed_unhinted_names_0Ba_.0:4,_RNvMs_NtNtCskjFBwtpsoHr_8quandary7message6writerNtB4_6Writer30write_compressed_unhinted_name.0:4,_RNvMs_NtNtCskjFBwtpsoHr_8quandary7message6writerNtB4_6Writer30write_compressed_unhinted_name.1:4,_RINvNvMNtNtCs8xvirJzNMvV_4core5slice5asciiSh27eq_ignore_ascii_case_chunks21eq_ignore_ascii_innerKj10_ECskjFBwtpsoHr_8quandary.0:3,_RNvMNtNtCs8xvirJzNMvV_4core5slice5asciiSh27eq_ignore_ascii_case_simpleCskjFBwtpsoHr_8quandary.0:3,_RINvMNtNtCs8xvirJzNMvV_4core5slice5asciiSh27eq_ignore_ascii_case_chunksKj10_ECskjFBwtpsoHr_8quandary.0:3,_RNvNtNtCskjFBwtpsoHr_8quandary4name4wire23parse_uncompressed_name.0:5,_RNvMs_NtCskjFBwtpsoHr_8quandary4nameNtB4_4Name15initialize_into.0:5,_RINvNtCs8xvirJzNMvV_4core3ptr9drop_glueSTjINtNtCs6xMQmN1AWUs_5alloc5boxed3BoxNtNtCskjFBwtpsoHr_8quandary4name4NameEEEB1h_.0:3,_RINvNtNtCskjFBwtpsoHr_8quandary6server5query11do_referralNtNtB2_10kani_query8MockZoneEB6_.0:2,_RINvNtNtCskjFBwtpsoHr_8quandary6server5query11do_referralNtNtB2_10kani_query8MockZoneEB6_.1:2,_RINvNtNtCskjFBwtpsoHr_8quandary6server5query11do_referralNtNtB2_10kani_query8MockZoneEB6_.2:2" stubs="M1,T0"
+// @harness name=c05_cname_out_of_zone props=C05 panics=C05,C01 tier=thorough mem=2 t=1200 kani="--no-assertion-reach-checks" cbmc="--max-field-sensitivity-array-size 256 --unwindset _RNCNvMs_NtNtCskjFBwtpsoHr_8quandary7message6writerNtB6_6Writer30write_compressed_unhinted_name0Ba_.0:4,_RNCNvMs_NtNtCskjFBwtpsoHr_8quandary7message6writerNtB6_6Writer30write_compressed_unhinted_names_0Ba_.0:4,_RNvMs_NtNtCskjFBwtpsoHr_8quandary7message6writerNtB4_6Writer30write_compressed_unhinted_name.0:4,_RNvMs_NtNtCskjFBwtpsoHr_8quandary7message6writerNtB4_6Writer30write_compressed_unhinted_name.1:4,_RINvNvMNtNtCs8xvirJzNMvV_4core5slice5asciiSh27eq_ignore_ascii_case_chunks21eq_ignore_ascii_innerKj10_ECskjFBwtpsoHr_8quandary.0:3,_RNvMNtNtCs8xvirJzNMvV_4core5slice5asciiSh27eq_ignore_ascii_case_simpleCskjFBwtpsoHr_8quandary.0:3,_RINvMNtNtCs8xvirJzNMvV_4core5slice5asciiSh27eq_ignore_ascii_case_chunksKj10_ECskjFBwtpsoHr_8quandary.0:3,_RNvNtNtCskjFBwtpsoHr_8quandary4name4wire23parse_uncompressed_name.0:5,_RNvMs_NtCskjFBwtpsoHr_8quandary4nameNtB4_4Name15initialize_into.0:5,_RINvNtCs8xvirJzNMvV_4core3ptr9drop_glueSTjINtNtCs6xMQmN1AWUs_5alloc5boxed3BoxNtNtCskjFBwtpsoHr_8quandary4name4NameEEEB1h_.0:3,_RINvNtNtCskjFBwtpsoHr_8quandary6server5query11do_referralNtNtB2_10kani_query8MockZoneEB6_.0:2,_RINvNtNtCskjFBwtpsoHr_8quandary6server5query11do_referralNtNtB2_10kani_query8MockZoneEB6_.1:2,_RINvNtNtCskjFBwtpsoHr_8quandary6server5query11do_referralNtNtB2_10kani_query8MockZoneEB6_.2:2" stubs="M1,T0"
 //   fn="Server::handle_non_axfr_query,answer,do_cname,follow_cname_1,follow_cname_2"
 //   bound="UDP, limit 64; question a. A IN; a. CNAME c. where c. is not in the zone (lookup = WrongZone): the CNAME alone, NOERROR, AA; unwind 7"
 //   sym="CNAME TTL"
@@ -1736,7 +1736,7 @@ proof!(c05_cname_out_of_zone, 7, {
     kani::cover!(true, "CNAME leaving the zone");
 });
 
-// @harness name=c05_cname_chain2 props=C05 panics=C05,C01 tier=thorough mem=6 t=1800 kani="--no-assertion-reach-checks" cbmc="--max-field-sensitivity-array-size 256 --unwindset _RNCNvMs_NtNtCskjFBwtpsoHr_8quandary7message6writerNtB6_6Writer30write_compressed_unhinted_name0Ba_.0:4,_RNCNvMs_NtNtCskjFBwtpsoHr_8quandary7message6writerNtB6_6Writer30write_compressed_unhinted_names_0Ba_.0:4,_RNvMs_NtNtCskjFBwtpsoHr_8quandary7message6writerNtB4_6Writer30write_compressed_unhinted_name.0:4,_RNvMs_NtNtCskjFBwtpsoHr_8quandary7message6writerNtB4_6Writer30write_compressed_unhinted_name.1:4,_RINvNvMNtNtCs8xvirJzNMvV_4core5slice5asciiSh27eq_ignore_ascii_case_chunks21eq_ignore_ascii_innerKj10_ECskjFBwtpsoHr_8quandary.0:3,_RNvMNtNtCs8xvirJzNMvV_4core5slice5asciiSh27eq_ignore_ascii_case_simpleCskjFBwtpsoHr_8quandary.0:3,_RINvMNtNtCs8xvirJzNMvV_4core5slice5asciiSh27eq_ignore_ascii_case_chunksKj10_ECskjFBwtpsoHr_8quandary.0:3,_RNvNtNtCskjFBwtpsoHr_8quandary4name4wire23parse_uncompressed_name.0:5,_RNvMs_NtCskjFBwtpsoHr_8quandary4nameNtB4_4Name15initialize_into.0:5,_RINvNtCs8xvirJzNMvV_4core3ptr9drop_glueSTjINtNtCs6xMQmN1AWUs_5alloc5boxed3BoxNtNtCskjFBwtpsoHr_8quandary4name4NameEEEB1h_.0:3,_RINvNtNtCskjFBwtpsoHr_8quandary6server5query11do_referralNtNtB2_10kani_query8MockZoneEB6_.0:2,_RINvNtNtCskjFBwtpsoHr_8quandary6server5query11do_referralNtNtB2_10kani_query8MockZoneEB6_.1:2,_RINvNtNtCskjFBwtpsoHr_8quandary6server5query11do_referralNtNtB2_10kani_query8MockZoneEB6_.2:2" stubs="M1,T0"
+// @harness name=c05_cname_chain2 props=C05 panics=C05,C01 tier=thorough mem=3 t=1800 kani="--no-assertion-reach-checks" cbmc="--max-field-sensitivity-array-size 256 --unwindset _RNCNvMs_NtNtCskjFBwtpsoHr_8quandary7message6writerNtB6_6Writer30write_compressed_unhinted_name0Ba_.0:4,_RNCNvMs_NtNtCskjFBwtpsoHr_8quandary7message6writerNtB6_6Writer30write_compressed_unhinted_names_0Ba_.0:4,_RNvMs_NtNtCskjFBwtpsoHr_8quandary7message6writerNtB4_6Writer30write_compressed_unhinted_name.0:4,_RNvMs_NtNtCskjFBwtpsoHr_8quandary7message6writerNtB4_6Writer30write_compressed_unhinted_name.1:4,_RINvNvMNtNtCs8xvirJzNMvV_4core5slice5asciiSh27eq_ignore_ascii_case_chunks21eq_ignore_ascii_innerKj10_ECskjFBwtpsoHr_8quandary.0:3,_RNvMNtNtCs8xvirJzNMvV_4core5slice5asciiSh27eq_ignore_ascii_case_simpleCskjFBwtpsoHr_8quandary.0:3,_RINvMNtNtCs8xvirJzNMvV_4core5slice5asciiSh27eq_ignore_ascii_case_chunksKj10_ECskjFBwtpsoHr_8quandary.0:3,_RNvNtNtCskjFBwtpsoHr_8quandary4name4wire23parse_uncompressed_name.0:5,_RNvMs_NtCskjFBwtpsoHr_8quandary4nameNtB4_4Name15initialize_into.0:5,_RINvNtCs8xvirJzNMvV_4core3ptr9drop_glueSTjINtNtCs6xMQmN1AWUs_5alloc5boxed3BoxNtNtCskjFBwtpsoHr_8quandary4name4NameEEEB1h_.0:3,_RINvNtNtCskjFBwtpsoHr_8quandary6server5query11do_referralNtNtB2_10kani_query8MockZoneEB6_.0:2,_RINvNtNtCskjFBwtpsoHr_8quandary6server5query11do_referralNtNtB2_10kani_query8MockZoneEB6_.1:2,_RINvNtNtCskjFBwtpsoHr_8quandary6server5query11do_referralNtNtB2_10kani_query8MockZoneEB6_.2:2" stubs="M1,T0"
 //   fn="Server::handle_non_axfr_query,answer,do_cname,follow_cname_1,follow_cname_2"
 //   bound="UDP, limit 64; question . A IN; . CNAME a., a. CNAME b., b. A; unwind 7"
 //   sym="3 TTLs, 4 RDATA octets"
@@ -1746,7 +1746,7 @@ proof!(c05_cname_chain2, 7, {
     kani::cover!(true, "two links followed");
 });
 
-// @harness name=c05_cname_loop1 props=C05 panics=C05,C01 tier=quick mem=4 t=1200 kani="--no-assertion-reach-checks" cbmc="--max-field-sensitivity-array-size 256 --unwindset _RNCNvMs_NtNtCskjFBwtpsoHr_8quandary7message6writerNtB6_6Writer30write_compressed_unhinted_name0Ba_.0:4,_RNCNvMs_NtNtCskjFBwtpsoHr_8quandary7message6writerNtB6_6Writer30write_compressed_unhinted_names_0Ba_.0:4,_RNvMs_NtNtCskjFBwtpsoHr_8quandary7message6writerNtB4_6Writer30write_compressed_unhinted_name.0:4,_RNvMs_NtNtCskjFBwtpsoHr_8quandary7message6writerNtB4_6Writer30write_compressed_unhinted_name.1:4,_RINvNvMNtNtCs8xvirJzNMvV_4core5slice5asciiSh27eq_ignore_ascii_case_chunks21eq_ignore_ascii_innerKj10_ECskjFBwtpsoHr_8quandary.0:3,_RNvMNtNtCs8xvirJzNMvV_4core5slice5asciiSh27eq_ignore_ascii_case_simpleCskjFBwtpsoHr_8quandary.0:3,_RINvMNtNtCs8xvirJzNMvV_4core5slice5asciiSh27eq_ignore_ascii_case_chunksKj10_ECskjFBwtpsoHr_8quandary.0:3,_RNvNtNtCskjFBwtpsoHr_8quandary4name4wire23parse_uncompressed_name.0:5,_RNvMs_NtCskjFBwtpsoHr_8quandary4nameNtB4_4Name15initialize_into.0:5,_RINvNtCs8xvirJzNMvV_4core3ptr9drop_glueSTjINtNtCs6xMQmN1AWUs_5alloc5boxed3BoxNtNtCskjFBwtpsoHr_8quandary4name4NameEEEB1h_.0:3,_RINvNtNtCskjFBwtpsoHr_8quandary6server5query11do_referralNtNtB2_10kani_query8MockZoneEB6_.0:2,_RINvNtNtCskjFBwtpsoHr_8quandary6server5query11do_referralNtNtB2_10kani_query8MockZoneEB6_.1:2,_RINvNtNtCskjFBwtpsoHr_8quandary6server5query11do_referralNtNtB2_10kani_query8MockZoneEB6_.2:2" stubs="M1,T0"
+// @harness name=c05_cname_loop1 props=C05 panics=C05,C01 tier=quick mem=2 t=1200 kani="--no-assertion-reach-checks" cbmc="--max-field-sensitivity-array-size 256 --unwindset _RNCNvMs_NtNtCskjFBwtpsoHr_8quandary7message6writerNtB6_6Writer30write_compressed_unhinted_name0Ba_.0:4,_RNCNvMs_NtNtCskjFBwtpsoHr_8quandary7message6writerNtB6_6Writer30write_compressed_unhinted_names_0Ba_.0:4,_RNvMs_NtNtCskjFBwtpsoHr_8quandary7message6writerNtB4_6Writer30write_compressed_unhinted_name.0:4,_RNvMs_NtNtCskjFBwtpsoHr_8quandary7message6writerNtB4_6Writer30write_compressed_unhinted_name.1:4,_RINvNvMNtNtCs8xvirJzNMvV_4core5slice5asciiSh27eq_ignore_ascii_case_chunks21eq_ignore_ascii_innerKj10_ECskjFBwtpsoHr_8quandary.0:3,_RNvMNtNtCs8xvirJzNMvV_4core5slice5asciiSh27eq_ignore_ascii_case_simpleCskjFBwtpsoHr_8quandary.0:3,_RINvMNtNtCs8xvirJzNMvV_4core5slice5asciiSh27eq_ignore_ascii_case_chunksKj10_ECskjFBwtpsoHr_8quandary.0:3,_RNvNtNtCskjFBwtpsoHr_8quandary4name4wire23parse_uncompressed_name.0:5,_RNvMs_NtCskjFBwtpsoHr_8quandary4nameNtB4_4Name15initialize_into.0:5,_RINvNtCs8xvirJzNMvV_4core3ptr9drop_glueSTjINtNtCs6xMQmN1AWUs_5alloc5boxed3BoxNtNtCskjFBwtpsoHr_8quandary4name4NameEEEB1h_.0:3,_RINvNtNtCskjFBwtpsoHr_8quandary6server5query11do_referralNtNtB2_10kani_query8MockZoneEB6_.0:2,_RINvNtNtCskjFBwtpsoHr_8quandary6server5query11do_referralNtNtB2_10kani_query8MockZoneEB6_.1:2,_RINvNtNtCskjFBwtpsoHr_8quandary6server5query11do_referralNtNtB2_10kani_query8MockZoneEB6_.2:2" stubs="M1,T0"
 //   fn="Server::handle_non_axfr_query,answer,do_cname,follow_cname_1"
 //   bound="UDP, limit 64; question a. A IN; a. CNAME a.: SERVFAIL, no records, AA clear; unwind 7"
 //   sym="CNAME TTL"
@@ -1755,7 +1755,7 @@ proof!(c05_cname_loop1, 7, {
     kani::cover!(true, "self loop answered");
 });
 
-// @harness name=c05_cname_loop2 props=C05 panics=C05,C01 tier=thorough mem=4.5 t=3600 kani="--no-assertion-reach-checks" cbmc="--max-field-sensitivity-array-size 256 --unwindset _RNCNvMs_NtNtCskjFBwtpsoHr_8quandary7message6writerNtB6_6Writer30write_compressed_unhinted_name0Ba_.0:4,_RNCNvMs_NtNtCskjFBwtpsoHr_8quandary7message6writerNtB6_6Writer30write_compressed_unhinted_names_0Ba_.0:4,_RNvMs_NtNtCskjFBwtpsoHr_8quandary7message6writerNtB4_6Writer30write_compressed_unhinted_name.0:4,_RNvMs_NtNtCskjFBwtpsoHr_8quandary7message6writerNtB4_6Writer30write_compressed_unhinted_name.1:4,_RINvNvMNtNtCs8xvirJzNMvV_4core5slice5asciiSh27eq_ignore_ascii_case_chunks21eq_ignore_ascii_innerKj10_ECskjFBwtpsoHr_8quandary.0:3,_RNvMNtNtCs8xvirJzNMvV_4core5slice5asciiSh27eq_ignore_ascii_case_simpleCskjFBwtpsoHr_8quandary.0:3,_RINvMNtNtCs8xvirJzNMvV_4core5slice5asciiSh27eq_ignore_ascii_case_chunksKj10_ECskjFBwtpsoHr_8quandary.0:3,_RNvNtNtCskjFBwtpsoHr_8quandary4name4wire23parse_uncompressed_name.0:5,_RNvMs_NtCskjFBwtpsoHr_8quandary4nameNtB4_4Name15initialize_into.0:5,_RINvNtCs8xvirJzNMvV_4core3ptr9drop_glueSTjINtNtCs6xMQmN1AWUs_5alloc5boxed3BoxNtNtCskjFBwtpsoHr_8quandary4name4NameEEEB1h_.0:3,_RINvNtNtCskjFBwtpsoHr_8quandary6server5query11do_referralNtNtB2_10kani_query8MockZoneEB6_.0:2,_RINvNtNtCskjFBwtpsoHr_8quandary6server5query11do_referralNtNtB2_10kani_query8MockZoneEB6_.1:2,_RINvNtNtCskjFBwtpsoHr_8quandary6server5query11do_referralNtNtB2_10kani_query8MockZoneEB6_.2:2" stubs="M1,T0"
+// @harness name=c05_cname_loop2 props=C05 panics=C05,C01 tier=thorough mem=2 t=1800 kani="--no-assertion-reach-checks" cbmc="--max-field-sensitivity-array-size 256 --unwindset _RNCNvMs_NtNtCskjFBwtpsoHr_8quandary7message6writerNtB6_6Writer30write_compressed_unhinted_name0Ba_.0:4,_RNCNvMs_NtNtCskjFBwtpsoHr_8quandary7message6writerNtB6_6Writer30write_compressed_unhinted_names_0Ba_.0:4,_RNvMs_NtNtCskjFBwtpsoHr_8quandary7message6writerNtB4_6Writer30write_compressed_unhinted_name.0:4,_RNvMs_NtNtCskjFBwtpsoHr_8quandary7message6writerNtB4_6Writer30write_compressed_unhinted_name.1:4,_RINvNvMNtNtCs8xvirJzNMvV_4core5slice5asciiSh27eq_ignore_ascii_case_chunks21eq_ignore_ascii_innerKj10_ECskjFBwtpsoHr_8quandary.0:3,_RNvMNtNtCs8xvirJzNMvV_4core5slice5asciiSh27eq_ignore_ascii_case_simpleCskjFBwtpsoHr_8quandary.0:3,_RINvMNtNtCs8xvirJzNMvV_4core5slice5asciiSh27eq_ignore_ascii_case_chunksKj10_ECskjFBwtpsoHr_8quandary.0:3,_RNvNtNtCskjFBwtpsoHr_8quandary4name4wire23parse_uncompressed_name.0:5,_RNvMs_NtCskjFBwtpsoHr_8quandary4nameNtB4_4Name15initialize_into.0:5,_RINvNtCs8xvirJzNMvV_4core3ptr9drop_glueSTjINtNtCs6xMQmN1AWUs_5alloc5boxed3BoxNtNtCskjFBwtpsoHr_8quandary4name4NameEEEB1h_.0:3,_RINvNtNtCskjFBwtpsoHr_8quandary6server5query11do_referralNtNtB2_10kani_query8MockZoneEB6_.0:2,_RINvNtNtCskjFBwtpsoHr_8quandary6server5query11do_referralNtNtB2_10kani_query8MockZoneEB6_.1:2,_RINvNtNtCskjFBwtpsoHr_8quandary6server5query11do_referralNtNtB2_10kani_query8MockZoneEB6_.2:2" stubs="M1,T0"
 //   fn="Server::handle_non_axfr_query,answer,do_cname,follow_cname_1,follow_cname_2"
 //   bound="UDP, limit 64; question a. A IN; a. CNAME b., b. CNAME a.: SERVFAIL, no records, AA clear; unwind 7"
 //   sym="CNAME TTLs"
@@ -1764,7 +1764,7 @@ proof!(c05_cname_loop2, 7, {
     kani::cover!(true, "two-link loop answered");
 });
 
-// @harness name=c05_cname_loop2b props=C05 panics=C05,C01 tier=thorough mem=4.5 t=3600 kani="--no-assertion-reach-checks" cbmc="--max-field-sensitivity-array-size 256 --unwindset _RNCNvMs_NtNtCskjFBwtpsoHr_8quandary7message6writerNtB6_6Writer30write_compressed_unhinted_name0Ba_.0:4,_RNCNvMs_NtNtCskjFBwtpsoHr_8quandary7message6writerNtB6_6Writer30write_compressed_unhinted_names_0Ba_.0:4,_RNvMs_NtNtCskjFBwtpsoHr_8quandary7message6writerNtB4_6Writer30write_compressed_unhinted_name.0:4,_RNvMs_NtNtCskjFBwtpsoHr_8quandary7message6writerNtB4_6Writer30write_compressed_unhinted_name.1:4,_RINvNvMNtNtCs8xvirJzNMvV_4core5slice5asciiSh27eq_ignore_ascii_case_chunks21eq_ignore_ascii_innerKj10_ECskjFBwtpsoHr_8quandary.0:3,_RNvMNtNtCs8xvirJzNMvV_4core5slice5asciiSh27eq_ignore_ascii_case_simpleCskjFBwtpsoHr_8quandary.0:3,_RINvMNtNtCs8xvirJzNMvV_4core5slice5asciiSh27eq_ignore_ascii_case_chunksKj10_ECskjFBwtpsoHr_8quandary.0:3,_RNvNtNtCskjFBwtpsoHr_8quandary4name4wire23parse_uncompressed_name.0:5,_RNvMs_NtCskjFBwtpsoHr_8quandary4nameNtB4_4Name15initialize_into.0:5,_RINvNtCs8xvirJzNMvV_4core3ptr9drop_glueSTjINtNtCs6xMQmN1AWUs_5alloc5boxed3BoxNtNtCskjFBwtpsoHr_8quandary4name4NameEEEB1h_.0:3,_RINvNtNtCskjFBwtpsoHr_8quandary6server5query11do_referralNtNtB2_10kani_query8MockZoneEB6_.0:2,_RINvNtNtCskjFBwtpsoHr_8quandary6server5query11do_referralNtNtB2_10kani_query8MockZoneEB6_.1:2,_RINvNtNtCskjFBwtpsoHr_8quandary6server5query11do_referralNtNtB2_10kani_query8MockZoneEB6_.2:2" stubs="M1,T0"
+// @harness name=c05_cname_loop2b props=C05 panics=C05,C01 tier=thorough mem=2 t=1800 kani="--no-assertion-reach-checks" cbmc="--max-field-sensitivity-array-size 256 --unwindset _RNCNvMs_NtNtCskjFBwtpsoHr_8quandary7message6writerNtB6_6Writer30write_compressed_unhinted_name0Ba_.0:4,_RNCNvMs_NtNtCskjFBwtpsoHr_8quandary7message6writerNtB6_6Writer30write_compressed_unhinted_names_0Ba_.0:4,_RNvMs_NtNtCskjFBwtpsoHr_8quandary7message6writerNtB4_6Writer30write_compressed_unhinted_name.0:4,_RNvMs_NtNtCskjFBwtpsoHr_8quandary7message6writerNtB4_6Writer30write_compressed_unhinted_name.1:4,_RINvNvMNtNtCs8xvirJzNMvV_4core5slice5asciiSh27eq_ignore_ascii_case_chunks21eq_ignore_ascii_innerKj10_ECskjFBwtpsoHr_8quandary.0:3,_RNvMNtNtCs8xvirJzNMvV_4core5slice5asciiSh27eq_ignore_ascii_case_simpleCskjFBwtpsoHr_8quandary.0:3,_RINvMNtNtCs8xvirJzNMvV_4core5slice5asciiSh27eq_ignore_ascii_case_chunksKj10_ECskjFBwtpsoHr_8quandary.0:3,_RNvNtNtCskjFBwtpsoHr_8quandary4name4wire23parse_uncompressed_name.0:5,_RNvMs_NtCskjFBwtpsoHr_8quandary4nameNtB4_4Name15initialize_into.0:5,_RINvNtCs8xvirJzNMvV_4core3ptr9drop_glueSTjINtNtCs6xMQmN1AWUs_5alloc5boxed3BoxNtNtCskjFBwtpsoHr_8quandary4name4NameEEEB1h_.0:3,_RINvNtNtCskjFBwtpsoHr_8quandary6server5query11do_referralNtNtB2_10kani_query8MockZoneEB6_.0:2,_RINvNtNtCskjFBwtpsoHr_8quandary6server5query11do_referralNtNtB2_10kani_query8MockZoneEB6_.1:2,_RINvNtNtCskjFBwtpsoHr_8quandary6server5query11do_referralNtNtB2_10kani_query8MockZoneEB6_.2:2" stubs="M1,T0"
 //   fn="Server::handle_non_axfr_query,answer,do_cname,follow_cname_1,follow_cname_2"
 //   bound="UDP, limit 64; question a. A IN; a. CNAME b., b. CNAME b.: SERVFAIL, no records, AA clear; unwind 7"
 //   sym="CNAME TTLs"
@@ -1773,7 +1773,7 @@ proof!(c05_cname_loop2b, 7, {
     kani::cover!(true, "loop at the second link answered");
 });
 
-// @harness name=c05_cname_badrdata props=C05 panics=C05,C01 tier=thorough mem=4 t=1200 kani="--no-assertion-reach-checks" cbmc="--max-field-sensitivity-array-size 256 --unwindset _RNCNvMs_NtNtCskjFBwtpsoHr_8quandary7message6writerNtB6_6Writer30write_compressed_unhinted_name0Ba_.0:4,_RNCNvMs_NtNtCskjFBwtpsoHr_8quandary7message6writerNtB6_6Writer30write_compressed_unhinted_names_0Ba_.0:4,_RNvMs_NtNtCskjFBwtpsoHr_8quandary7message6writerNtB4_6Writer30write_compressed_unhinted_name.0:4,_RNvMs_NtNtCskjFBwtpsoHr_8quandary7message6writerNtB4_6Writer30write_compressed_unhinted_name.1:4,_RINvNvMNtNtCs8xvirJzNMvV_4core5slice5asciiSh27eq_ignore_ascii_case_chunks21eq_ignore_ascii_innerKj10_ECskjFBwtpsoHr_8quandary.0:3,_RNvMNtNtCs8xvirJzNMvV_4core5slice5asciiSh27eq_ignore_ascii_case_simpleCskjFBwtpsoHr_8quandary.0:3,_RINvMNtNtCs8xvirJzNMvV_4core5slice5asciiSh27eq_ignore_ascii_case_chunksKj10_ECskjFBwtpsoHr_8quandary.0:3,_RNvNtNtCskjFBwtpsoHr_8quandary4name4wire23parse_uncompressed_name.0:5,_RNvMs_NtCskjFBwtpsoHr_8quandary4nameNtB4_4Name15initialize_into.0:5,_RINvNtCs8xvirJzNMvV_4core3ptr9drop_glueSTjINtNtCs6xMQmN1AWUs_5alloc5boxed3BoxNtNtCskjFBwtpsoHr_8quandary4name4NameEEEB1h_.0:3,_RINvNtNtCskjFBwtpsoHr_8quandary6server5query11do_referralNtNtB2_10kani_query8MockZoneEB6_.0:2,_RINvNtNtCskjFBwtpsoHr_8quandary6server5query11do_referralNtNtB2_10kani_query8MockZoneEB6_.1:2,_RINvNtNtCskjFBwtpsoHr_8quandary6server5query11do_referralNtNtB2_10kani_query8MockZoneEB6_.2:2" stubs="M1,T0"
+// @harness name=c05_cname_badrdata props=C05 panics=C05,C01 tier=thorough mem=2 t=1200 kani="--no-assertion-reach-checks" cbmc="--max-field-sensitivity-array-size 256 --unwindset _RNCNvMs_NtNtCskjFBwtpsoHr_8quandary7message6writerNtB6_6Writer30write_compressed_unhinted_name0Ba_.0:4,_RNCNvMs_NtNtCskjFBwtpsoHr_8quandary7message6writerNtB6_6Writer30write_compressed_unhinted_names_0Ba_.0:4,_RNvMs_NtNtCskjFBwtpsoHr_8quandary7message6writerNtB4_6Writer30write_compressed_unhinted_name.0:4,_RNvMs_NtNtCskjFBwtpsoHr_8quandary7message6writerNtB4_6Writer30write_compressed_unhinted_name.1:4,_RINvNvMNtNtCs8xvirJzNMvV_4core5slice5asciiSh27eq_ignore_ascii_case_chunks21eq_ignore_ascii_innerKj10_ECskjFBwtpsoHr_8quandary.0:3,_RNvMNtNtCs8xvirJzNMvV_4core5slice5asciiSh27eq_ignore_ascii_case_simpleCskjFBwtpsoHr_8quandary.0:3,_RINvMNtNtCs8xvirJzNMvV_4core5slice5asciiSh27eq_ignore_ascii_case_chunksKj10_ECskjFBwtpsoHr_8quandary.0:3,_RNvNtNtCskjFBwtpsoHr_8quandary4name4wire23parse_uncompressed_name.0:5,_RNvMs_NtCskjFBwtpsoHr_8quandary4nameNtB4_4Name15initialize_into.0:5,_RINvNtCs8xvirJzNMvV_4core3ptr9drop_glueSTjINtNtCs6xMQmN1AWUs_5alloc5boxed3BoxNtNtCskjFBwtpsoHr_8quandary4name4NameEEEB1h_.0:3,_RINvNtNtCskjFBwtpsoHr_8quandary6server5query11do_referralNtNtB2_10kani_query8MockZoneEB6_.0:2,_RINvNtNtCskjFBwtpsoHr_8quandary6server5query11do_referralNtNtB2_10kani_query8MockZoneEB6_.1:2,_RINvNtNtCskjFBwtpsoHr_8quandary6server5query11do_referralNtNtB2_10kani_query8MockZoneEB6_.2:2" stubs="M1,T0"
 //   fn="Server::handle_non_axfr_query,answer,do_cname,follow_cname_1,Name::try_from_uncompressed_all"
 //   bound="UDP, limit 64; question a. A IN; lookup(a.) = Cname whose RDATA is not one whole name (label cut short; name followed by an extra octet); unwind 7"
 //   sym="RDATA octets"
@@ -1844,7 +1844,7 @@ fn referral_x(in_bailiwick: bool, sibling: bool, any_q: bool, udp: bool, limit: 
     (check_response(&resp, n, &ex, udp, limit), n)
 }
 
-// @harness name=c05_referral_glue props=C05,C04 panics=C05,C01 tier=quick mem=4.5 t=3600 kani="--no-assertion-reach-checks" cbmc="--max-field-sensitivity-array-size 256 --unwindset _RNCNvMs_NtNtCskjFBwtpsoHr_8quandary7message6writerNtB6_6Writer30write_compressed_unhinted_name0Ba_.0:4,_RNCNvMs_NtNtCskjFBwtpsoHr_8quandary7message6writerNtB6_6Writer30write_compressed_unhinted_names_0Ba_.0:4,_RNvMs_NtNtCskjFBwtpsoHr_8quandary7message6writerNtB4_6Writer30write_compressed_unhinted_name.0:4,_RNvMs_NtNtCskjFBwtpsoHr_8quandary7message6writerNtB4_6Writer30write_compressed_unhinted_name.1:4,_RINvNvMNtNtCs8xvirJzNMvV_4core5slice5asciiSh27eq_ignore_ascii_case_chunks21eq_ignore_ascii_innerKj10_ECskjFBwtpsoHr_8quandary.0:3,_RNvMNtNtCs8xvirJzNMvV_4core5slice5asciiSh27eq_ignore_ascii_case_simpleCskjFBwtpsoHr_8quandary.0:3,_RINvMNtNtCs8xvirJzNMvV_4core5slice5asciiSh27eq_ignore_ascii_case_chunksKj10_ECskjFBwtpsoHr_8quandary.0:3,_RNvNtNtCskjFBwtpsoHr_8quandary4name4wire23parse_uncompressed_name.0:5,_RNvMs_NtCskjFBwtpsoHr_8quandary4nameNtB4_4Name15initialize_into.0:5,_RINvNtCs8xvirJzNMvV_4core3ptr9drop_glueSTjINtNtCs6xMQmN1AWUs_5alloc5boxed3BoxNtNtCskjFBwtpsoHr_8quandary4name4NameEEEB1h_.0:3,_RINvNtNtCskjFBwtpsoHr_8quandary6server5query11do_referralNtNtB2_10kani_query8MockZoneEB6_.0:2,_RINvNtNtCskjFBwtpsoHr_8quandary6server5query11do_referralNtNtB2_10kani_query8MockZoneEB6_.1:2,_RINvNtNtCskjFBwtpsoHr_8quandary6server5query11do_referralNtNtB2_10kani_query8MockZoneEB6_.2:2" stubs="M1,T0,N1"
+// @harness name=c05_referral_glue props=C05,C04 panics=C05,C01 tier=quick mem=2 t=1800 kani="--no-assertion-reach-checks" cbmc="--max-field-sensitivity-array-size 256 --unwindset _RNCNvMs_NtNtCskjFBwtpsoHr_8quandary7message6writerNtB6_6Writer30write_compressed_unhinted_name0Ba_.0:4,_RNCNvMs_NtNtCskjFBwtpsoHr_8quandary7message6writerNtB6_6Writer30write_compressed_unhinted_names_0Ba_.0:4,_RNvMs_NtNtCskjFBwtpsoHr_8quandary7message6writerNtB4_6Writer30write_compressed_unhinted_name.0:4,_RNvMs_NtNtCskjFBwtpsoHr_8quandary7message6writerNtB4_6Writer30write_compressed_unhinted_name.1:4,_RINvNvMNtNtCs8xvirJzNMvV_4core5slice5asciiSh27eq_ignore_ascii_case_chunks21eq_ignore_ascii_innerKj10_ECskjFBwtpsoHr_8quandary.0:3,_RNvMNtNtCs8xvirJzNMvV_4core5slice5asciiSh27eq_ignore_ascii_case_simpleCskjFBwtpsoHr_8quandary.0:3,_RINvMNtNtCs8xvirJzNMvV_4core5slice5asciiSh27eq_ignore_ascii_case_chunksKj10_ECskjFBwtpsoHr_8quandary.0:3,_RNvNtNtCskjFBwtpsoHr_8quandary4name4wire23parse_uncompressed_name.0:5,_RNvMs_NtCskjFBwtpsoHr_8quandary4nameNtB4_4Name15initialize_into.0:5,_RINvNtCs8xvirJzNMvV_4core3ptr9drop_glueSTjINtNtCs6xMQmN1AWUs_5alloc5boxed3BoxNtNtCskjFBwtpsoHr_8quandary4name4NameEEEB1h_.0:3,_RINvNtNtCskjFBwtpsoHr_8quandary6server5query11do_referralNtNtB2_10kani_query8MockZoneEB6_.0:2,_RINvNtNtCskjFBwtpsoHr_8quandary6server5query11do_referralNtNtB2_10kani_query8MockZoneEB6_.1:2,_RINvNtNtCskjFBwtpsoHr_8quandary6server5query11do_referralNtNtB2_10kani_query8MockZoneEB6_.2:2" stubs="M1,T0,N1"
 //   fn="Server::handle_non_axfr_query,answer,do_referral,add_additional_addresses,execute_allowing_truncation,read_name_from_rdata,Name::eq_or_subdomain_of,Writer::add_authority_rrset,Writer::add_additional_rrset"
 //   bound="UDP, limit 64; question a. A IN; Referral(cut a., NS b.a. (in bailiwick: glue, visible only below the cut, mandatory)); the name server has an A: 51 octets, complete; unwind 7"
 //   sym="NS TTL, TTLs and octets of the address records"
@@ -1854,7 +1854,7 @@ proof_ref!(c05_referral_glue, 7, {
     let _ = n;
 });
 
-// @harness name=c05_referral_glue_both props=C05,C04 panics=C05,C01 tier=thorough mem=4.5 t=3600 kani="--no-assertion-reach-checks" cbmc="--max-field-sensitivity-array-size 256 --unwindset _RNCNvMs_NtNtCskjFBwtpsoHr_8quandary7message6writerNtB6_6Writer30write_compressed_unhinted_name0Ba_.0:4,_RNCNvMs_NtNtCskjFBwtpsoHr_8quandary7message6writerNtB6_6Writer30write_compressed_unhinted_names_0Ba_.0:4,_RNvMs_NtNtCskjFBwtpsoHr_8quandary7message6writerNtB4_6Writer30write_compressed_unhinted_name.0:4,_RNvMs_NtNtCskjFBwtpsoHr_8quandary7message6writerNtB4_6Writer30write_compressed_unhinted_name.1:4,_RINvNvMNtNtCs8xvirJzNMvV_4core5slice5asciiSh27eq_ignore_ascii_case_chunks21eq_ignore_ascii_innerKj10_ECskjFBwtpsoHr_8quandary.0:3,_RNvMNtNtCs8xvirJzNMvV_4core5slice5asciiSh27eq_ignore_ascii_case_simpleCskjFBwtpsoHr_8quandary.0:3,_RINvMNtNtCs8xvirJzNMvV_4core5slice5asciiSh27eq_ignore_ascii_case_chunksKj10_ECskjFBwtpsoHr_8quandary.0:3,_RNvNtNtCskjFBwtpsoHr_8quandary4name4wire23parse_uncompressed_name.0:5,_RNvMs_NtCskjFBwtpsoHr_8quandary4nameNtB4_4Name15initialize_into.0:5,_RINvNtCs8xvirJzNMvV_4core3ptr9drop_glueSTjINtNtCs6xMQmN1AWUs_5alloc5boxed3BoxNtNtCskjFBwtpsoHr_8quandary4name4NameEEEB1h_.0:3,_RINvNtNtCskjFBwtpsoHr_8quandary6server5query11do_referralNtNtB2_10kani_query8MockZoneEB6_.0:2,_RINvNtNtCskjFBwtpsoHr_8quandary6server5query11do_referralNtNtB2_10kani_query8MockZoneEB6_.1:2,_RINvNtNtCskjFBwtpsoHr_8quandary6server5query11do_referralNtNtB2_10kani_query8MockZoneEB6_.2:2" stubs="M1,T0,N1"
+// @harness name=c05_referral_glue_both props=C05,C04 panics=C05,C01 tier=thorough mem=2 t=1800 kani="--no-assertion-reach-checks" cbmc="--max-field-sensitivity-array-size 256 --unwindset _RNCNvMs_NtNtCskjFBwtpsoHr_8quandary7message6writerNtB6_6Writer30write_compressed_unhinted_name0Ba_.0:4,_RNCNvMs_NtNtCskjFBwtpsoHr_8quandary7message6writerNtB6_6Writer30write_compressed_unhinted_names_0Ba_.0:4,_RNvMs_NtNtCskjFBwtpsoHr_8quandary7message6writerNtB4_6Writer30write_compressed_unhinted_name.0:4,_RNvMs_NtNtCskjFBwtpsoHr_8quandary7message6writerNtB4_6Writer30write_compressed_unhinted_name.1:4,_RINvNvMNtNtCs8xvirJzNMvV_4core5slice5asciiSh27eq_ignore_ascii_case_chunks21eq_ignore_ascii_innerKj10_ECskjFBwtpsoHr_8quandary.0:3,_RNvMNtNtCs8xvirJzNMvV_4core5slice5asciiSh27eq_ignore_ascii_case_simpleCskjFBwtpsoHr_8quandary.0:3,_RINvMNtNtCs8xvirJzNMvV_4core5slice5asciiSh27eq_ignore_ascii_case_chunksKj10_ECskjFBwtpsoHr_8quandary.0:3,_RNvNtNtCskjFBwtpsoHr_8quandary4name4wire23parse_uncompressed_name.0:5,_RNvMs_NtCskjFBwtpsoHr_8quandary4nameNtB4_4Name15initialize_into.0:5,_RINvNtCs8xvirJzNMvV_4core3ptr9drop_glueSTjINtNtCs6xMQmN1AWUs_5alloc5boxed3BoxNtNtCskjFBwtpsoHr_8quandary4name4NameEEEB1h_.0:3,_RINvNtNtCskjFBwtpsoHr_8quandary6server5query11do_referralNtNtB2_10kani_query8MockZoneEB6_.0:2,_RINvNtNtCskjFBwtpsoHr_8quandary6server5query11do_referralNtNtB2_10kani_query8MockZoneEB6_.1:2,_RINvNtNtCskjFBwtpsoHr_8quandary6server5query11do_referralNtNtB2_10kani_query8MockZoneEB6_.2:2" stubs="M1,T0,N1"
 //   fn="Server::handle_non_axfr_query,answer,do_referral,add_additional_addresses,execute_allowing_truncation,read_name_from_rdata,Name::eq_or_subdomain_of,Writer::add_authority_rrset,Writer::add_additional_rrset"
 //   bound="UDP, limit 64; question a. A IN; Referral(cut a., NS b.a. (in bailiwick: glue, visible only below the cut, mandatory)); the name server has A and AAAA: 79 octets needed: must be truncated, never sent without the glue; unwind 7"
 //   sym="NS TTL, TTLs and octets of the address records"
@@ -1864,7 +1864,7 @@ proof_ref!(c05_referral_glue_both, 7, {
     let _ = n;
 });
 
-// @harness name=c05_referral_glue_aaaa props=C05,C04 panics=C05,C01 tier=thorough mem=4.5 t=3600 kani="--no-assertion-reach-checks" cbmc="--max-field-sensitivity-array-size 256 --unwindset _RNCNvMs_NtNtCskjFBwtpsoHr_8quandary7message6writerNtB6_6Writer30write_compressed_unhinted_name0Ba_.0:4,_RNCNvMs_NtNtCskjFBwtpsoHr_8quandary7message6writerNtB6_6Writer30write_compressed_unhinted_names_0Ba_.0:4,_RNvMs_NtNtCskjFBwtpsoHr_8quandary7message6writerNtB4_6Writer30write_compressed_unhinted_name.0:4,_RNvMs_NtNtCskjFBwtpsoHr_8quandary7message6writerNtB4_6Writer30write_compressed_unhinted_name.1:4,_RINvNvMNtNtCs8xvirJzNMvV_4core5slice5asciiSh27eq_ignore_ascii_case_chunks21eq_ignore_ascii_innerKj10_ECskjFBwtpsoHr_8quandary.0:3,_RNvMNtNtCs8xvirJzNMvV_4core5slice5asciiSh27eq_ignore_ascii_case_simpleCskjFBwtpsoHr_8quandary.0:3,_RINvMNtNtCs8xvirJzNMvV_4core5slice5asciiSh27eq_ignore_ascii_case_chunksKj10_ECskjFBwtpsoHr_8quandary.0:3,_RNvNtNtCskjFBwtpsoHr_8quandary4name4wire23parse_uncompressed_name.0:5,_RNvMs_NtCskjFBwtpsoHr_8quandary4nameNtB4_4Name15initialize_into.0:5,_RINvNtCs8xvirJzNMvV_4core3ptr9drop_glueSTjINtNtCs6xMQmN1AWUs_5alloc5boxed3BoxNtNtCskjFBwtpsoHr_8quandary4name4NameEEEB1h_.0:3,_RINvNtNtCskjFBwtpsoHr_8quandary6server5query11do_referralNtNtB2_10kani_query8MockZoneEB6_.0:2,_RINvNtNtCskjFBwtpsoHr_8quandary6server5query11do_referralNtNtB2_10kani_query8MockZoneEB6_.1:2,_RINvNtNtCskjFBwtpsoHr_8quandary6server5query11do_referralNtNtB2_10kani_query8MockZoneEB6_.2:2" stubs="M1,T0,N1"
+// @harness name=c05_referral_glue_aaaa props=C05,C04 panics=C05,C01 tier=thorough mem=2 t=1800 kani="--no-assertion-reach-checks" cbmc="--max-field-sensitivity-array-size 256 --unwindset _RNCNvMs_NtNtCskjFBwtpsoHr_8quandary7message6writerNtB6_6Writer30write_compressed_unhinted_name0Ba_.0:4,_RNCNvMs_NtNtCskjFBwtpsoHr_8quandary7message6writerNtB6_6Writer30write_compressed_unhinted_names_0Ba_.0:4,_RNvMs_NtNtCskjFBwtpsoHr_8quandary7message6writerNtB4_6Writer30write_compressed_unhinted_name.0:4,_RNvMs_NtNtCskjFBwtpsoHr_8quandary7message6writerNtB4_6Writer30write_compressed_unhinted_name.1:4,_RINvNvMNtNtCs8xvirJzNMvV_4core5slice5asciiSh27eq_ignore_ascii_case_chunks21eq_ignore_ascii_innerKj10_ECskjFBwtpsoHr_8quandary.0:3,_RNvMNtNtCs8xvirJzNMvV_4core5slice5asciiSh27eq_ignore_ascii_case_simpleCskjFBwtpsoHr_8quandary.0:3,_RINvMNtNtCs8xvirJzNMvV_4core5slice5asciiSh27eq_ignore_ascii_case_chunksKj10_ECskjFBwtpsoHr_8quandary.0:3,_RNvNtNtCskjFBwtpsoHr_8quandary4name4wire23parse_uncompressed_name.0:5,_RNvMs_NtCskjFBwtpsoHr_8quandary4nameNtB4_4Name15initialize_into.0:5,_RINvNtCs8xvirJzNMvV_4core3ptr9drop_glueSTjINtNtCs6xMQmN1AWUs_5alloc5boxed3BoxNtNtCskjFBwtpsoHr_8quandary4name4NameEEEB1h_.0:3,_RINvNtNtCskjFBwtpsoHr_8quandary6server5query11do_referralNtNtB2_10kani_query8MockZoneEB6_.0:2,_RINvNtNtCskjFBwtpsoHr_8quandary6server5query11do_referralNtNtB2_10kani_query8MockZoneEB6_.1:2,_RINvNtNtCskjFBwtpsoHr_8quandary6server5query11do_referralNtNtB2_10kani_query8MockZoneEB6_.2:2" stubs="M1,T0,N1"
 //   fn="Server::handle_non_axfr_query,answer,do_referral,add_additional_addresses,execute_allowing_truncation,read_name_from_rdata,Name::eq_or_subdomain_of,Writer::add_authority_rrset,Writer::add_additional_rrset"
 //   bound="UDP, limit 64; question a. A IN; Referral(cut a., NS b.a. (in bailiwick: glue, visible only below the cut, mandatory)); the name server has an AAAA: 63 octets, complete; unwind 7"
 //   sym="NS TTL, TTLs and octets of the address records"
@@ -1874,7 +1874,7 @@ proof_ref!(c05_referral_glue_aaaa, 7, {
     let _ = n;
 });
 
-// @harness name=c05_referral_glue_none props=C05,C04 panics=C05,C01 tier=thorough mem=4.5 t=3600 kani="--no-assertion-reach-checks" cbmc="--max-field-sensitivity-array-size 256 --unwindset _RNCNvMs_NtNtCskjFBwtpsoHr_8quandary7message6writerNtB6_6Writer30write_compressed_unhinted_name0Ba_.0:4,_RNCNvMs_NtNtCskjFBwtpsoHr_8quandary7message6writerNtB6_6Writer30write_compressed_unhinted_names_0Ba_.0:4,_RNvMs_NtNtCskjFBwtpsoHr_8quandary7message6writerNtB4_6Writer30write_compressed_unhinted_name.0:4,_RNvMs_NtNtCskjFBwtpsoHr_8quandary7message6writerNtB4_6Writer30write_compressed_unhinted_name.1:4,_RINvNvMNtNtCs8xvirJzNMvV_4core5slice5asciiSh27eq_ignore_ascii_case_chunks21eq_ignore_ascii_innerKj10_ECskjFBwtpsoHr_8quandary.0:3,_RNvMNtNtCs8xvirJzNMvV_4core5slice5asciiSh27eq_ignore_ascii_case_simpleCskjFBwtpsoHr_8quandary.0:3,_RINvMNtNtCs8xvirJzNMvV_4core5slice5asciiSh27eq_ignore_ascii_case_chunksKj10_ECskjFBwtpsoHr_8quandary.0:3,_RNvNtNtCskjFBwtpsoHr_8quandary4name4wire23parse_uncompressed_name.0:5,_RNvMs_NtCskjFBwtpsoHr_8quandary4nameNtB4_4Name15initialize_into.0:5,_RINvNtCs8xvirJzNMvV_4core3ptr9drop_glueSTjINtNtCs6xMQmN1AWUs_5alloc5boxed3BoxNtNtCskjFBwtpsoHr_8quandary4name4NameEEEB1h_.0:3,_RINvNtNtCskjFBwtpsoHr_8quandary6server5query11do_referralNtNtB2_10kani_query8MockZoneEB6_.0:2,_RINvNtNtCskjFBwtpsoHr_8quandary6server5query11do_referralNtNtB2_10kani_query8MockZoneEB6_.1:2,_RINvNtNtCskjFBwtpsoHr_8quandary6server5query11do_referralNtNtB2_10kani_query8MockZoneEB6_.2:2" stubs="M1,T0,N1"
+// @harness name=c05_referral_glue_none props=C05,C04 panics=C05,C01 tier=thorough mem=2 t=1800 kani="--no-assertion-reach-checks" cbmc="--max-field-sensitivity-array-size 256 --unwindset _RNCNvMs_NtNtCskjFBwtpsoHr_8quandary7message6writerNtB6_6Writer30write_compressed_unhinted_name0Ba_.0:4,_RNCNvMs_NtNtCskjFBwtpsoHr_8quandary7message6writerNtB6_6Writer30write_compressed_unhinted_names_0Ba_.0:4,_RNvMs_NtNtCskjFBwtpsoHr_8quandary7message6writerNtB4_6Writer30write_compressed_unhinted_name.0:4,_RNvMs_NtNtCskjFBwtpsoHr_8quandary7message6writerNtB4_6Writer30write_compressed_unhinted_name.1:4,_RINvNvMNtNtCs8xvirJzNMvV_4core5slice5asciiSh27eq_ignore_ascii_case_chunks21eq_ignore_ascii_innerKj10_ECskjFBwtpsoHr_8quandary.0:3,_RNvMNtNtCs8xvirJzNMvV_4core5slice5asciiSh27eq_ignore_ascii_case_simpleCskjFBwtpsoHr_8quandary.0:3,_RINvMNtNtCs8xvirJzNMvV_4core5slice5asciiSh27eq_ignore_ascii_case_chunksKj10_ECskjFBwtpsoHr_8quandary.0:3,_RNvNtNtCskjFBwtpsoHr_8quandary4name4wire23parse_uncompressed_name.0:5,_RNvMs_NtCskjFBwtpsoHr_8quandary4nameNtB4_4Name15initialize_into.0:5,_RINvNtCs8xvirJzNMvV_4core3ptr9drop_glueSTjINtNtCs6xMQmN1AWUs_5alloc5boxed3BoxNtNtCskjFBwtpsoHr_8quandary4name4NameEEEB1h_.0:3,_RINvNtNtCskjFBwtpsoHr_8quandary6server5query11do_referralNtNtB2_10kani_query8MockZoneEB6_.0:2,_RINvNtNtCskjFBwtpsoHr_8quandary6server5query11do_referralNtNtB2_10kani_query8MockZoneEB6_.1:2,_RINvNtNtCskjFBwtpsoHr_8quandary6server5query11do_referralNtNtB2_10kani_query8MockZoneEB6_.2:2" stubs="M1,T0,N1"
 //   fn="Server::handle_non_axfr_query,answer,do_referral,add_additional_addresses,execute_allowing_truncation,read_name_from_rdata,Name::eq_or_subdomain_of,Writer::add_authority_rrset,Writer::add_additional_rrset"
 //   bound="UDP, limit 64; question a. A IN; Referral(cut a., NS b.a. (in bailiwick: glue, visible only below the cut, mandatory)); the name server has no address record: 35 octets; unwind 7"
 //   sym="NS TTL, TTLs and octets of the address records"
@@ -1884,7 +1884,7 @@ proof_ref!(c05_referral_glue_none, 7, {
     let _ = n;
 });
 
-// @harness name=c05_referral_out props=C05,C04 panics=C05,C01 tier=thorough mem=4.5 t=3600 kani="--no-assertion-reach-checks" cbmc="--max-field-sensitivity-array-size 256 --unwindset _RNCNvMs_NtNtCskjFBwtpsoHr_8quandary7message6writerNtB6_6Writer30write_compressed_unhinted_name0Ba_.0:4,_RNCNvMs_NtNtCskjFBwtpsoHr_8quandary7message6writerNtB6_6Writer30write_compressed_unhinted_names_0Ba_.0:4,_RNvMs_NtNtCskjFBwtpsoHr_8quandary7message6writerNtB4_6Writer30write_compressed_unhinted_name.0:4,_RNvMs_NtNtCskjFBwtpsoHr_8quandary7message6writerNtB4_6Writer30write_compressed_unhinted_name.1:4,_RINvNvMNtNtCs8xvirJzNMvV_4core5slice5asciiSh27eq_ignore_ascii_case_chunks21eq_ignore_ascii_innerKj10_ECskjFBwtpsoHr_8quandary.0:3,_RNvMNtNtCs8xvirJzNMvV_4core5slice5asciiSh27eq_ignore_ascii_case_simpleCskjFBwtpsoHr_8quandary.0:3,_RINvMNtNtCs8xvirJzNMvV_4core5slice5asciiSh27eq_ignore_ascii_case_chunksKj10_ECskjFBwtpsoHr_8quandary.0:3,_RNvNtNtCskjFBwtpsoHr_8quandary4name4wire23parse_uncompressed_name.0:5,_RNvMs_NtCskjFBwtpsoHr_8quandary4nameNtB4_4Name15initialize_into.0:5,_RINvNtCs8xvirJzNMvV_4core3ptr9drop_glueSTjINtNtCs6xMQmN1AWUs_5alloc5boxed3BoxNtNtCskjFBwtpsoHr_8quandary4name4NameEEEB1h_.0:3,_RINvNtNtCskjFBwtpsoHr_8quandary6server5query11do_referralNtNtB2_10kani_query8MockZoneEB6_.0:2,_RINvNtNtCskjFBwtpsoHr_8quandary6server5query11do_referralNtNtB2_10kani_query8MockZoneEB6_.1:2,_RINvNtNtCskjFBwtpsoHr_8quandary6server5query11do_referralNtNtB2_10kani_query8MockZoneEB6_.2:2" stubs="M1,T0,N1"
+// @harness name=c05_referral_out props=C05,C04 panics=C05,C01 tier=thorough mem=2 t=1800 kani="--no-assertion-reach-checks" cbmc="--max-field-sensitivity-array-size 256 --unwindset _RNCNvMs_NtNtCskjFBwtpsoHr_8quandary7message6writerNtB6_6Writer30write_compressed_unhinted_name0Ba_.0:4,_RNCNvMs_NtNtCskjFBwtpsoHr_8quandary7message6writerNtB6_6Writer30write_compressed_unhinted_names_0Ba_.0:4,_RNvMs_NtNtCskjFBwtpsoHr_8quandary7message6writerNtB4_6Writer30write_compressed_unhinted_name.0:4,_RNvMs_NtNtCskjFBwtpsoHr_8quandary7message6writerNtB4_6Writer30write_compressed_unhinted_name.1:4,_RINvNvMNtNtCs8xvirJzNMvV_4core5slice5asciiSh27eq_ignore_ascii_case_chunks21eq_ignore_ascii_innerKj10_ECskjFBwtpsoHr_8quandary.0:3,_RNvMNtNtCs8xvirJzNMvV_4core5slice5asciiSh27eq_ignore_ascii_case_simpleCskjFBwtpsoHr_8quandary.0:3,_RINvMNtNtCs8xvirJzNMvV_4core5slice5asciiSh27eq_ignore_ascii_case_chunksKj10_ECskjFBwtpsoHr_8quandary.0:3,_RNvNtNtCskjFBwtpsoHr_8quandary4name4wire23parse_uncompressed_name.0:5,_RNvMs_NtCskjFBwtpsoHr_8quandary4nameNtB4_4Name15initialize_into.0:5,_RINvNtCs8xvirJzNMvV_4core3ptr9drop_glueSTjINtNtCs6xMQmN1AWUs_5alloc5boxed3BoxNtNtCskjFBwtpsoHr_8quandary4name4NameEEEB1h_.0:3,_RINvNtNtCskjFBwtpsoHr_8quandary6server5query11do_referralNtNtB2_10kani_query8MockZoneEB6_.0:2,_RINvNtNtCskjFBwtpsoHr_8quandary6server5query11do_referralNtNtB2_10kani_query8MockZoneEB6_.1:2,_RINvNtNtCskjFBwtpsoHr_8quandary6server5query11do_referralNtNtB2_10kani_query8MockZoneEB6_.2:2" stubs="M1,T0,N1"
 //   fn="Server::handle_non_axfr_query,answer,do_referral,add_additional_addresses,execute_allowing_truncation,read_name_from_rdata,Name::eq_or_subdomain_of,Writer::add_authority_rrset,Writer::add_additional_rrset"
 //   bound="UDP, limit 64; question a. A IN; Referral(cut a., NS c. (a name of the parent zone: addresses optional)); the name server has an A: 50 octets, complete; unwind 7"
 //   sym="NS TTL, TTLs and octets of the address records"
@@ -1903,7 +1903,7 @@ proof_ref!(c05_referral_sibling, 7, {
     kani::cover!(case == COMPLETE && n == 50, "referral with sibling glue");
 });
 
-// @harness name=c05_referral_out_both props=C05,C04 panics=C05,C01 tier=thorough mem=4.5 t=3600 kani="--no-assertion-reach-checks" cbmc="--max-field-sensitivity-array-size 256 --unwindset _RNCNvMs_NtNtCskjFBwtpsoHr_8quandary7message6writerNtB6_6Writer30write_compressed_unhinted_name0Ba_.0:4,_RNCNvMs_NtNtCskjFBwtpsoHr_8quandary7message6writerNtB6_6Writer30write_compressed_unhinted_names_0Ba_.0:4,_RNvMs_NtNtCskjFBwtpsoHr_8quandary7message6writerNtB4_6Writer30write_compressed_unhinted_name.0:4,_RNvMs_NtNtCskjFBwtpsoHr_8quandary7message6writerNtB4_6Writer30write_compressed_unhinted_name.1:4,_RINvNvMNtNtCs8xvirJzNMvV_4core5slice5asciiSh27eq_ignore_ascii_case_chunks21eq_ignore_ascii_innerKj10_ECskjFBwtpsoHr_8quandary.0:3,_RNvMNtNtCs8xvirJzNMvV_4core5slice5asciiSh27eq_ignore_ascii_case_simpleCskjFBwtpsoHr_8quandary.0:3,_RINvMNtNtCs8xvirJzNMvV_4core5slice5asciiSh27eq_ignore_ascii_case_chunksKj10_ECskjFBwtpsoHr_8quandary.0:3,_RNvNtNtCskjFBwtpsoHr_8quandary4name4wire23parse_uncompressed_name.0:5,_RNvMs_NtCskjFBwtpsoHr_8quandary4nameNtB4_4Name15initialize_into.0:5,_RINvNtCs8xvirJzNMvV_4core3ptr9drop_glueSTjINtNtCs6xMQmN1AWUs_5alloc5boxed3BoxNtNtCskjFBwtpsoHr_8quandary4name4NameEEEB1h_.0:3,_RINvNtNtCskjFBwtpsoHr_8quandary6server5query11do_referralNtNtB2_10kani_query8MockZoneEB6_.0:2,_RINvNtNtCskjFBwtpsoHr_8quandary6server5query11do_referralNtNtB2_10kani_query8MockZoneEB6_.1:2,_RINvNtNtCskjFBwtpsoHr_8quandary6server5query11do_referralNtNtB2_10kani_query8MockZoneEB6_.2:2" stubs="M1,T0,N1"
+// @harness name=c05_referral_out_both props=C05,C04 panics=C05,C01 tier=thorough mem=2 t=1800 kani="--no-assertion-reach-checks" cbmc="--max-field-sensitivity-array-size 256 --unwindset _RNCNvMs_NtNtCskjFBwtpsoHr_8quandary7message6writerNtB6_6Writer30write_compressed_unhinted_name0Ba_.0:4,_RNCNvMs_NtNtCskjFBwtpsoHr_8quandary7message6writerNtB6_6Writer30write_compressed_unhinted_names_0Ba_.0:4,_RNvMs_NtNtCskjFBwtpsoHr_8quandary7message6writerNtB4_6Writer30write_compressed_unhinted_name.0:4,_RNvMs_NtNtCskjFBwtpsoHr_8quandary7message6writerNtB4_6Writer30write_compressed_unhinted_name.1:4,_RINvNvMNtNtCs8xvirJzNMvV_4core5slice5asciiSh27eq_ignore_ascii_case_chunks21eq_ignore_ascii_innerKj10_ECskjFBwtpsoHr_8quandary.0:3,_RNvMNtNtCs8xvirJzNMvV_4core5slice5asciiSh27eq_ignore_ascii_case_simpleCskjFBwtpsoHr_8quandary.0:3,_RINvMNtNtCs8xvirJzNMvV_4core5slice5asciiSh27eq_ignore_ascii_case_chunksKj10_ECskjFBwtpsoHr_8quandary.0:3,_RNvNtNtCskjFBwtpsoHr_8quandary4name4wire23parse_uncompressed_name.0:5,_RNvMs_NtCskjFBwtpsoHr_8quandary4nameNtB4_4Name15initialize_into.0:5,_RINvNtCs8xvirJzNMvV_4core3ptr9drop_glueSTjINtNtCs6xMQmN1AWUs_5alloc5boxed3BoxNtNtCskjFBwtpsoHr_8quandary4name4NameEEEB1h_.0:3,_RINvNtNtCskjFBwtpsoHr_8quandary6server5query11do_referralNtNtB2_10kani_query8MockZoneEB6_.0:2,_RINvNtNtCskjFBwtpsoHr_8quandary6server5query11do_referralNtNtB2_10kani_query8MockZoneEB6_.1:2,_RINvNtNtCskjFBwtpsoHr_8quandary6server5query11do_referralNtNtB2_10kani_query8MockZoneEB6_.2:2" stubs="M1,T0,N1"
 //   fn="Server::handle_non_axfr_query,answer,do_referral,add_additional_addresses,execute_allowing_truncation,read_name_from_rdata,Name::eq_or_subdomain_of,Writer::add_authority_rrset,Writer::add_additional_rrset"
 //   bound="UDP, limit 64; question a. A IN; Referral(cut a., NS c. (a name of the parent zone: addresses optional)); the name server has A and AAAA: 78 octets needed: optional data dropped without TC; unwind 7"
 //   sym="NS TTL, TTLs and octets of the address records"
@@ -1913,7 +1913,7 @@ proof_ref!(c05_referral_out_both, 7, {
     let _ = n;
 });
 
-// @harness name=c05_any_referral props=C05,C04 panics=C05,C01 tier=thorough mem=4.5 t=3600 kani="--no-assertion-reach-checks" cbmc="--max-field-sensitivity-array-size 256 --unwindset _RNCNvMs_NtNtCskjFBwtpsoHr_8quandary7message6writerNtB6_6Writer30write_compressed_unhinted_name0Ba_.0:4,_RNCNvMs_NtNtCskjFBwtpsoHr_8quandary7message6writerNtB6_6Writer30write_compressed_unhinted_names_0Ba_.0:4,_RNvMs_NtNtCskjFBwtpsoHr_8quandary7message6writerNtB4_6Writer30write_compressed_unhinted_name.0:4,_RNvMs_NtNtCskjFBwtpsoHr_8quandary7message6writerNtB4_6Writer30write_compressed_unhinted_name.1:4,_RINvNvMNtNtCs8xvirJzNMvV_4core5slice5asciiSh27eq_ignore_ascii_case_chunks21eq_ignore_ascii_innerKj10_ECskjFBwtpsoHr_8quandary.0:3,_RNvMNtNtCs8xvirJzNMvV_4core5slice5asciiSh27eq_ignore_ascii_case_simpleCskjFBwtpsoHr_8quandary.0:3,_RINvMNtNtCs8xvirJzNMvV_4core5slice5asciiSh27eq_ignore_ascii_case_chunksKj10_ECskjFBwtpsoHr_8quandary.0:3,_RNvNtNtCskjFBwtpsoHr_8quandary4name4wire23parse_uncompressed_name.0:5,_RNvMs_NtCskjFBwtpsoHr_8quandary4nameNtB4_4Name15initialize_into.0:5,_RINvNtCs8xvirJzNMvV_4core3ptr9drop_glueSTjINtNtCs6xMQmN1AWUs_5alloc5boxed3BoxNtNtCskjFBwtpsoHr_8quandary4name4NameEEEB1h_.0:3,_RINvNtNtCskjFBwtpsoHr_8quandary6server5query11do_referralNtNtB2_10kani_query8MockZoneEB6_.0:2,_RINvNtNtCskjFBwtpsoHr_8quandary6server5query11do_referralNtNtB2_10kani_query8MockZoneEB6_.1:2,_RINvNtNtCskjFBwtpsoHr_8quandary6server5query11do_referralNtNtB2_10kani_query8MockZoneEB6_.2:2" stubs="M1,T0,N1"
+// @harness name=c05_any_referral props=C05,C04 panics=C05,C01 tier=thorough mem=2 t=1800 kani="--no-assertion-reach-checks" cbmc="--max-field-sensitivity-array-size 256 --unwindset _RNCNvMs_NtNtCskjFBwtpsoHr_8quandary7message6writerNtB6_6Writer30write_compressed_unhinted_name0Ba_.0:4,_RNCNvMs_NtNtCskjFBwtpsoHr_8quandary7message6writerNtB6_6Writer30write_compressed_unhinted_names_0Ba_.0:4,_RNvMs_NtNtCskjFBwtpsoHr_8quandary7message6writerNtB4_6Writer30write_compressed_unhinted_name.0:4,_RNvMs_NtNtCskjFBwtpsoHr_8quandary7message6writerNtB4_6Writer30write_compressed_unhinted_name.1:4,_RINvNvMNtNtCs8xvirJzNMvV_4core5slice5asciiSh27eq_ignore_ascii_case_chunks21eq_ignore_ascii_innerKj10_ECskjFBwtpsoHr_8quandary.0:3,_RNvMNtNtCs8xvirJzNMvV_4core5slice5asciiSh27eq_ignore_ascii_case_simpleCskjFBwtpsoHr_8quandary.0:3,_RINvMNtNtCs8xvirJzNMvV_4core5slice5asciiSh27eq_ignore_ascii_case_chunksKj10_ECskjFBwtpsoHr_8quandary.0:3,_RNvNtNtCskjFBwtpsoHr_8quandary4name4wire23parse_uncompressed_name.0:5,_RNvMs_NtCskjFBwtpsoHr_8quandary4nameNtB4_4Name15initialize_into.0:5,_RINvNtCs8xvirJzNMvV_4core3ptr9drop_glueSTjINtNtCs6xMQmN1AWUs_5alloc5boxed3BoxNtNtCskjFBwtpsoHr_8quandary4name4NameEEEB1h_.0:3,_RINvNtNtCskjFBwtpsoHr_8quandary6server5query11do_referralNtNtB2_10kani_query8MockZoneEB6_.0:2,_RINvNtNtCskjFBwtpsoHr_8quandary6server5query11do_referralNtNtB2_10kani_query8MockZoneEB6_.1:2,_RINvNtNtCskjFBwtpsoHr_8quandary6server5query11do_referralNtNtB2_10kani_query8MockZoneEB6_.2:2" stubs="M1,T0,N1"
 //   fn="Server::handle_non_axfr_query,answer_any,do_referral,add_additional_addresses,execute_allowing_truncation,read_name_from_rdata,Name::eq_or_subdomain_of,Writer::add_authority_rrset,Writer::add_additional_rrset"
 //   bound="UDP, limit 64; question a. * IN; Referral(cut a., NS b.a. (in bailiwick: glue, visible only below the cut, mandatory)); the name server has an A: 51 octets, complete; unwind 7"
 //   sym="NS TTL, TTLs and octets of the address records"
@@ -1957,7 +1957,7 @@ fn referral_2ns(udp: bool, limit: usize, has_o: bool) -> (u8, usize) {
     (check_response(&resp, n, &ex, udp, limit), n)
 }
 
-// @harness name=c05_referral_2ns props=C05,C04 panics=C05,C01 tier=thorough mem=4.5 t=3600 kani="--no-assertion-reach-checks" cbmc="--max-field-sensitivity-array-size 256 --unwindset _RNCNvMs_NtNtCskjFBwtpsoHr_8quandary7message6writerNtB6_6Writer30write_compressed_unhinted_name0Ba_.0:4,_RNCNvMs_NtNtCskjFBwtpsoHr_8quandary7message6writerNtB6_6Writer30write_compressed_unhinted_names_0Ba_.0:4,_RNvMs_NtNtCskjFBwtpsoHr_8quandary7message6writerNtB4_6Writer30write_compressed_unhinted_name.0:4,_RNvMs_NtNtCskjFBwtpsoHr_8quandary7message6writerNtB4_6Writer30write_compressed_unhinted_name.1:4,_RINvNvMNtNtCs8xvirJzNMvV_4core5slice5asciiSh27eq_ignore_ascii_case_chunks21eq_ignore_ascii_innerKj10_ECskjFBwtpsoHr_8quandary.0:3,_RNvMNtNtCs8xvirJzNMvV_4core5slice5asciiSh27eq_ignore_ascii_case_simpleCskjFBwtpsoHr_8quandary.0:3,_RINvMNtNtCs8xvirJzNMvV_4core5slice5asciiSh27eq_ignore_ascii_case_chunksKj10_ECskjFBwtpsoHr_8quandary.0:3,_RNvNtNtCskjFBwtpsoHr_8quandary4name4wire23parse_uncompressed_name.0:5,_RNvMs_NtCskjFBwtpsoHr_8quandary4nameNtB4_4Name15initialize_into.0:5,_RINvNtCs8xvirJzNMvV_4core3ptr9drop_glueSTjINtNtCs6xMQmN1AWUs_5alloc5boxed3BoxNtNtCskjFBwtpsoHr_8quandary4name4NameEEEB1h_.0:3,_RINvNtNtCskjFBwtpsoHr_8quandary6server5query11do_referralNtNtB2_10kani_query8MockZoneEB6_.0:3,_RINvNtNtCskjFBwtpsoHr_8quandary6server5query11do_referralNtNtB2_10kani_query8MockZoneEB6_.1:2,_RINvNtNtCskjFBwtpsoHr_8quandary6server5query11do_referralNtNtB2_10kani_query8MockZoneEB6_.2:2" stubs="M1,T0,N1"
+// @harness name=c05_referral_2ns props=C05,C04 panics=C05,C01 tier=thorough mem=2 t=1800 kani="--no-assertion-reach-checks" cbmc="--max-field-sensitivity-array-size 256 --unwindset _RNCNvMs_NtNtCskjFBwtpsoHr_8quandary7message6writerNtB6_6Writer30write_compressed_unhinted_name0Ba_.0:4,_RNCNvMs_NtNtCskjFBwtpsoHr_8quandary7message6writerNtB6_6Writer30write_compressed_unhinted_names_0Ba_.0:4,_RNvMs_NtNtCskjFBwtpsoHr_8quandary7message6writerNtB4_6Writer30write_compressed_unhinted_name.0:4,_RNvMs_NtNtCskjFBwtpsoHr_8quandary7message6writerNtB4_6Writer30write_compressed_unhinted_name.1:4,_RINvNvMNtNtCs8xvirJzNMvV_4core5slice5asciiSh27eq_ignore_ascii_case_chunks21eq_ignore_ascii_innerKj10_ECskjFBwtpsoHr_8quandary.0:3,_RNvMNtNtCs8xvirJzNMvV_4core5slice5asciiSh27eq_ignore_ascii_case_simpleCskjFBwtpsoHr_8quandary.0:3,_RINvMNtNtCs8xvirJzNMvV_4core5slice5asciiSh27eq_ignore_ascii_case_chunksKj10_ECskjFBwtpsoHr_8quandary.0:3,_RNvNtNtCskjFBwtpsoHr_8quandary4name4wire23parse_uncompressed_name.0:5,_RNvMs_NtCskjFBwtpsoHr_8quandary4nameNtB4_4Name15initialize_into.0:5,_RINvNtCs8xvirJzNMvV_4core3ptr9drop_glueSTjINtNtCs6xMQmN1AWUs_5alloc5boxed3BoxNtNtCskjFBwtpsoHr_8quandary4name4NameEEEB1h_.0:3,_RINvNtNtCskjFBwtpsoHr_8quandary6server5query11do_referralNtNtB2_10kani_query8MockZoneEB6_.0:3,_RINvNtNtCskjFBwtpsoHr_8quandary6server5query11do_referralNtNtB2_10kani_query8MockZoneEB6_.1:2,_RINvNtNtCskjFBwtpsoHr_8quandary6server5query11do_referralNtNtB2_10kani_query8MockZoneEB6_.2:2" stubs="M1,T0,N1"
 //   fn="Server::handle_non_axfr_query,answer,do_referral,add_additional_addresses,execute_allowing_truncation,read_name_from_rdata,Name::eq_or_subdomain_of,Writer::add_authority_rrset,Writer::add_additional_rrset"
 //   bound="UDP, limit 64; question a. A IN; Referral(cut a., NS {a., c.}); glue A of a. present, c. without address: 64 octets, complete; address lookups answered in the order glue, others; unwind 7"
 //   sym="NS TTL, glue TTL, 4 address octets"
@@ -1966,7 +1966,7 @@ proof_ref!(c05_referral_2ns, 7, {
     kani::cover!(case == COMPLETE && n == 64, "complete referral");
 });
 
-// @harness name=c05_referral_2ns_drop props=C05,C04 panics=C05,C01 tier=thorough mem=4.5 t=3600 kani="--no-assertion-reach-checks" cbmc="--max-field-sensitivity-array-size 256 --unwindset _RNCNvMs_NtNtCskjFBwtpsoHr_8quandary7message6writerNtB6_6Writer30write_compressed_unhinted_name0Ba_.0:4,_RNCNvMs_NtNtCskjFBwtpsoHr_8quandary7message6writerNtB6_6Writer30write_compressed_unhinted_names_0Ba_.0:4,_RNvMs_NtNtCskjFBwtpsoHr_8quandary7message6writerNtB4_6Writer30write_compressed_unhinted_name.0:4,_RNvMs_NtNtCskjFBwtpsoHr_8quandary7message6writerNtB4_6Writer30write_compressed_unhinted_name.1:4,_RINvNvMNtNtCs8xvirJzNMvV_4core5slice5asciiSh27eq_ignore_ascii_case_chunks21eq_ignore_ascii_innerKj10_ECskjFBwtpsoHr_8quandary.0:3,_RNvMNtNtCs8xvirJzNMvV_4core5slice5asciiSh27eq_ignore_ascii_case_simpleCskjFBwtpsoHr_8quandary.0:3,_RINvMNtNtCs8xvirJzNMvV_4core5slice5asciiSh27eq_ignore_ascii_case_chunksKj10_ECskjFBwtpsoHr_8quandary.0:3,_RNvNtNtCskjFBwtpsoHr_8quandary4name4wire23parse_uncompressed_name.0:5,_RNvMs_NtCskjFBwtpsoHr_8quandary4nameNtB4_4Name15initialize_into.0:5,_RINvNtCs8xvirJzNMvV_4core3ptr9drop_glueSTjINtNtCs6xMQmN1AWUs_5alloc5boxed3BoxNtNtCskjFBwtpsoHr_8quandary4name4NameEEEB1h_.0:3,_RINvNtNtCskjFBwtpsoHr_8quandary6server5query11do_referralNtNtB2_10kani_query8MockZoneEB6_.0:3,_RINvNtNtCskjFBwtpsoHr_8quandary6server5query11do_referralNtNtB2_10kani_query8MockZoneEB6_.1:2,_RINvNtNtCskjFBwtpsoHr_8quandary6server5query11do_referralNtNtB2_10kani_query8MockZoneEB6_.2:2" stubs="M1,T0,N1"
+// @harness name=c05_referral_2ns_drop props=C05,C04 panics=C05,C01 tier=thorough mem=2 t=1800 kani="--no-assertion-reach-checks" cbmc="--max-field-sensitivity-array-size 256 --unwindset _RNCNvMs_NtNtCskjFBwtpsoHr_8quandary7message6writerNtB6_6Writer30write_compressed_unhinted_name0Ba_.0:4,_RNCNvMs_NtNtCskjFBwtpsoHr_8quandary7message6writerNtB6_6Writer30write_compressed_unhinted_names_0Ba_.0:4,_RNvMs_NtNtCskjFBwtpsoHr_8quandary7message6writerNtB4_6Writer30write_compressed_unhinted_name.0:4,_RNvMs_NtNtCskjFBwtpsoHr_8quandary7message6writerNtB4_6Writer30write_compressed_unhinted_name.1:4,_RINvNvMNtNtCs8xvirJzNMvV_4core5slice5asciiSh27eq_ignore_ascii_case_chunks21eq_ignore_ascii_innerKj10_ECskjFBwtpsoHr_8quandary.0:3,_RNvMNtNtCs8xvirJzNMvV_4core5slice5asciiSh27eq_ignore_ascii_case_simpleCskjFBwtpsoHr_8quandary.0:3,_RINvMNtNtCs8xvirJzNMvV_4core5slice5asciiSh27eq_ignore_ascii_case_chunksKj10_ECskjFBwtpsoHr_8quandary.0:3,_RNvNtNtCskjFBwtpsoHr_8quandary4name4wire23parse_uncompressed_name.0:5,_RNvMs_NtCskjFBwtpsoHr_8quandary4nameNtB4_4Name15initialize_into.0:5,_RINvNtCs8xvirJzNMvV_4core3ptr9drop_glueSTjINtNtCs6xMQmN1AWUs_5alloc5boxed3BoxNtNtCskjFBwtpsoHr_8quandary4name4NameEEEB1h_.0:3,_RINvNtNtCskjFBwtpsoHr_8quandary6server5query11do_referralNtNtB2_10kani_query8MockZoneEB6_.0:3,_RINvNtNtCskjFBwtpsoHr_8quandary6server5query11do_referralNtNtB2_10kani_query8MockZoneEB6_.1:2,_RINvNtNtCskjFBwtpsoHr_8quandary6server5query11do_referralNtNtB2_10kani_query8MockZoneEB6_.2:2" stubs="M1,T0,N1"
 //   fn="Server::handle_non_axfr_query,answer,do_referral,add_additional_addresses,execute_allowing_truncation,read_name_from_rdata,Name::eq_or_subdomain_of,Writer::add_authority_rrset,Writer::add_additional_rrset"
 //   bound="UDP, limit 64; Referral(cut a., NS {a., c.}); glue A of a. and an A of c.: 80 octets needed; the glue must stay, the other address may go; unwind 7"
 //   sym="NS TTL, 2 address TTLs, 8 address octets"
@@ -1975,7 +1975,7 @@ proof_ref!(c05_referral_2ns_drop, 7, {
     kani::cover!(case == PARTIAL && n == 64, "glue kept, other address dropped");
 });
 
-// @harness name=c05_referral_badns props=C05 panics=C05,C01 tier=thorough mem=4 t=1200 kani="--no-assertion-reach-checks" cbmc="--max-field-sensitivity-array-size 256 --unwindset _RNCNvMs_NtNtCskjFBwtpsoHr_8quandary7message6writerNtB6_6Writer30write_compressed_unhinted_name0Ba_.0:4,_RNCNvMs_NtNtCskjFBwtpsoHr_8quandary7message6writerNtB6_6Writer30write_compressed_unhinted_names_0Ba_.0:4,_RNvMs_NtNtCskjFBwtpsoHr_8quandary7message6writerNtB4_6Writer30write_compressed_unhinted_name.0:4,_RNvMs_NtNtCskjFBwtpsoHr_8quandary7message6writerNtB4_6Writer30write_compressed_unhinted_name.1:4,_RINvNvMNtNtCs8xvirJzNMvV_4core5slice5asciiSh27eq_ignore_ascii_case_chunks21eq_ignore_ascii_innerKj10_ECskjFBwtpsoHr_8quandary.0:3,_RNvMNtNtCs8xvirJzNMvV_4core5slice5asciiSh27eq_ignore_ascii_case_simpleCskjFBwtpsoHr_8quandary.0:3,_RINvMNtNtCs8xvirJzNMvV_4core5slice5asciiSh27eq_ignore_ascii_case_chunksKj10_ECskjFBwtpsoHr_8quandary.0:3,_RNvNtNtCskjFBwtpsoHr_8quandary4name4wire23parse_uncompressed_name.0:5,_RNvMs_NtCskjFBwtpsoHr_8quandary4nameNtB4_4Name15initialize_into.0:5,_RINvNtCs8xvirJzNMvV_4core3ptr9drop_glueSTjINtNtCs6xMQmN1AWUs_5alloc5boxed3BoxNtNtCskjFBwtpsoHr_8quandary4name4NameEEEB1h_.0:3,_RINvNtNtCskjFBwtpsoHr_8quandary6server5query11do_referralNtNtB2_10kani_query8MockZoneEB6_.0:2,_RINvNtNtCskjFBwtpsoHr_8quandary6server5query11do_referralNtNtB2_10kani_query8MockZoneEB6_.1:2,_RINvNtNtCskjFBwtpsoHr_8quandary6server5query11do_referralNtNtB2_10kani_query8MockZoneEB6_.2:2" stubs="M1,T0,N1"
+// @harness name=c05_referral_badns props=C05 panics=C05,C01 tier=thorough mem=2 t=1200 kani="--no-assertion-reach-checks" cbmc="--max-field-sensitivity-array-size 256 --unwindset _RNCNvMs_NtNtCskjFBwtpsoHr_8quandary7message6writerNtB6_6Writer30write_compressed_unhinted_name0Ba_.0:4,_RNCNvMs_NtNtCskjFBwtpsoHr_8quandary7message6writerNtB6_6Writer30write_compressed_unhinted_names_0Ba_.0:4,_RNvMs_NtNtCskjFBwtpsoHr_8quandary7message6writerNtB4_6Writer30write_compressed_unhinted_name.0:4,_RNvMs_NtNtCskjFBwtpsoHr_8quandary7message6writerNtB4_6Writer30write_compressed_unhinted_name.1:4,_RINvNvMNtNtCs8xvirJzNMvV_4core5slice5asciiSh27eq_ignore_ascii_case_chunks21eq_ignore_ascii_innerKj10_ECskjFBwtpsoHr_8quandary.0:3,_RNvMNtNtCs8xvirJzNMvV_4core5slice5asciiSh27eq_ignore_ascii_case_simpleCskjFBwtpsoHr_8quandary.0:3,_RINvMNtNtCs8xvirJzNMvV_4core5slice5asciiSh27eq_ignore_ascii_case_chunksKj10_ECskjFBwtpsoHr_8quandary.0:3,_RNvNtNtCskjFBwtpsoHr_8quandary4name4wire23parse_uncompressed_name.0:5,_RNvMs_NtCskjFBwtpsoHr_8quandary4nameNtB4_4Name15initialize_into.0:5,_RINvNtCs8xvirJzNMvV_4core3ptr9drop_glueSTjINtNtCs6xMQmN1AWUs_5alloc5boxed3BoxNtNtCskjFBwtpsoHr_8quandary4name4NameEEEB1h_.0:3,_RINvNtNtCskjFBwtpsoHr_8quandary6server5query11do_referralNtNtB2_10kani_query8MockZoneEB6_.0:2,_RINvNtNtCskjFBwtpsoHr_8quandary6server5query11do_referralNtNtB2_10kani_query8MockZoneEB6_.1:2,_RINvNtNtCskjFBwtpsoHr_8quandary6server5query11do_referralNtNtB2_10kani_query8MockZoneEB6_.2:2" stubs="M1,T0,N1"
 //   fn="Server::handle_non_axfr_query,answer,do_referral,read_name_from_rdata,Writer::add_authority_rrset"
 //   bound="UDP, limit 64; question a. A IN; Referral whose NS RDATA is not one whole name (label cut short; name followed by an extra octet): SERVFAIL, no records; unwind 7"
 //   sym="RDATA octets"
@@ -2002,7 +2002,7 @@ proof_ref!(c05_referral_badns, 7, {
     kani::cover!(true, "both malformed NS sets answered");
 });
 
-// @harness name=c05_cname_referral props=C05 panics=C05,C01 tier=thorough mem=6 t=1800 kani="--no-assertion-reach-checks" cbmc="--max-field-sensitivity-array-size 256 --unwindset _RNCNvMs_NtNtCskjFBwtpsoHr_8quandary7message6writerNtB6_6Writer30write_compressed_unhinted_name0Ba_.0:4,_RNCNvMs_NtNtCskjFBwtpsoHr_8quandary7message6writerNtB6_6Writer30write_compressed_unhinted_names_0Ba_.0:4,_RNvMs_NtNtCskjFBwtpsoHr_8quandary7message6writerNtB4_6Writer30write_compressed_unhinted_name.0:4,_RNvMs_NtNtCskjFBwtpsoHr_8quandary7message6writerNtB4_6Writer30write_compressed_unhinted_name.1:4,_RINvNvMNtNtCs8xvirJzNMvV_4core5slice5asciiSh27eq_ignore_ascii_case_chunks21eq_ignore_ascii_innerKj10_ECskjFBwtpsoHr_8quandary.0:3,_RNvMNtNtCs8xvirJzNMvV_4core5slice5asciiSh27eq_ignore_ascii_case_simpleCskjFBwtpsoHr_8quandary.0:3,_RINvMNtNtCs8xvirJzNMvV_4core5slice5asciiSh27eq_ignore_ascii_case_chunksKj10_ECskjFBwtpsoHr_8quandary.0:3,_RNvNtNtCskjFBwtpsoHr_8quandary4name4wire23parse_uncompressed_name.0:5,_RNvMs_NtCskjFBwtpsoHr_8quandary4nameNtB4_4Name15initialize_into.0:5,_RINvNtCs8xvirJzNMvV_4core3ptr9drop_glueSTjINtNtCs6xMQmN1AWUs_5alloc5boxed3BoxNtNtCskjFBwtpsoHr_8quandary4name4NameEEEB1h_.0:3,_RINvNtNtCskjFBwtpsoHr_8quandary6server5query11do_referralNtNtB2_10kani_query8MockZoneEB6_.0:2,_RINvNtNtCskjFBwtpsoHr_8quandary6server5query11do_referralNtNtB2_10kani_query8MockZoneEB6_.1:2,_RINvNtNtCskjFBwtpsoHr_8quandary6server5query11do_referralNtNtB2_10kani_query8MockZoneEB6_.2:2" stubs="M1,T0,N1"
+// @harness name=c05_cname_referral props=C05 panics=C05,C01 tier=thorough mem=3 t=1800 kani="--no-assertion-reach-checks" cbmc="--max-field-sensitivity-array-size 256 --unwindset _RNCNvMs_NtNtCskjFBwtpsoHr_8quandary7message6writerNtB6_6Writer30write_compressed_unhinted_name0Ba_.0:4,_RNCNvMs_NtNtCskjFBwtpsoHr_8quandary7message6writerNtB6_6Writer30write_compressed_unhinted_names_0Ba_.0:4,_RNvMs_NtNtCskjFBwtpsoHr_8quandary7message6writerNtB4_6Writer30write_compressed_unhinted_name.0:4,_RNvMs_NtNtCskjFBwtpsoHr_8quandary7message6writerNtB4_6Writer30write_compressed_unhinted_name.1:4,_RINvNvMNtNtCs8xvirJzNMvV_4core5slice5asciiSh27eq_ignore_ascii_case_chunks21eq_ignore_ascii_innerKj10_ECskjFBwtpsoHr_8quandary.0:3,_RNvMNtNtCs8xvirJzNMvV_4core5slice5asciiSh27eq_ignore_ascii_case_simpleCskjFBwtpsoHr_8quandary.0:3,_RINvMNtNtCs8xvirJzNMvV_4core5slice5asciiSh27eq_ignore_ascii_case_chunksKj10_ECskjFBwtpsoHr_8quandary.0:3,_RNvNtNtCskjFBwtpsoHr_8quandary4name4wire23parse_uncompressed_name.0:5,_RNvMs_NtCskjFBwtpsoHr_8quandary4nameNtB4_4Name15initialize_into.0:5,_RINvNtCs8xvirJzNMvV_4core3ptr9drop_glueSTjINtNtCs6xMQmN1AWUs_5alloc5boxed3BoxNtNtCskjFBwtpsoHr_8quandary4name4NameEEEB1h_.0:3,_RINvNtNtCskjFBwtpsoHr_8quandary6server5query11do_referralNtNtB2_10kani_query8MockZoneEB6_.0:2,_RINvNtNtCskjFBwtpsoHr_8quandary6server5query11do_referralNtNtB2_10kani_query8MockZoneEB6_.1:2,_RINvNtNtCskjFBwtpsoHr_8quandary6server5query11do_referralNtNtB2_10kani_query8MockZoneEB6_.2:2" stubs="M1,T0,N1"
 //   fn="Server::handle_non_axfr_query,answer,do_cname,follow_cname_1,follow_cname_2,do_referral,add_additional_addresses"
 //   bound="UDP, limit 64; question a. A IN; a. CNAME b.; lookup(b.) = Referral(cut b., NS b.) with glue A of b. (complete response exactly 64 octets); AA set (first owner is authoritative); unwind 7"
 //   sym="3 TTLs, 4 address octets"
@@ -2073,7 +2073,7 @@ fn any_query(k: usize) {
     assert!(zone.calls.get() == 0 && zone.all_calls.get() == 1, "[C05] ANY is answered from one lookup_all");
 }
 
-// @harness name=c05_any_0 props=C05 panics=C05,C01 tier=thorough mem=4 t=1200 kani="--no-assertion-reach-checks" cbmc="--max-field-sensitivity-array-size 256 --unwindset _RNCNvMs_NtNtCskjFBwtpsoHr_8quandary7message6writerNtB6_6Writer30write_compressed_unhinted_name0Ba_.0:4,_RNCNvMs_NtNtCskjFBwtpsoHr_8quandary7message6writerNtB6_6Writer30write_compressed_unhinted_names_0Ba_.0:4,_RNvMs_NtNtCskjFBwtpsoHr_8quandary7message6writerNtB4_6Writer30write_compressed_unhinted_name.0:4,_RNvMs_NtNtCskjFBwtpsoHr_8quandary7message6writerNtB4_6Writer30write_compressed_unhinted_name.1:4,_RINvNvMNtNtCs8xvirJzNMvV_4core5slice5asciiSh27eq_ignore_ascii_case_chunks21eq_ignore_ascii_innerKj10_ECskjFBwtpsoHr_8quandary.0:3,_RNvMNtNtCs8xvirJzNMvV_4core5slice5asciiSh27eq_ignore_ascii_case_simpleCskjFBwtpsoHr_8quandary.0:3,_RINvMNtNtCs8xvirJzNMvV_4core5slice5asciiSh27eq_ignore_ascii_case_chunksKj10_ECskjFBwtpsoHr_8quandary.0:3,_RNvNtNtCskjFBwtpsoHr_8quandary4name4wire23parse_uncompressed_name.0:5,_RNvMs_NtCskjFBwtpsoHr_8quandary4nameNtB4_4Name15initialize_into.0:5,_RINvNtCs8xvirJzNMvV_4core3ptr9drop_glueSTjINtNtCs6xMQmN1AWUs_5alloc5boxed3BoxNtNtCskjFBwtpsoHr_8quandary4name4NameEEEB1h_.0:3,_RINvNtNtCskjFBwtpsoHr_8quandary6server5query11do_referralNtNtB2_10kani_query8MockZoneEB6_.0:2,_RINvNtNtCskjFBwtpsoHr_8quandary6server5query11do_referralNtNtB2_10kani_query8MockZoneEB6_.1:2,_RINvNtNtCskjFBwtpsoHr_8quandary6server5query11do_referralNtNtB2_10kani_query8MockZoneEB6_.2:2" stubs="M1,T0"
+// @harness name=c05_any_0 props=C05 panics=C05,C01 tier=thorough mem=2 t=1200 kani="--no-assertion-reach-checks" cbmc="--max-field-sensitivity-array-size 256 --unwindset _RNCNvMs_NtNtCskjFBwtpsoHr_8quandary7message6writerNtB6_6Writer30write_compressed_unhinted_name0Ba_.0:4,_RNCNvMs_NtNtCskjFBwtpsoHr_8quandary7message6writerNtB6_6Writer30write_compressed_unhinted_names_0Ba_.0:4,_RNvMs_NtNtCskjFBwtpsoHr_8quandary7message6writerNtB4_6Writer30write_compressed_unhinted_name.0:4,_RNvMs_NtNtCskjFBwtpsoHr_8quandary7message6writerNtB4_6Writer30write_compressed_unhinted_name.1:4,_RINvNvMNtNtCs8xvirJzNMvV_4core5slice5asciiSh27eq_ignore_ascii_case_chunks21eq_ignore_ascii_innerKj10_ECskjFBwtpsoHr_8quandary.0:3,_RNvMNtNtCs8xvirJzNMvV_4core5slice5asciiSh27eq_ignore_ascii_case_simpleCskjFBwtpsoHr_8quandary.0:3,_RINvMNtNtCs8xvirJzNMvV_4core5slice5asciiSh27eq_ignore_ascii_case_chunksKj10_ECskjFBwtpsoHr_8quandary.0:3,_RNvNtNtCskjFBwtpsoHr_8quandary4name4wire23parse_uncompressed_name.0:5,_RNvMs_NtCskjFBwtpsoHr_8quandary4nameNtB4_4Name15initialize_into.0:5,_RINvNtCs8xvirJzNMvV_4core3ptr9drop_glueSTjINtNtCs6xMQmN1AWUs_5alloc5boxed3BoxNtNtCskjFBwtpsoHr_8quandary4name4NameEEEB1h_.0:3,_RINvNtNtCskjFBwtpsoHr_8quandary6server5query11do_referralNtNtB2_10kani_query8MockZoneEB6_.0:2,_RINvNtNtCskjFBwtpsoHr_8quandary6server5query11do_referralNtNtB2_10kani_query8MockZoneEB6_.1:2,_RINvNtNtCskjFBwtpsoHr_8quandary6server5query11do_referralNtNtB2_10kani_query8MockZoneEB6_.2:2" stubs="M1,T0"
 //   fn="Server::handle_non_axfr_query,answer_any,add_negative_caching_soa"
 //   bound="UDP, limit 64; question a. * IN; lookup_all(a.) = Found with no RRset (empty non-terminal): NOERROR + SOA; unwind 7"
 //   sym="SOA TTL, MINIMUM, 4 SOA octets"
@@ -2082,7 +2082,7 @@ proof!(c05_any_0, 7, {
     kani::cover!(true, "ANY at an empty node");
 });
 
-// @harness name=c05_any_1 props=C05 panics=C05,C01 tier=thorough mem=4 t=1200 kani="--no-assertion-reach-checks" cbmc="--max-field-sensitivity-array-size 256 --unwindset _RNCNvMs_NtNtCskjFBwtpsoHr_8quandary7message6writerNtB6_6Writer30write_compressed_unhinted_name0Ba_.0:4,_RNCNvMs_NtNtCskjFBwtpsoHr_8quandary7message6writerNtB6_6Writer30write_compressed_unhinted_names_0Ba_.0:4,_RNvMs_NtNtCskjFBwtpsoHr_8quandary7message6writerNtB4_6Writer30write_compressed_unhinted_name.0:4,_RNvMs_NtNtCskjFBwtpsoHr_8quandary7message6writerNtB4_6Writer30write_compressed_unhinted_name.1:4,_RINvNvMNtNtCs8xvirJzNMvV_4core5slice5asciiSh27eq_ignore_ascii_case_chunks21eq_ignore_ascii_innerKj10_ECskjFBwtpsoHr_8quandary.0:3,_RNvMNtNtCs8xvirJzNMvV_4core5slice5asciiSh27eq_ignore_ascii_case_simpleCskjFBwtpsoHr_8quandary.0:3,_RINvMNtNtCs8xvirJzNMvV_4core5slice5asciiSh27eq_ignore_ascii_case_chunksKj10_ECskjFBwtpsoHr_8quandary.0:3,_RNvNtNtCskjFBwtpsoHr_8quandary4name4wire23parse_uncompressed_name.0:5,_RNvMs_NtCskjFBwtpsoHr_8quandary4nameNtB4_4Name15initialize_into.0:5,_RINvNtCs8xvirJzNMvV_4core3ptr9drop_glueSTjINtNtCs6xMQmN1AWUs_5alloc5boxed3BoxNtNtCskjFBwtpsoHr_8quandary4name4NameEEEB1h_.0:3,_RINvNtNtCskjFBwtpsoHr_8quandary6server5query11do_referralNtNtB2_10kani_query8MockZoneEB6_.0:2,_RINvNtNtCskjFBwtpsoHr_8quandary6server5query11do_referralNtNtB2_10kani_query8MockZoneEB6_.1:2,_RINvNtNtCskjFBwtpsoHr_8quandary6server5query11do_referralNtNtB2_10kani_query8MockZoneEB6_.2:2" stubs="M1,T0"
+// @harness name=c05_any_1 props=C05 panics=C05,C01 tier=thorough mem=2 t=1200 kani="--no-assertion-reach-checks" cbmc="--max-field-sensitivity-array-size 256 --unwindset _RNCNvMs_NtNtCskjFBwtpsoHr_8quandary7message6writerNtB6_6Writer30write_compressed_unhinted_name0Ba_.0:4,_RNCNvMs_NtNtCskjFBwtpsoHr_8quandary7message6writerNtB6_6Writer30write_compressed_unhinted_names_0Ba_.0:4,_RNvMs_NtNtCskjFBwtpsoHr_8quandary7message6writerNtB4_6Writer30write_compressed_unhinted_name.0:4,_RNvMs_NtNtCskjFBwtpsoHr_8quandary7message6writerNtB4_6Writer30write_compressed_unhinted_name.1:4,_RINvNvMNtNtCs8xvirJzNMvV_4core5slice5asciiSh27eq_ignore_ascii_case_chunks21eq_ignore_ascii_innerKj10_ECskjFBwtpsoHr_8quandary.0:3,_RNvMNtNtCs8xvirJzNMvV_4core5slice5asciiSh27eq_ignore_ascii_case_simpleCskjFBwtpsoHr_8quandary.0:3,_RINvMNtNtCs8xvirJzNMvV_4core5slice5asciiSh27eq_ignore_ascii_case_chunksKj10_ECskjFBwtpsoHr_8quandary.0:3,_RNvNtNtCskjFBwtpsoHr_8quandary4name4wire23parse_uncompressed_name.0:5,_RNvMs_NtCskjFBwtpsoHr_8quandary4nameNtB4_4Name15initialize_into.0:5,_RINvNtCs8xvirJzNMvV_4core3ptr9drop_glueSTjINtNtCs6xMQmN1AWUs_5alloc5boxed3BoxNtNtCskjFBwtpsoHr_8quandary4name4NameEEEB1h_.0:3,_RINvNtNtCskjFBwtpsoHr_8quandary6server5query11do_referralNtNtB2_10kani_query8MockZoneEB6_.0:2,_RINvNtNtCskjFBwtpsoHr_8quandary6server5query11do_referralNtNtB2_10kani_query8MockZoneEB6_.1:2,_RINvNtNtCskjFBwtpsoHr_8quandary6server5query11do_referralNtNtB2_10kani_query8MockZoneEB6_.2:2" stubs="M1,T0"
 //   fn="Server::handle_non_axfr_query,answer_any,Writer::add_answer_rrset"
 //   bound="UDP, limit 64; question a. * IN; the node has one RRset (A); unwind 7" sym="TTL, 4 octets"
 proof!(c05_any_1, 7, {
@@ -2090,7 +2090,7 @@ proof!(c05_any_1, 7, {
     kani::cover!(true, "ANY with one RRset");
 });
 
-// @harness name=c05_any_2 props=C05 panics=C05,C01 tier=thorough mem=4 t=1200 kani="--no-assertion-reach-checks" cbmc="--max-field-sensitivity-array-size 256 --unwindset _RNCNvMs_NtNtCskjFBwtpsoHr_8quandary7message6writerNtB6_6Writer30write_compressed_unhinted_name0Ba_.0:4,_RNCNvMs_NtNtCskjFBwtpsoHr_8quandary7message6writerNtB6_6Writer30write_compressed_unhinted_names_0Ba_.0:4,_RNvMs_NtNtCskjFBwtpsoHr_8quandary7message6writerNtB4_6Writer30write_compressed_unhinted_name.0:4,_RNvMs_NtNtCskjFBwtpsoHr_8quandary7message6writerNtB4_6Writer30write_compressed_unhinted_name.1:4,_RINvNvMNtNtCs8xvirJzNMvV_4core5slice5asciiSh27eq_ignore_ascii_case_chunks21eq_ignore_ascii_innerKj10_ECskjFBwtpsoHr_8quandary.0:3,_RNvMNtNtCs8xvirJzNMvV_4core5slice5asciiSh27eq_ignore_ascii_case_simpleCskjFBwtpsoHr_8quandary.0:3,_RINvMNtNtCs8xvirJzNMvV_4core5slice5asciiSh27eq_ignore_ascii_case_chunksKj10_ECskjFBwtpsoHr_8quandary.0:3,_RNvNtNtCskjFBwtpsoHr_8quandary4name4wire23parse_uncompressed_name.0:5,_RNvMs_NtCskjFBwtpsoHr_8quandary4nameNtB4_4Name15initialize_into.0:5,_RINvNtCs8xvirJzNMvV_4core3ptr9drop_glueSTjINtNtCs6xMQmN1AWUs_5alloc5boxed3BoxNtNtCskjFBwtpsoHr_8quandary4name4NameEEEB1h_.0:3,_RINvNtNtCskjFBwtpsoHr_8quandary6server5query11do_referralNtNtB2_10kani_query8MockZoneEB6_.0:2,_RINvNtNtCskjFBwtpsoHr_8quandary6server5query11do_referralNtNtB2_10kani_query8MockZoneEB6_.1:2,_RINvNtNtCskjFBwtpsoHr_8quandary6server5query11do_referralNtNtB2_10kani_query8MockZoneEB6_.2:2" stubs="M1,T0"
+// @harness name=c05_any_2 props=C05 panics=C05,C01 tier=thorough mem=2 t=1200 kani="--no-assertion-reach-checks" cbmc="--max-field-sensitivity-array-size 256 --unwindset _RNCNvMs_NtNtCskjFBwtpsoHr_8quandary7message6writerNtB6_6Writer30write_compressed_unhinted_name0Ba_.0:4,_RNCNvMs_NtNtCskjFBwtpsoHr_8quandary7message6writerNtB6_6Writer30write_compressed_unhinted_names_0Ba_.0:4,_RNvMs_NtNtCskjFBwtpsoHr_8quandary7message6writerNtB4_6Writer30write_compressed_unhinted_name.0:4,_RNvMs_NtNtCskjFBwtpsoHr_8quandary7message6writerNtB4_6Writer30write_compressed_unhinted_name.1:4,_RINvNvMNtNtCs8xvirJzNMvV_4core5slice5asciiSh27eq_ignore_ascii_case_chunks21eq_ignore_ascii_innerKj10_ECskjFBwtpsoHr_8quandary.0:3,_RNvMNtNtCs8xvirJzNMvV_4core5slice5asciiSh27eq_ignore_ascii_case_simpleCskjFBwtpsoHr_8quandary.0:3,_RINvMNtNtCs8xvirJzNMvV_4core5slice5asciiSh27eq_ignore_ascii_case_chunksKj10_ECskjFBwtpsoHr_8quandary.0:3,_RNvNtNtCskjFBwtpsoHr_8quandary4name4wire23parse_uncompressed_name.0:5,_RNvMs_NtCskjFBwtpsoHr_8quandary4nameNtB4_4Name15initialize_into.0:5,_RINvNtCs8xvirJzNMvV_4core3ptr9drop_glueSTjINtNtCs6xMQmN1AWUs_5alloc5boxed3BoxNtNtCskjFBwtpsoHr_8quandary4name4NameEEEB1h_.0:3,_RINvNtNtCskjFBwtpsoHr_8quandary6server5query11do_referralNtNtB2_10kani_query8MockZoneEB6_.0:2,_RINvNtNtCskjFBwtpsoHr_8quandary6server5query11do_referralNtNtB2_10kani_query8MockZoneEB6_.1:2,_RINvNtNtCskjFBwtpsoHr_8quandary6server5query11do_referralNtNtB2_10kani_query8MockZoneEB6_.2:2" stubs="M1,T0"
 //   fn="Server::handle_non_axfr_query,answer_any,Writer::add_answer_rrset"
 //   bound="UDP, limit 64; question a. * IN; the node has two RRsets (A, TXT of one 3-octet string); unwind 7" sym="2 TTLs, 7 octets"
 proof!(c05_any_2, 7, {
@@ -2098,7 +2098,7 @@ proof!(c05_any_2, 7, {
     kani::cover!(true, "ANY with two RRsets");
 });
 
-// @harness name=c05_any_nxdomain props=C05 panics=C05,C01 tier=thorough mem=4 t=1200 kani="--no-assertion-reach-checks" cbmc="--max-field-sensitivity-array-size 256 --unwindset _RNCNvMs_NtNtCskjFBwtpsoHr_8quandary7message6writerNtB6_6Writer30write_compressed_unhinted_name0Ba_.0:4,_RNCNvMs_NtNtCskjFBwtpsoHr_8quandary7message6writerNtB6_6Writer30write_compressed_unhinted_names_0Ba_.0:4,_RNvMs_NtNtCskjFBwtpsoHr_8quandary7message6writerNtB4_6Writer30write_compressed_unhinted_name.0:4,_RNvMs_NtNtCskjFBwtpsoHr_8quandary7message6writerNtB4_6Writer30write_compressed_unhinted_name.1:4,_RINvNvMNtNtCs8xvirJzNMvV_4core5slice5asciiSh27eq_ignore_ascii_case_chunks21eq_ignore_ascii_innerKj10_ECskjFBwtpsoHr_8quandary.0:3,_RNvMNtNtCs8xvirJzNMvV_4core5slice5asciiSh27eq_ignore_ascii_case_simpleCskjFBwtpsoHr_8quandary.0:3,_RINvMNtNtCs8xvirJzNMvV_4core5slice5asciiSh27eq_ignore_ascii_case_chunksKj10_ECskjFBwtpsoHr_8quandary.0:3,_RNvNtNtCskjFBwtpsoHr_8quandary4name4wire23parse_uncompressed_name.0:5,_RNvMs_NtCskjFBwtpsoHr_8quandary4nameNtB4_4Name15initialize_into.0:5,_RINvNtCs8xvirJzNMvV_4core3ptr9drop_glueSTjINtNtCs6xMQmN1AWUs_5alloc5boxed3BoxNtNtCskjFBwtpsoHr_8quandary4name4NameEEEB1h_.0:3,_RINvNtNtCskjFBwtpsoHr_8quandary6server5query11do_referralNtNtB2_10kani_query8MockZoneEB6_.0:2,_RINvNtNtCskjFBwtpsoHr_8quandary6server5query11do_referralNtNtB2_10kani_query8MockZoneEB6_.1:2,_RINvNtNtCskjFBwtpsoHr_8quandary6server5query11do_referralNtNtB2_10kani_query8MockZoneEB6_.2:2" stubs="M1,T0"
+// @harness name=c05_any_nxdomain props=C05 panics=C05,C01 tier=thorough mem=2 t=1200 kani="--no-assertion-reach-checks" cbmc="--max-field-sensitivity-array-size 256 --unwindset _RNCNvMs_NtNtCskjFBwtpsoHr_8quandary7message6writerNtB6_6Writer30write_compressed_unhinted_name0Ba_.0:4,_RNCNvMs_NtNtCskjFBwtpsoHr_8quandary7message6writerNtB6_6Writer30write_compressed_unhinted_names_0Ba_.0:4,_RNvMs_NtNtCskjFBwtpsoHr_8quandary7message6writerNtB4_6Writer30write_compressed_unhinted_name.0:4,_RNvMs_NtNtCskjFBwtpsoHr_8quandary7message6writerNtB4_6Writer30write_compressed_unhinted_name.1:4,_RINvNvMNtNtCs8xvirJzNMvV_4core5slice5asciiSh27eq_ignore_ascii_case_chunks21eq_ignore_ascii_innerKj10_ECskjFBwtpsoHr_8quandary.0:3,_RNvMNtNtCs8xvirJzNMvV_4core5slice5asciiSh27eq_ignore_ascii_case_simpleCskjFBwtpsoHr_8quandary.0:3,_RINvMNtNtCs8xvirJzNMvV_4core5slice5asciiSh27eq_ignore_ascii_case_chunksKj10_ECskjFBwtpsoHr_8quandary.0:3,_RNvNtNtCskjFBwtpsoHr_8quandary4name4wire23parse_uncompressed_name.0:5,_RNvMs_NtCskjFBwtpsoHr_8quandary4nameNtB4_4Name15initialize_into.0:5,_RINvNtCs8xvirJzNMvV_4core3ptr9drop_glueSTjINtNtCs6xMQmN1AWUs_5alloc5boxed3BoxNtNtCskjFBwtpsoHr_8quandary4name4NameEEEB1h_.0:3,_RINvNtNtCskjFBwtpsoHr_8quandary6server5query11do_referralNtNtB2_10kani_query8MockZoneEB6_.0:2,_RINvNtNtCskjFBwtpsoHr_8quandary6server5query11do_referralNtNtB2_10kani_query8MockZoneEB6_.1:2,_RINvNtNtCskjFBwtpsoHr_8quandary6server5query11do_referralNtNtB2_10kani_query8MockZoneEB6_.2:2" stubs="M1,T0"
 //   fn="Server::handle_non_axfr_query,answer_any,add_negative_caching_soa"
 //   bound="UDP, limit 64; question a. * IN; lookup_all(a.) = NxDomain: NXDOMAIN + SOA; unwind 7"
 //   sym="SOA TTL, MINIMUM, 4 SOA octets"
@@ -2158,7 +2158,7 @@ fn trunc_found(udp: bool, limit: usize) {
     );
 }
 
-// @harness name=c04_trunc_found_q props=C04,C05 panics=C04,C01 tier=quick mem=4 t=3600 kani="--no-assertion-reach-checks" cbmc="--max-field-sensitivity-array-size 256 --unwindset _RNCNvMs_NtNtCskjFBwtpsoHr_8quandary7message6writerNtB6_6Writer30write_compressed_unhinted_name0Ba_.0:4,_RNCNvMs_NtNtCskjFBwtpsoHr_8quandary7message6writerNtB6_6Writer30write_compressed_unhinted_names_0Ba_.0:4,_RNvMs_NtNtCskjFBwtpsoHr_8quandary7message6writerNtB4_6Writer30write_compressed_unhinted_name.0:4,_RNvMs_NtNtCskjFBwtpsoHr_8quandary7message6writerNtB4_6Writer30write_compressed_unhinted_name.1:4,_RINvNvMNtNtCs8xvirJzNMvV_4core5slice5asciiSh27eq_ignore_ascii_case_chunks21eq_ignore_ascii_innerKj10_ECskjFBwtpsoHr_8quandary.0:3,_RNvMNtNtCs8xvirJzNMvV_4core5slice5asciiSh27eq_ignore_ascii_case_simpleCskjFBwtpsoHr_8quandary.0:3,_RINvMNtNtCs8xvirJzNMvV_4core5slice5asciiSh27eq_ignore_ascii_case_chunksKj10_ECskjFBwtpsoHr_8quandary.0:3,_RNvNtNtCskjFBwtpsoHr_8quandary4name4wire23parse_uncompressed_name.0:5,_RNvMs_NtCskjFBwtpsoHr_8quandary4nameNtB4_4Name15initialize_into.0:5,_RINvNtCs8xvirJzNMvV_4core3ptr9drop_glueSTjINtNtCs6xMQmN1AWUs_5alloc5boxed3BoxNtNtCskjFBwtpsoHr_8quandary4name4NameEEEB1h_.0:3,_RINvNtNtCskjFBwtpsoHr_8quandary6server5query11do_referralNtNtB2_10kani_query8MockZoneEB6_.0:2,_RINvNtNtCskjFBwtpsoHr_8quandary6server5query11do_referralNtNtB2_10kani_query8MockZoneEB6_.1:2,_RINvNtNtCskjFBwtpsoHr_8quandary6server5query11do_referralNtNtB2_10kani_query8MockZoneEB6_.2:2" stubs="M1,T0"
+// @harness name=c04_trunc_found_q props=C04,C05 panics=C04,C01 tier=quick mem=4 t=2400 kani="--no-assertion-reach-checks" cbmc="--max-field-sensitivity-array-size 256 --unwindset _RNCNvMs_NtNtCskjFBwtpsoHr_8quandary7message6writerNtB6_6Writer30write_compressed_unhinted_name0Ba_.0:4,_RNCNvMs_NtNtCskjFBwtpsoHr_8quandary7message6writerNtB6_6Writer30write_compressed_unhinted_names_0Ba_.0:4,_RNvMs_NtNtCskjFBwtpsoHr_8quandary7message6writerNtB4_6Writer30write_compressed_unhinted_name.0:4,_RNvMs_NtNtCskjFBwtpsoHr_8quandary7message6writerNtB4_6Writer30write_compressed_unhinted_name.1:4,_RINvNvMNtNtCs8xvirJzNMvV_4core5slice5asciiSh27eq_ignore_ascii_case_chunks21eq_ignore_ascii_innerKj10_ECskjFBwtpsoHr_8quandary.0:3,_RNvMNtNtCs8xvirJzNMvV_4core5slice5asciiSh27eq_ignore_ascii_case_simpleCskjFBwtpsoHr_8quandary.0:3,_RINvMNtNtCs8xvirJzNMvV_4core5slice5asciiSh27eq_ignore_ascii_case_chunksKj10_ECskjFBwtpsoHr_8quandary.0:3,_RNvNtNtCskjFBwtpsoHr_8quandary4name4wire23parse_uncompressed_name.0:5,_RNvMs_NtCskjFBwtpsoHr_8quandary4nameNtB4_4Name15initialize_into.0:5,_RINvNtCs8xvirJzNMvV_4core3ptr9drop_glueSTjINtNtCs6xMQmN1AWUs_5alloc5boxed3BoxNtNtCskjFBwtpsoHr_8quandary4name4NameEEEB1h_.0:3,_RINvNtNtCskjFBwtpsoHr_8quandary6server5query11do_referralNtNtB2_10kani_query8MockZoneEB6_.0:2,_RINvNtNtCskjFBwtpsoHr_8quandary6server5query11do_referralNtNtB2_10kani_query8MockZoneEB6_.1:2,_RINvNtNtCskjFBwtpsoHr_8quandary6server5query11do_referralNtNtB2_10kani_query8MockZoneEB6_.2:2" stubs="M1,T0"
 //   fn="Server::handle_non_axfr_query,answer,Writer::add_answer_rrset,Writer::try_push,Writer::with_rollback,Writer::clear_rrs,Writer::set_tc"
 //   bound="UDP and TCP context; size limits 19, 34, 35, 64; question a. A IN; Found(one A): 35 octets needed; below: UDP TC and no records / TCP SERVFAIL without records and TC clear; from 35: the complete answer on both; unwind 7"
 //   sym="ttl, 4 RDATA octets per run"
@@ -2168,7 +2168,7 @@ proof!(c04_trunc_found_q, 7, {
     kani::cover!(true, "boundary limits done");
 });
 
-// @harness name=c04_found_udp_a props=C04,C05 panics=C04,C01 tier=thorough mem=4 t=3600 kani="--no-assertion-reach-checks" cbmc="--max-field-sensitivity-array-size 256 --unwindset _RNCNvMs_NtNtCskjFBwtpsoHr_8quandary7message6writerNtB6_6Writer30write_compressed_unhinted_name0Ba_.0:4,_RNCNvMs_NtNtCskjFBwtpsoHr_8quandary7message6writerNtB6_6Writer30write_compressed_unhinted_names_0Ba_.0:4,_RNvMs_NtNtCskjFBwtpsoHr_8quandary7message6writerNtB4_6Writer30write_compressed_unhinted_name.0:4,_RNvMs_NtNtCskjFBwtpsoHr_8quandary7message6writerNtB4_6Writer30write_compressed_unhinted_name.1:4,_RINvNvMNtNtCs8xvirJzNMvV_4core5slice5asciiSh27eq_ignore_ascii_case_chunks21eq_ignore_ascii_innerKj10_ECskjFBwtpsoHr_8quandary.0:3,_RNvMNtNtCs8xvirJzNMvV_4core5slice5asciiSh27eq_ignore_ascii_case_simpleCskjFBwtpsoHr_8quandary.0:3,_RINvMNtNtCs8xvirJzNMvV_4core5slice5asciiSh27eq_ignore_ascii_case_chunksKj10_ECskjFBwtpsoHr_8quandary.0:3,_RNvNtNtCskjFBwtpsoHr_8quandary4name4wire23parse_uncompressed_name.0:5,_RNvMs_NtCskjFBwtpsoHr_8quandary4nameNtB4_4Name15initialize_into.0:5,_RINvNtCs8xvirJzNMvV_4core3ptr9drop_glueSTjINtNtCs6xMQmN1AWUs_5alloc5boxed3BoxNtNtCskjFBwtpsoHr_8quandary4name4NameEEEB1h_.0:3,_RINvNtNtCskjFBwtpsoHr_8quandary6server5query11do_referralNtNtB2_10kani_query8MockZoneEB6_.0:2,_RINvNtNtCskjFBwtpsoHr_8quandary6server5query11do_referralNtNtB2_10kani_query8MockZoneEB6_.1:2,_RINvNtNtCskjFBwtpsoHr_8quandary6server5query11do_referralNtNtB2_10kani_query8MockZoneEB6_.2:2" stubs="M1,T0"
+// @harness name=c04_found_udp_a props=C04,C05 panics=C04,C01 tier=thorough mem=4 t=2400 kani="--no-assertion-reach-checks" cbmc="--max-field-sensitivity-array-size 256 --unwindset _RNCNvMs_NtNtCskjFBwtpsoHr_8quandary7message6writerNtB6_6Writer30write_compressed_unhinted_name0Ba_.0:4,_RNCNvMs_NtNtCskjFBwtpsoHr_8quandary7message6writerNtB6_6Writer30write_compressed_unhinted_names_0Ba_.0:4,_RNvMs_NtNtCskjFBwtpsoHr_8quandary7message6writerNtB4_6Writer30write_compressed_unhinted_name.0:4,_RNvMs_NtNtCskjFBwtpsoHr_8quandary7message6writerNtB4_6Writer30write_compressed_unhinted_name.1:4,_RINvNvMNtNtCs8xvirJzNMvV_4core5slice5asciiSh27eq_ignore_ascii_case_chunks21eq_ignore_ascii_innerKj10_ECskjFBwtpsoHr_8quandary.0:3,_RNvMNtNtCs8xvirJzNMvV_4core5slice5asciiSh27eq_ignore_ascii_case_simpleCskjFBwtpsoHr_8quandary.0:3,_RINvMNtNtCs8xvirJzNMvV_4core5slice5asciiSh27eq_ignore_ascii_case_chunksKj10_ECskjFBwtpsoHr_8quandary.0:3,_RNvNtNtCskjFBwtpsoHr_8quandary4name4wire23parse_uncompressed_name.0:5,_RNvMs_NtCskjFBwtpsoHr_8quandary4nameNtB4_4Name15initialize_into.0:5,_RINvNtCs8xvirJzNMvV_4core3ptr9drop_glueSTjINtNtCs6xMQmN1AWUs_5alloc5boxed3BoxNtNtCskjFBwtpsoHr_8quandary4name4NameEEEB1h_.0:3,_RINvNtNtCskjFBwtpsoHr_8quandary6server5query11do_referralNtNtB2_10kani_query8MockZoneEB6_.0:2,_RINvNtNtCskjFBwtpsoHr_8quandary6server5query11do_referralNtNtB2_10kani_query8MockZoneEB6_.1:2,_RINvNtNtCskjFBwtpsoHr_8quandary6server5query11do_referralNtNtB2_10kani_query8MockZoneEB6_.2:2" stubs="M1,T0"
 //   fn="Server::handle_non_axfr_query,answer,Writer::add_answer_rrset,Writer::try_push,Writer::with_rollback,Writer::clear_rrs,Writer::set_tc"
 //   bound="UDP; question a. A IN; Found(one A): 35 octets needed; every size limit 19..=30 (one run each); unwind 7"
 //   sym="ttl, 4 RDATA octets per run"
@@ -2177,7 +2177,7 @@ proof!(c04_found_udp_a, 7, {
     kani::cover!(true, "limits 19..=30 done");
 });
 
-// @harness name=c04_found_udp_b props=C04,C05 panics=C04,C01 tier=thorough mem=4 t=3600 kani="--no-assertion-reach-checks" cbmc="--max-field-sensitivity-array-size 256 --unwindset _RNCNvMs_NtNtCskjFBwtpsoHr_8quandary7message6writerNtB6_6Writer30write_compressed_unhinted_name0Ba_.0:4,_RNCNvMs_NtNtCskjFBwtpsoHr_8quandary7message6writerNtB6_6Writer30write_compressed_unhinted_names_0Ba_.0:4,_RNvMs_NtNtCskjFBwtpsoHr_8quandary7message6writerNtB4_6Writer30write_compressed_unhinted_name.0:4,_RNvMs_NtNtCskjFBwtpsoHr_8quandary7message6writerNtB4_6Writer30write_compressed_unhinted_name.1:4,_RINvNvMNtNtCs8xvirJzNMvV_4core5slice5asciiSh27eq_ignore_ascii_case_chunks21eq_ignore_ascii_innerKj10_ECskjFBwtpsoHr_8quandary.0:3,_RNvMNtNtCs8xvirJzNMvV_4core5slice5asciiSh27eq_ignore_ascii_case_simpleCskjFBwtpsoHr_8quandary.0:3,_RINvMNtNtCs8xvirJzNMvV_4core5slice5asciiSh27eq_ignore_ascii_case_chunksKj10_ECskjFBwtpsoHr_8quandary.0:3,_RNvNtNtCskjFBwtpsoHr_8quandary4name4wire23parse_uncompressed_name.0:5,_RNvMs_NtCskjFBwtpsoHr_8quandary4nameNtB4_4Name15initialize_into.0:5,_RINvNtCs8xvirJzNMvV_4core3ptr9drop_glueSTjINtNtCs6xMQmN1AWUs_5alloc5boxed3BoxNtNtCskjFBwtpsoHr_8quandary4name4NameEEEB1h_.0:3,_RINvNtNtCskjFBwtpsoHr_8quandary6server5query11do_referralNtNtB2_10kani_query8MockZoneEB6_.0:2,_RINvNtNtCskjFBwtpsoHr_8quandary6server5query11do_referralNtNtB2_10kani_query8MockZoneEB6_.1:2,_RINvNtNtCskjFBwtpsoHr_8quandary6server5query11do_referralNtNtB2_10kani_query8MockZoneEB6_.2:2" stubs="M1,T0"
+// @harness name=c04_found_udp_b props=C04,C05 panics=C04,C01 tier=thorough mem=4 t=2400 kani="--no-assertion-reach-checks" cbmc="--max-field-sensitivity-array-size 256 --unwindset _RNCNvMs_NtNtCskjFBwtpsoHr_8quandary7message6writerNtB6_6Writer30write_compressed_unhinted_name0Ba_.0:4,_RNCNvMs_NtNtCskjFBwtpsoHr_8quandary7message6writerNtB6_6Writer30write_compressed_unhinted_names_0Ba_.0:4,_RNvMs_NtNtCskjFBwtpsoHr_8quandary7message6writerNtB4_6Writer30write_compressed_unhinted_name.0:4,_RNvMs_NtNtCskjFBwtpsoHr_8quandary7message6writerNtB4_6Writer30write_compressed_unhinted_name.1:4,_RINvNvMNtNtCs8xvirJzNMvV_4core5slice5asciiSh27eq_ignore_ascii_case_chunks21eq_ignore_ascii_innerKj10_ECskjFBwtpsoHr_8quandary.0:3,_RNvMNtNtCs8xvirJzNMvV_4core5slice5asciiSh27eq_ignore_ascii_case_simpleCskjFBwtpsoHr_8quandary.0:3,_RINvMNtNtCs8xvirJzNMvV_4core5slice5asciiSh27eq_ignore_ascii_case_chunksKj10_ECskjFBwtpsoHr_8quandary.0:3,_RNvNtNtCskjFBwtpsoHr_8quandary4name4wire23parse_uncompressed_name.0:5,_RNvMs_NtCskjFBwtpsoHr_8quandary4nameNtB4_4Name15initialize_into.0:5,_RINvNtCs8xvirJzNMvV_4core3ptr9drop_glueSTjINtNtCs6xMQmN1AWUs_5alloc5boxed3BoxNtNtCskjFBwtpsoHr_8quandary4name4NameEEEB1h_.0:3,_RINvNtNtCskjFBwtpsoHr_8quandary6server5query11do_referralNtNtB2_10kani_query8MockZoneEB6_.0:2,_RINvNtNtCskjFBwtpsoHr_8quandary6server5query11do_referralNtNtB2_10kani_query8MockZoneEB6_.1:2,_RINvNtNtCskjFBwtpsoHr_8quandary6server5query11do_referralNtNtB2_10kani_query8MockZoneEB6_.2:2" stubs="M1,T0"
 //   fn="Server::handle_non_axfr_query,answer,Writer::add_answer_rrset,Writer::try_push,Writer::with_rollback,Writer::clear_rrs,Writer::set_tc"
 //   bound="UDP; question a. A IN; Found(one A): 35 octets needed; every size limit 31..=42 (one run each); unwind 7"
 //   sym="ttl, 4 RDATA octets per run"
@@ -2186,7 +2186,7 @@ proof!(c04_found_udp_b, 7, {
     kani::cover!(true, "limits 31..=42 done");
 });
 
-// @harness name=c04_found_udp_c props=C04,C05 panics=C04,C01 tier=thorough mem=4 t=3600 kani="--no-assertion-reach-checks" cbmc="--max-field-sensitivity-array-size 256 --unwindset _RNCNvMs_NtNtCskjFBwtpsoHr_8quandary7message6writerNtB6_6Writer30write_compressed_unhinted_name0Ba_.0:4,_RNCNvMs_NtNtCskjFBwtpsoHr_8quandary7message6writerNtB6_6Writer30write_compressed_unhinted_names_0Ba_.0:4,_RNvMs_NtNtCskjFBwtpsoHr_8quandary7message6writerNtB4_6Writer30write_compressed_unhinted_name.0:4,_RNvMs_NtNtCskjFBwtpsoHr_8quandary7message6writerNtB4_6Writer30write_compressed_unhinted_name.1:4,_RINvNvMNtNtCs8xvirJzNMvV_4core5slice5asciiSh27eq_ignore_ascii_case_chunks21eq_ignore_ascii_innerKj10_ECskjFBwtpsoHr_8quandary.0:3,_RNvMNtNtCs8xvirJzNMvV_4core5slice5asciiSh27eq_ignore_ascii_case_simpleCskjFBwtpsoHr_8quandary.0:3,_RINvMNtNtCs8xvirJzNMvV_4core5slice5asciiSh27eq_ignore_ascii_case_chunksKj10_ECskjFBwtpsoHr_8quandary.0:3,_RNvNtNtCskjFBwtpsoHr_8quandary4name4wire23parse_uncompressed_name.0:5,_RNvMs_NtCskjFBwtpsoHr_8quandary4nameNtB4_4Name15initialize_into.0:5,_RINvNtCs8xvirJzNMvV_4core3ptr9drop_glueSTjINtNtCs6xMQmN1AWUs_5alloc5boxed3BoxNtNtCskjFBwtpsoHr_8quandary4name4NameEEEB1h_.0:3,_RINvNtNtCskjFBwtpsoHr_8quandary6server5query11do_referralNtNtB2_10kani_query8MockZoneEB6_.0:2,_RINvNtNtCskjFBwtpsoHr_8quandary6server5query11do_referralNtNtB2_10kani_query8MockZoneEB6_.1:2,_RINvNtNtCskjFBwtpsoHr_8quandary6server5query11do_referralNtNtB2_10kani_query8MockZoneEB6_.2:2" stubs="M1,T0"
+// @harness name=c04_found_udp_c props=C04,C05 panics=C04,C01 tier=thorough mem=4 t=2400 kani="--no-assertion-reach-checks" cbmc="--max-field-sensitivity-array-size 256 --unwindset _RNCNvMs_NtNtCskjFBwtpsoHr_8quandary7message6writerNtB6_6Writer30write_compressed_unhinted_name0Ba_.0:4,_RNCNvMs_NtNtCskjFBwtpsoHr_8quandary7message6writerNtB6_6Writer30write_compressed_unhinted_names_0Ba_.0:4,_RNvMs_NtNtCskjFBwtpsoHr_8quandary7message6writerNtB4_6Writer30write_compressed_unhinted_name.0:4,_RNvMs_NtNtCskjFBwtpsoHr_8quandary7message6writerNtB4_6Writer30write_compressed_unhinted_name.1:4,_RINvNvMNtNtCs8xvirJzNMvV_4core5slice5asciiSh27eq_ignore_ascii_case_chunks21eq_ignore_ascii_innerKj10_ECskjFBwtpsoHr_8quandary.0:3,_RNvMNtNtCs8xvirJzNMvV_4core5slice5asciiSh27eq_ignore_ascii_case_simpleCskjFBwtpsoHr_8quandary.0:3,_RINvMNtNtCs8xvirJzNMvV_4core5slice5asciiSh27eq_ignore_ascii_case_chunksKj10_ECskjFBwtpsoHr_8quandary.0:3,_RNvNtNtCskjFBwtpsoHr_8quandary4name4wire23parse_uncompressed_name.0:5,_RNvMs_NtCskjFBwtpsoHr_8quandary4nameNtB4_4Name15initialize_into.0:5,_RINvNtCs8xvirJzNMvV_4core3ptr9drop_glueSTjINtNtCs6xMQmN1AWUs_5alloc5boxed3BoxNtNtCskjFBwtpsoHr_8quandary4name4NameEEEB1h_.0:3,_RINvNtNtCskjFBwtpsoHr_8quandary6server5query11do_referralNtNtB2_10kani_query8MockZoneEB6_.0:2,_RINvNtNtCskjFBwtpsoHr_8quandary6server5query11do_referralNtNtB2_10kani_query8MockZoneEB6_.1:2,_RINvNtNtCskjFBwtpsoHr_8quandary6server5query11do_referralNtNtB2_10kani_query8MockZoneEB6_.2:2" stubs="M1,T0"
 //   fn="Server::handle_non_axfr_query,answer,Writer::add_answer_rrset,Writer::try_push,Writer::with_rollback,Writer::clear_rrs,Writer::set_tc"
 //   bound="UDP; question a. A IN; Found(one A): 35 octets needed; every size limit 43..=54 (one run each); unwind 7"
 //   sym="ttl, 4 RDATA octets per run"
@@ -2195,7 +2195,7 @@ proof!(c04_found_udp_c, 7, {
     kani::cover!(true, "limits 43..=54 done");
 });
 
-// @harness name=c04_found_udp_d props=C04,C05 panics=C04,C01 tier=thorough mem=4 t=3600 kani="--no-assertion-reach-checks" cbmc="--max-field-sensitivity-array-size 256 --unwindset _RNCNvMs_NtNtCskjFBwtpsoHr_8quandary7message6writerNtB6_6Writer30write_compressed_unhinted_name0Ba_.0:4,_RNCNvMs_NtNtCskjFBwtpsoHr_8quandary7message6writerNtB6_6Writer30write_compressed_unhinted_names_0Ba_.0:4,_RNvMs_NtNtCskjFBwtpsoHr_8quandary7message6writerNtB4_6Writer30write_compressed_unhinted_name.0:4,_RNvMs_NtNtCskjFBwtpsoHr_8quandary7message6writerNtB4_6Writer30write_compressed_unhinted_name.1:4,_RINvNvMNtNtCs8xvirJzNMvV_4core5slice5asciiSh27eq_ignore_ascii_case_chunks21eq_ignore_ascii_innerKj10_ECskjFBwtpsoHr_8quandary.0:3,_RNvMNtNtCs8xvirJzNMvV_4core5slice5asciiSh27eq_ignore_ascii_case_simpleCskjFBwtpsoHr_8quandary.0:3,_RINvMNtNtCs8xvirJzNMvV_4core5slice5asciiSh27eq_ignore_ascii_case_chunksKj10_ECskjFBwtpsoHr_8quandary.0:3,_RNvNtNtCskjFBwtpsoHr_8quandary4name4wire23parse_uncompressed_name.0:5,_RNvMs_NtCskjFBwtpsoHr_8quandary4nameNtB4_4Name15initialize_into.0:5,_RINvNtCs8xvirJzNMvV_4core3ptr9drop_glueSTjINtNtCs6xMQmN1AWUs_5alloc5boxed3BoxNtNtCskjFBwtpsoHr_8quandary4name4NameEEEB1h_.0:3,_RINvNtNtCskjFBwtpsoHr_8quandary6server5query11do_referralNtNtB2_10kani_query8MockZoneEB6_.0:2,_RINvNtNtCskjFBwtpsoHr_8quandary6server5query11do_referralNtNtB2_10kani_query8MockZoneEB6_.1:2,_RINvNtNtCskjFBwtpsoHr_8quandary6server5query11do_referralNtNtB2_10kani_query8MockZoneEB6_.2:2" stubs="M1,T0"
+// @harness name=c04_found_udp_d props=C04,C05 panics=C04,C01 tier=thorough mem=4 t=2400 kani="--no-assertion-reach-checks" cbmc="--max-field-sensitivity-array-size 256 --unwindset _RNCNvMs_NtNtCskjFBwtpsoHr_8quandary7message6writerNtB6_6Writer30write_compressed_unhinted_name0Ba_.0:4,_RNCNvMs_NtNtCskjFBwtpsoHr_8quandary7message6writerNtB6_6Writer30write_compressed_unhinted_names_0Ba_.0:4,_RNvMs_NtNtCskjFBwtpsoHr_8quandary7message6writerNtB4_6Writer30write_compressed_unhinted_name.0:4,_RNvMs_NtNtCskjFBwtpsoHr_8quandary7message6writerNtB4_6Writer30write_compressed_unhinted_name.1:4,_RINvNvMNtNtCs8xvirJzNMvV_4core5slice5asciiSh27eq_ignore_ascii_case_chunks21eq_ignore_ascii_innerKj10_ECskjFBwtpsoHr_8quandary.0:3,_RNvMNtNtCs8xvirJzNMvV_4core5slice5asciiSh27eq_ignore_ascii_case_simpleCskjFBwtpsoHr_8quandary.0:3,_RINvMNtNtCs8xvirJzNMvV_4core5slice5asciiSh27eq_ignore_ascii_case_chunksKj10_ECskjFBwtpsoHr_8quandary.0:3,_RNvNtNtCskjFBwtpsoHr_8quandary4name4wire23parse_uncompressed_name.0:5,_RNvMs_NtCskjFBwtpsoHr_8quandary4nameNtB4_4Name15initialize_into.0:5,_RINvNtCs8xvirJzNMvV_4core3ptr9drop_glueSTjINtNtCs6xMQmN1AWUs_5alloc5boxed3BoxNtNtCskjFBwtpsoHr_8quandary4name4NameEEEB1h_.0:3,_RINvNtNtCskjFBwtpsoHr_8quandary6server5query11do_referralNtNtB2_10kani_query8MockZoneEB6_.0:2,_RINvNtNtCskjFBwtpsoHr_8quandary6server5query11do_referralNtNtB2_10kani_query8MockZoneEB6_.1:2,_RINvNtNtCskjFBwtpsoHr_8quandary6server5query11do_referralNtNtB2_10kani_query8MockZoneEB6_.2:2" stubs="M1,T0"
 //   fn="Server::handle_non_axfr_query,answer,Writer::add_answer_rrset,Writer::try_push,Writer::with_rollback,Writer::clear_rrs,Writer::set_tc"
 //   bound="UDP; question a. A IN; Found(one A): 35 octets needed; every size limit 55..=64 (one run each); unwind 7"
 //   sym="ttl, 4 RDATA octets per run"
@@ -2204,7 +2204,7 @@ proof!(c04_found_udp_d, 7, {
     kani::cover!(true, "limits 55..=64 done");
 });
 
-// @harness name=c04_found_tcp_a props=C04,C05 panics=C04,C01 tier=thorough mem=4 t=3600 kani="--no-assertion-reach-checks" cbmc="--max-field-sensitivity-array-size 256 --unwindset _RNCNvMs_NtNtCskjFBwtpsoHr_8quandary7message6writerNtB6_6Writer30write_compressed_unhinted_name0Ba_.0:4,_RNCNvMs_NtNtCskjFBwtpsoHr_8quandary7message6writerNtB6_6Writer30write_compressed_unhinted_names_0Ba_.0:4,_RNvMs_NtNtCskjFBwtpsoHr_8quandary7message6writerNtB4_6Writer30write_compressed_unhinted_name.0:4,_RNvMs_NtNtCskjFBwtpsoHr_8quandary7message6writerNtB4_6Writer30write_compressed_unhinted_name.1:4,_RINvNvMNtNtCs8xvirJzNMvV_4core5slice5asciiSh27eq_ignore_ascii_case_chunks21eq_ignore_ascii_innerKj10_ECskjFBwtpsoHr_8quandary.0:3,_RNvMNtNtCs8xvirJzNMvV_4core5slice5asciiSh27eq_ignore_ascii_case_simpleCskjFBwtpsoHr_8quandary.0:3,_RINvMNtNtCs8xvirJzNMvV_4core5slice5asciiSh27eq_ignore_ascii_case_chunksKj10_ECskjFBwtpsoHr_8quandary.0:3,_RNvNtNtCskjFBwtpsoHr_8quandary4name4wire23parse_uncompressed_name.0:5,_RNvMs_NtCskjFBwtpsoHr_8quandary4nameNtB4_4Name15initialize_into.0:5,_RINvNtCs8xvirJzNMvV_4core3ptr9drop_glueSTjINtNtCs6xMQmN1AWUs_5alloc5boxed3BoxNtNtCskjFBwtpsoHr_8quandary4name4NameEEEB1h_.0:3,_RINvNtNtCskjFBwtpsoHr_8quandary6server5query11do_referralNtNtB2_10kani_query8MockZoneEB6_.0:2,_RINvNtNtCskjFBwtpsoHr_8quandary6server5query11do_referralNtNtB2_10kani_query8MockZoneEB6_.1:2,_RINvNtNtCskjFBwtpsoHr_8quandary6server5query11do_referralNtNtB2_10kani_query8MockZoneEB6_.2:2" stubs="M1,T0"
+// @harness name=c04_found_tcp_a props=C04,C05 panics=C04,C01 tier=thorough mem=4 t=2400 kani="--no-assertion-reach-checks" cbmc="--max-field-sensitivity-array-size 256 --unwindset _RNCNvMs_NtNtCskjFBwtpsoHr_8quandary7message6writerNtB6_6Writer30write_compressed_unhinted_name0Ba_.0:4,_RNCNvMs_NtNtCskjFBwtpsoHr_8quandary7message6writerNtB6_6Writer30write_compressed_unhinted_names_0Ba_.0:4,_RNvMs_NtNtCskjFBwtpsoHr_8quandary7message6writerNtB4_6Writer30write_compressed_unhinted_name.0:4,_RNvMs_NtNtCskjFBwtpsoHr_8quandary7message6writerNtB4_6Writer30write_compressed_unhinted_name.1:4,_RINvNvMNtNtCs8xvirJzNMvV_4core5slice5asciiSh27eq_ignore_ascii_case_chunks21eq_ignore_ascii_innerKj10_ECskjFBwtpsoHr_8quandary.0:3,_RNvMNtNtCs8xvirJzNMvV_4core5slice5asciiSh27eq_ignore_ascii_case_simpleCskjFBwtpsoHr_8quandary.0:3,_RINvMNtNtCs8xvirJzNMvV_4core5slice5asciiSh27eq_ignore_ascii_case_chunksKj10_ECskjFBwtpsoHr_8quandary.0:3,_RNvNtNtCskjFBwtpsoHr_8quandary4name4wire23parse_uncompressed_name.0:5,_RNvMs_NtCskjFBwtpsoHr_8quandary4nameNtB4_4Name15initialize_into.0:5,_RINvNtCs8xvirJzNMvV_4core3ptr9drop_glueSTjINtNtCs6xMQmN1AWUs_5alloc5boxed3BoxNtNtCskjFBwtpsoHr_8quandary4name4NameEEEB1h_.0:3,_RINvNtNtCskjFBwtpsoHr_8quandary6server5query11do_referralNtNtB2_10kani_query8MockZoneEB6_.0:2,_RINvNtNtCskjFBwtpsoHr_8quandary6server5query11do_referralNtNtB2_10kani_query8MockZoneEB6_.1:2,_RINvNtNtCskjFBwtpsoHr_8quandary6server5query11do_referralNtNtB2_10kani_query8MockZoneEB6_.2:2" stubs="M1,T0"
 //   fn="Server::handle_non_axfr_query,answer,Writer::add_answer_rrset,Writer::try_push,Writer::with_rollback,Writer::clear_rrs,Writer::set_tc"
 //   bound="TCP context (a small limit stands for an answer beyond 65535 octets); Found(one A): below 35 SERVFAIL without records, TC clear; every size limit 19..=30 (one run each); unwind 7"
 //   sym="ttl, 4 RDATA octets per run"
@@ -2213,7 +2213,7 @@ proof!(c04_found_tcp_a, 7, {
     kani::cover!(true, "limits 19..=30 done");
 });
 
-// @harness name=c04_found_tcp_b props=C04,C05 panics=C04,C01 tier=thorough mem=4 t=3600 kani="--no-assertion-reach-checks" cbmc="--max-field-sensitivity-array-size 256 --unwindset _RNCNvMs_NtNtCskjFBwtpsoHr_8quandary7message6writerNtB6_6Writer30write_compressed_unhinted_name0Ba_.0:4,_RNCNvMs_NtNtCskjFBwtpsoHr_8quandary7message6writerNtB6_6Writer30write_compressed_unhinted_names_0Ba_.0:4,_RNvMs_NtNtCskjFBwtpsoHr_8quandary7message6writerNtB4_6Writer30write_compressed_unhinted_name.0:4,_RNvMs_NtNtCskjFBwtpsoHr_8quandary7message6writerNtB4_6Writer30write_compressed_unhinted_name.1:4,_RINvNvMNtNtCs8xvirJzNMvV_4core5slice5asciiSh27eq_ignore_ascii_case_chunks21eq_ignore_ascii_innerKj10_ECskjFBwtpsoHr_8quandary.0:3,_RNvMNtNtCs8xvirJzNMvV_4core5slice5asciiSh27eq_ignore_ascii_case_simpleCskjFBwtpsoHr_8quandary.0:3,_RINvMNtNtCs8xvirJzNMvV_4core5slice5asciiSh27eq_ignore_ascii_case_chunksKj10_ECskjFBwtpsoHr_8quandary.0:3,_RNvNtNtCskjFBwtpsoHr_8quandary4name4wire23parse_uncompressed_name.0:5,_RNvMs_NtCskjFBwtpsoHr_8quandary4nameNtB4_4Name15initialize_into.0:5,_RINvNtCs8xvirJzNMvV_4core3ptr9drop_glueSTjINtNtCs6xMQmN1AWUs_5alloc5boxed3BoxNtNtCskjFBwtpsoHr_8quandary4name4NameEEEB1h_.0:3,_RINvNtNtCskjFBwtpsoHr_8quandary6server5query11do_referralNtNtB2_10kani_query8MockZoneEB6_.0:2,_RINvNtNtCskjFBwtpsoHr_8quandary6server5query11do_referralNtNtB2_10kani_query8MockZoneEB6_.1:2,_RINvNtNtCskjFBwtpsoHr_8quandary6server5query11do_referralNtNtB2_10kani_query8MockZoneEB6_.2:2" stubs="M1,T0"
+// @harness name=c04_found_tcp_b props=C04,C05 panics=C04,C01 tier=thorough mem=4 t=2400 kani="--no-assertion-reach-checks" cbmc="--max-field-sensitivity-array-size 256 --unwindset _RNCNvMs_NtNtCskjFBwtpsoHr_8quandary7message6writerNtB6_6Writer30write_compressed_unhinted_name0Ba_.0:4,_RNCNvMs_NtNtCskjFBwtpsoHr_8quandary7message6writerNtB6_6Writer30write_compressed_unhinted_names_0Ba_.0:4,_RNvMs_NtNtCskjFBwtpsoHr_8quandary7message6writerNtB4_6Writer30write_compressed_unhinted_name.0:4,_RNvMs_NtNtCskjFBwtpsoHr_8quandary7message6writerNtB4_6Writer30write_compressed_unhinted_name.1:4,_RINvNvMNtNtCs8xvirJzNMvV_4core5slice5asciiSh27eq_ignore_ascii_case_chunks21eq_ignore_ascii_innerKj10_ECskjFBwtpsoHr_8quandary.0:3,_RNvMNtNtCs8xvirJzNMvV_4core5slice5asciiSh27eq_ignore_ascii_case_simpleCskjFBwtpsoHr_8quandary.0:3,_RINvMNtNtCs8xvirJzNMvV_4core5slice5asciiSh27eq_ignore_ascii_case_chunksKj10_ECskjFBwtpsoHr_8quandary.0:3,_RNvNtNtCskjFBwtpsoHr_8quandary4name4wire23parse_uncompressed_name.0:5,_RNvMs_NtCskjFBwtpsoHr_8quandary4nameNtB4_4Name15initialize_into.0:5,_RINvNtCs8xvirJzNMvV_4core3ptr9drop_glueSTjINtNtCs6xMQmN1AWUs_5alloc5boxed3BoxNtNtCskjFBwtpsoHr_8quandary4name4NameEEEB1h_.0:3,_RINvNtNtCskjFBwtpsoHr_8quandary6server5query11do_referralNtNtB2_10kani_query8MockZoneEB6_.0:2,_RINvNtNtCskjFBwtpsoHr_8quandary6server5query11do_referralNtNtB2_10kani_query8MockZoneEB6_.1:2,_RINvNtNtCskjFBwtpsoHr_8quandary6server5query11do_referralNtNtB2_10kani_query8MockZoneEB6_.2:2" stubs="M1,T0"
 //   fn="Server::handle_non_axfr_query,answer,Writer::add_answer_rrset,Writer::try_push,Writer::with_rollback,Writer::clear_rrs,Writer::set_tc"
 //   bound="TCP context (a small limit stands for an answer beyond 65535 octets); Found(one A): below 35 SERVFAIL without records, TC clear; every size limit 31..=42 (one run each); unwind 7"
 //   sym="ttl, 4 RDATA octets per run"
@@ -2222,7 +2222,7 @@ proof!(c04_found_tcp_b, 7, {
     kani::cover!(true, "limits 31..=42 done");
 });
 
-// @harness name=c04_found_tcp_c props=C04,C05 panics=C04,C01 tier=thorough mem=4 t=3600 kani="--no-assertion-reach-checks" cbmc="--max-field-sensitivity-array-size 256 --unwindset _RNCNvMs_NtNtCskjFBwtpsoHr_8quandary7message6writerNtB6_6Writer30write_compressed_unhinted_name0Ba_.0:4,_RNCNvMs_NtNtCskjFBwtpsoHr_8quandary7message6writerNtB6_6Writer30write_compressed_unhinted_names_0Ba_.0:4,_RNvMs_NtNtCskjFBwtpsoHr_8quandary7message6writerNtB4_6Writer30write_compressed_unhinted_name.0:4,_RNvMs_NtNtCskjFBwtpsoHr_8quandary7message6writerNtB4_6Writer30write_compressed_unhinted_name.1:4,_RINvNvMNtNtCs8xvirJzNMvV_4core5slice5asciiSh27eq_ignore_ascii_case_chunks21eq_ignore_ascii_innerKj10_ECskjFBwtpsoHr_8quandary.0:3,_RNvMNtNtCs8xvirJzNMvV_4core5slice5asciiSh27eq_ignore_ascii_case_simpleCskjFBwtpsoHr_8quandary.0:3,_RINvMNtNtCs8xvirJzNMvV_4core5slice5asciiSh27eq_ignore_ascii_case_chunksKj10_ECskjFBwtpsoHr_8quandary.0:3,_RNvNtNtCskjFBwtpsoHr_8quandary4name4wire23parse_uncompressed_name.0:5,_RNvMs_NtCskjFBwtpsoHr_8quandary4nameNtB4_4Name15initialize_into.0:5,_RINvNtCs8xvirJzNMvV_4core3ptr9drop_glueSTjINtNtCs6xMQmN1AWUs_5alloc5boxed3BoxNtNtCskjFBwtpsoHr_8quandary4name4NameEEEB1h_.0:3,_RINvNtNtCskjFBwtpsoHr_8quandary6server5query11do_referralNtNtB2_10kani_query8MockZoneEB6_.0:2,_RINvNtNtCskjFBwtpsoHr_8quandary6server5query11do_referralNtNtB2_10kani_query8MockZoneEB6_.1:2,_RINvNtNtCskjFBwtpsoHr_8quandary6server5query11do_referralNtNtB2_10kani_query8MockZoneEB6_.2:2" stubs="M1,T0"
+// @harness name=c04_found_tcp_c props=C04,C05 panics=C04,C01 tier=thorough mem=4 t=2400 kani="--no-assertion-reach-checks" cbmc="--max-field-sensitivity-array-size 256 --unwindset _RNCNvMs_NtNtCskjFBwtpsoHr_8quandary7message6writerNtB6_6Writer30write_compressed_unhinted_name0Ba_.0:4,_RNCNvMs_NtNtCskjFBwtpsoHr_8quandary7message6writerNtB6_6Writer30write_compressed_unhinted_names_0Ba_.0:4,_RNvMs_NtNtCskjFBwtpsoHr_8quandary7message6writerNtB4_6Writer30write_compressed_unhinted_name.0:4,_RNvMs_NtNtCskjFBwtpsoHr_8quandary7message6writerNtB4_6Writer30write_compressed_unhinted_name.1:4,_RINvNvMNtNtCs8xvirJzNMvV_4core5slice5asciiSh27eq_ignore_ascii_case_chunks21eq_ignore_ascii_innerKj10_ECskjFBwtpsoHr_8quandary.0:3,_RNvMNtNtCs8xvirJzNMvV_4core5slice5asciiSh27eq_ignore_ascii_case_simpleCskjFBwtpsoHr_8quandary.0:3,_RINvMNtNtCs8xvirJzNMvV_4core5slice5asciiSh27eq_ignore_ascii_case_chunksKj10_ECskjFBwtpsoHr_8quandary.0:3,_RNvNtNtCskjFBwtpsoHr_8quandary4name4wire23parse_uncompressed_name.0:5,_RNvMs_NtCskjFBwtpsoHr_8quandary4nameNtB4_4Name15initialize_into.0:5,_RINvNtCs8xvirJzNMvV_4core3ptr9drop_glueSTjINtNtCs6xMQmN1AWUs_5alloc5boxed3BoxNtNtCskjFBwtpsoHr_8quandary4name4NameEEEB1h_.0:3,_RINvNtNtCskjFBwtpsoHr_8quandary6server5query11do_referralNtNtB2_10kani_query8MockZoneEB6_.0:2,_RINvNtNtCskjFBwtpsoHr_8quandary6server5query11do_referralNtNtB2_10kani_query8MockZoneEB6_.1:2,_RINvNtNtCskjFBwtpsoHr_8quandary6server5query11do_referralNtNtB2_10kani_query8MockZoneEB6_.2:2" stubs="M1,T0"
 //   fn="Server::handle_non_axfr_query,answer,Writer::add_answer_rrset,Writer::try_push,Writer::with_rollback,Writer::clear_rrs,Writer::set_tc"
 //   bound="TCP context (a small limit stands for an answer beyond 65535 octets); Found(one A): below 35 SERVFAIL without records, TC clear; every size limit 43..=54 (one run each); unwind 7"
 //   sym="ttl, 4 RDATA octets per run"
@@ -2231,7 +2231,7 @@ proof!(c04_found_tcp_c, 7, {
     kani::cover!(true, "limits 43..=54 done");
 });
 
-// @harness name=c04_found_tcp_d props=C04,C05 panics=C04,C01 tier=thorough mem=4 t=3600 kani="--no-assertion-reach-checks" cbmc="--max-field-sensitivity-array-size 256 --unwindset _RNCNvMs_NtNtCskjFBwtpsoHr_8quandary7message6writerNtB6_6Writer30write_compressed_unhinted_name0Ba_.0:4,_RNCNvMs_NtNtCskjFBwtpsoHr_8quandary7message6writerNtB6_6Writer30write_compressed_unhinted_names_0Ba_.0:4,_RNvMs_NtNtCskjFBwtpsoHr_8quandary7message6writerNtB4_6Writer30write_compressed_unhinted_name.0:4,_RNvMs_NtNtCskjFBwtpsoHr_8quandary7message6writerNtB4_6Writer30write_compressed_unhinted_name.1:4,_RINvNvMNtNtCs8xvirJzNMvV_4core5slice5asciiSh27eq_ignore_ascii_case_chunks21eq_ignore_ascii_innerKj10_ECskjFBwtpsoHr_8quandary.0:3,_RNvMNtNtCs8xvirJzNMvV_4core5slice5asciiSh27eq_ignore_ascii_case_simpleCskjFBwtpsoHr_8quandary.0:3,_RINvMNtNtCs8xvirJzNMvV_4core5slice5asciiSh27eq_ignore_ascii_case_chunksKj10_ECskjFBwtpsoHr_8quandary.0:3,_RNvNtNtCskjFBwtpsoHr_8quandary4name4wire23parse_uncompressed_name.0:5,_RNvMs_NtCskjFBwtpsoHr_8quandary4nameNtB4_4Name15initialize_into.0:5,_RINvNtCs8xvirJzNMvV_4core3ptr9drop_glueSTjINtNtCs6xMQmN1AWUs_5alloc5boxed3BoxNtNtCskjFBwtpsoHr_8quandary4name4NameEEEB1h_.0:3,_RINvNtNtCskjFBwtpsoHr_8quandary6server5query11do_referralNtNtB2_10kani_query8MockZoneEB6_.0:2,_RINvNtNtCskjFBwtpsoHr_8quandary6server5query11do_referralNtNtB2_10kani_query8MockZoneEB6_.1:2,_RINvNtNtCskjFBwtpsoHr_8quandary6server5query11do_referralNtNtB2_10kani_query8MockZoneEB6_.2:2" stubs="M1,T0"
+// @harness name=c04_found_tcp_d props=C04,C05 panics=C04,C01 tier=thorough mem=4 t=2400 kani="--no-assertion-reach-checks" cbmc="--max-field-sensitivity-array-size 256 --unwindset _RNCNvMs_NtNtCskjFBwtpsoHr_8quandary7message6writerNtB6_6Writer30write_compressed_unhinted_name0Ba_.0:4,_RNCNvMs_NtNtCskjFBwtpsoHr_8quandary7message6writerNtB6_6Writer30write_compressed_unhinted_names_0Ba_.0:4,_RNvMs_NtNtCskjFBwtpsoHr_8quandary7message6writerNtB4_6Writer30write_compressed_unhinted_name.0:4,_RNvMs_NtNtCskjFBwtpsoHr_8quandary7message6writerNtB4_6Writer30write_compressed_unhinted_name.1:4,_RINvNvMNtNtCs8xvirJzNMvV_4core5slice5asciiSh27eq_ignore_ascii_case_chunks21eq_ignore_ascii_innerKj10_ECskjFBwtpsoHr_8quandary.0:3,_RNvMNtNtCs8xvirJzNMvV_4core5slice5asciiSh27eq_ignore_ascii_case_simpleCskjFBwtpsoHr_8quandary.0:3,_RINvMNtNtCs8xvirJzNMvV_4core5slice5asciiSh27eq_ignore_ascii_case_chunksKj10_ECskjFBwtpsoHr_8quandary.0:3,_RNvNtNtCskjFBwtpsoHr_8quandary4name4wire23parse_uncompressed_name.0:5,_RNvMs_NtCskjFBwtpsoHr_8quandary4nameNtB4_4Name15initialize_into.0:5,_RINvNtCs8xvirJzNMvV_4core3ptr9drop_glueSTjINtNtCs6xMQmN1AWUs_5alloc5boxed3BoxNtNtCskjFBwtpsoHr_8quandary4name4NameEEEB1h_.0:3,_RINvNtNtCskjFBwtpsoHr_8quandary6server5query11do_referralNtNtB2_10kani_query8MockZoneEB6_.0:2,_RINvNtNtCskjFBwtpsoHr_8quandary6server5query11do_referralNtNtB2_10kani_query8MockZoneEB6_.1:2,_RINvNtNtCskjFBwtpsoHr_8quandary6server5query11do_referralNtNtB2_10kani_query8MockZoneEB6_.2:2" stubs="M1,T0"
 //   fn="Server::handle_non_axfr_query,answer,Writer::add_answer_rrset,Writer::try_push,Writer::with_rollback,Writer::clear_rrs,Writer::set_tc"
 //   bound="TCP context (a small limit stands for an answer beyond 65535 octets); Found(one A): below 35 SERVFAIL without records, TC clear; every size limit 55..=64 (one run each); unwind 7"
 //   sym="ttl, 4 RDATA octets per run"
@@ -2261,7 +2261,7 @@ fn trunc_neg(udp: bool, limit: usize) {
     );
 }
 
-// @harness name=c04_neg_udp_a props=C04,C05 panics=C04,C01 tier=thorough mem=4 t=3600 kani="--no-assertion-reach-checks" cbmc="--max-field-sensitivity-array-size 256 --unwindset _RNCNvMs_NtNtCskjFBwtpsoHr_8quandary7message6writerNtB6_6Writer30write_compressed_unhinted_name0Ba_.0:4,_RNCNvMs_NtNtCskjFBwtpsoHr_8quandary7message6writerNtB6_6Writer30write_compressed_unhinted_names_0Ba_.0:4,_RNvMs_NtNtCskjFBwtpsoHr_8quandary7message6writerNtB4_6Writer30write_compressed_unhinted_name.0:4,_RNvMs_NtNtCskjFBwtpsoHr_8quandary7message6writerNtB4_6Writer30write_compressed_unhinted_name.1:4,_RINvNvMNtNtCs8xvirJzNMvV_4core5slice5asciiSh27eq_ignore_ascii_case_chunks21eq_ignore_ascii_innerKj10_ECskjFBwtpsoHr_8quandary.0:3,_RNvMNtNtCs8xvirJzNMvV_4core5slice5asciiSh27eq_ignore_ascii_case_simpleCskjFBwtpsoHr_8quandary.0:3,_RINvMNtNtCs8xvirJzNMvV_4core5slice5asciiSh27eq_ignore_ascii_case_chunksKj10_ECskjFBwtpsoHr_8quandary.0:3,_RNvNtNtCskjFBwtpsoHr_8quandary4name4wire23parse_uncompressed_name.0:5,_RNvMs_NtCskjFBwtpsoHr_8quandary4nameNtB4_4Name15initialize_into.0:5,_RINvNtCs8xvirJzNMvV_4core3ptr9drop_glueSTjINtNtCs6xMQmN1AWUs_5alloc5boxed3BoxNtNtCskjFBwtpsoHr_8quandary4name4NameEEEB1h_.0:3,_RINvNtNtCskjFBwtpsoHr_8quandary6server5query11do_referralNtNtB2_10kani_query8MockZoneEB6_.0:2,_RINvNtNtCskjFBwtpsoHr_8quandary6server5query11do_referralNtNtB2_10kani_query8MockZoneEB6_.1:2,_RINvNtNtCskjFBwtpsoHr_8quandary6server5query11do_referralNtNtB2_10kani_query8MockZoneEB6_.2:2" stubs="M1,T0"
+// @harness name=c04_neg_udp_a props=C04,C05 panics=C04,C01 tier=thorough mem=4 t=2400 kani="--no-assertion-reach-checks" cbmc="--max-field-sensitivity-array-size 256 --unwindset _RNCNvMs_NtNtCskjFBwtpsoHr_8quandary7message6writerNtB6_6Writer30write_compressed_unhinted_name0Ba_.0:4,_RNCNvMs_NtNtCskjFBwtpsoHr_8quandary7message6writerNtB6_6Writer30write_compressed_unhinted_names_0Ba_.0:4,_RNvMs_NtNtCskjFBwtpsoHr_8quandary7message6writerNtB4_6Writer30write_compressed_unhinted_name.0:4,_RNvMs_NtNtCskjFBwtpsoHr_8quandary7message6writerNtB4_6Writer30write_compressed_unhinted_name.1:4,_RINvNvMNtNtCs8xvirJzNMvV_4core5slice5asciiSh27eq_ignore_ascii_case_chunks21eq_ignore_ascii_innerKj10_ECskjFBwtpsoHr_8quandary.0:3,_RNvMNtNtCs8xvirJzNMvV_4core5slice5asciiSh27eq_ignore_ascii_case_simpleCskjFBwtpsoHr_8quandary.0:3,_RINvMNtNtCs8xvirJzNMvV_4core5slice5asciiSh27eq_ignore_ascii_case_chunksKj10_ECskjFBwtpsoHr_8quandary.0:3,_RNvNtNtCskjFBwtpsoHr_8quandary4name4wire23parse_uncompressed_name.0:5,_RNvMs_NtCskjFBwtpsoHr_8quandary4nameNtB4_4Name15initialize_into.0:5,_RINvNtCs8xvirJzNMvV_4core3ptr9drop_glueSTjINtNtCs6xMQmN1AWUs_5alloc5boxed3BoxNtNtCskjFBwtpsoHr_8quandary4name4NameEEEB1h_.0:3,_RINvNtNtCskjFBwtpsoHr_8quandary6server5query11do_referralNtNtB2_10kani_query8MockZoneEB6_.0:2,_RINvNtNtCskjFBwtpsoHr_8quandary6server5query11do_referralNtNtB2_10kani_query8MockZoneEB6_.1:2,_RINvNtNtCskjFBwtpsoHr_8quandary6server5query11do_referralNtNtB2_10kani_query8MockZoneEB6_.2:2" stubs="M1,T0"
 //   fn="Server::handle_non_axfr_query,answer,add_negative_caching_soa,Writer::add_authority_rr,Writer::try_push,Writer::with_rollback,Writer::clear_rrs,Writer::set_tc"
 //   bound="UDP; question a. A IN; NxDomain: 52 octets needed (SOA with two root names); every size limit 19..=30 (one run each); unwind 7"
 //   sym="SOA TTL, MINIMUM, 4 SOA octets per run"
@@ -2270,7 +2270,7 @@ proof!(c04_neg_udp_a, 7, {
     kani::cover!(true, "limits 19..=30 done");
 });
 
-// @harness name=c04_neg_udp_b props=C04,C05 panics=C04,C01 tier=thorough mem=4 t=3600 kani="--no-assertion-reach-checks" cbmc="--max-field-sensitivity-array-size 256 --unwindset _RNCNvMs_NtNtCskjFBwtpsoHr_8quandary7message6writerNtB6_6Writer30write_compressed_unhinted_name0Ba_.0:4,_RNCNvMs_NtNtCskjFBwtpsoHr_8quandary7message6writerNtB6_6Writer30write_compressed_unhinted_names_0Ba_.0:4,_RNvMs_NtNtCskjFBwtpsoHr_8quandary7message6writerNtB4_6Writer30write_compressed_unhinted_name.0:4,_RNvMs_NtNtCskjFBwtpsoHr_8quandary7message6writerNtB4_6Writer30write_compressed_unhinted_name.1:4,_RINvNvMNtNtCs8xvirJzNMvV_4core5slice5asciiSh27eq_ignore_ascii_case_chunks21eq_ignore_ascii_innerKj10_ECskjFBwtpsoHr_8quandary.0:3,_RNvMNtNtCs8xvirJzNMvV_4core5slice5asciiSh27eq_ignore_ascii_case_simpleCskjFBwtpsoHr_8quandary.0:3,_RINvMNtNtCs8xvirJzNMvV_4core5slice5asciiSh27eq_ignore_ascii_case_chunksKj10_ECskjFBwtpsoHr_8quandary.0:3,_RNvNtNtCskjFBwtpsoHr_8quandary4name4wire23parse_uncompressed_name.0:5,_RNvMs_NtCskjFBwtpsoHr_8quandary4nameNtB4_4Name15initialize_into.0:5,_RINvNtCs8xvirJzNMvV_4core3ptr9drop_glueSTjINtNtCs6xMQmN1AWUs_5alloc5boxed3BoxNtNtCskjFBwtpsoHr_8quandary4name4NameEEEB1h_.0:3,_RINvNtNtCskjFBwtpsoHr_8quandary6server5query11do_referralNtNtB2_10kani_query8MockZoneEB6_.0:2,_RINvNtNtCskjFBwtpsoHr_8quandary6server5query11do_referralNtNtB2_10kani_query8MockZoneEB6_.1:2,_RINvNtNtCskjFBwtpsoHr_8quandary6server5query11do_referralNtNtB2_10kani_query8MockZoneEB6_.2:2" stubs="M1,T0"
+// @harness name=c04_neg_udp_b props=C04,C05 panics=C04,C01 tier=thorough mem=4 t=2400 kani="--no-assertion-reach-checks" cbmc="--max-field-sensitivity-array-size 256 --unwindset _RNCNvMs_NtNtCskjFBwtpsoHr_8quandary7message6writerNtB6_6Writer30write_compressed_unhinted_name0Ba_.0:4,_RNCNvMs_NtNtCskjFBwtpsoHr_8quandary7message6writerNtB6_6Writer30write_compressed_unhinted_names_0Ba_.0:4,_RNvMs_NtNtCskjFBwtpsoHr_8quandary7message6writerNtB4_6Writer30write_compressed_unhinted_name.0:4,_RNvMs_NtNtCskjFBwtpsoHr_8quandary7message6writerNtB4_6Writer30write_compressed_unhinted_name.1:4,_RINvNvMNtNtCs8xvirJzNMvV_4core5slice5asciiSh27eq_ignore_ascii_case_chunks21eq_ignore_ascii_innerKj10_ECskjFBwtpsoHr_8quandary.0:3,_RNvMNtNtCs8xvirJzNMvV_4core5slice5asciiSh27eq_ignore_ascii_case_simpleCskjFBwtpsoHr_8quandary.0:3,_RINvMNtNtCs8xvirJzNMvV_4core5slice5asciiSh27eq_ignore_ascii_case_chunksKj10_ECskjFBwtpsoHr_8quandary.0:3,_RNvNtNtCskjFBwtpsoHr_8quandary4name4wire23parse_uncompressed_name.0:5,_RNvMs_NtCskjFBwtpsoHr_8quandary4nameNtB4_4Name15initialize_into.0:5,_RINvNtCs8xvirJzNMvV_4core3ptr9drop_glueSTjINtNtCs6xMQmN1AWUs_5alloc5boxed3BoxNtNtCskjFBwtpsoHr_8quandary4name4NameEEEB1h_.0:3,_RINvNtNtCskjFBwtpsoHr_8quandary6server5query11do_referralNtNtB2_10kani_query8MockZoneEB6_.0:2,_RINvNtNtCskjFBwtpsoHr_8quandary6server5query11do_referralNtNtB2_10kani_query8MockZoneEB6_.1:2,_RINvNtNtCskjFBwtpsoHr_8quandary6server5query11do_referralNtNtB2_10kani_query8MockZoneEB6_.2:2" stubs="M1,T0"
 //   fn="Server::handle_non_axfr_query,answer,add_negative_caching_soa,Writer::add_authority_rr,Writer::try_push,Writer::with_rollback,Writer::clear_rrs,Writer::set_tc"
 //   bound="UDP; question a. A IN; NxDomain: 52 octets needed (SOA with two root names); every size limit 31..=42 (one run each); unwind 7"
 //   sym="SOA TTL, MINIMUM, 4 SOA octets per run"
@@ -2279,7 +2279,7 @@ proof!(c04_neg_udp_b, 7, {
     kani::cover!(true, "limits 31..=42 done");
 });
 
-// @harness name=c04_neg_udp_c props=C04,C05 panics=C04,C01 tier=thorough mem=4 t=3600 kani="--no-assertion-reach-checks" cbmc="--max-field-sensitivity-array-size 256 --unwindset _RNCNvMs_NtNtCskjFBwtpsoHr_8quandary7message6writerNtB6_6Writer30write_compressed_unhinted_name0Ba_.0:4,_RNCNvMs_NtNtCskjFBwtpsoHr_8quandary7message6writerNtB6_6Writer30write_compressed_unhinted_names_0Ba_.0:4,_RNvMs_NtNtCskjFBwtpsoHr_8quandary7message6writerNtB4_6Writer30write_compressed_unhinted_name.0:4,_RNvMs_NtNtCskjFBwtpsoHr_8quandary7message6writerNtB4_6Writer30write_compressed_unhinted_name.1:4,_RINvNvMNtNtCs8xvirJzNMvV_4core5slice5asciiSh27eq_ignore_ascii_case_chunks21eq_ignore_ascii_innerKj10_ECskjFBwtpsoHr_8quandary.0:3,_RNvMNtNtCs8xvirJzNMvV_4core5slice5asciiSh27eq_ignore_ascii_case_simpleCskjFBwtpsoHr_8quandary.0:3,_RINvMNtNtCs8xvirJzNMvV_4core5slice5asciiSh27eq_ignore_ascii_case_chunksKj10_ECskjFBwtpsoHr_8quandary.0:3,_RNvNtNtCskjFBwtpsoHr_8quandary4name4wire23parse_uncompressed_name.0:5,_RNvMs_NtCskjFBwtpsoHr_8quandary4nameNtB4_4Name15initialize_into.0:5,_RINvNtCs8xvirJzNMvV_4core3ptr9drop_glueSTjINtNtCs6xMQmN1AWUs_5alloc5boxed3BoxNtNtCskjFBwtpsoHr_8quandary4name4NameEEEB1h_.0:3,_RINvNtNtCskjFBwtpsoHr_8quandary6server5query11do_referralNtNtB2_10kani_query8MockZoneEB6_.0:2,_RINvNtNtCskjFBwtpsoHr_8quandary6server5query11do_referralNtNtB2_10kani_query8MockZoneEB6_.1:2,_RINvNtNtCskjFBwtpsoHr_8quandary6server5query11do_referralNtNtB2_10kani_query8MockZoneEB6_.2:2" stubs="M1,T0"
+// @harness name=c04_neg_udp_c props=C04,C05 panics=C04,C01 tier=thorough mem=4 t=2400 kani="--no-assertion-reach-checks" cbmc="--max-field-sensitivity-array-size 256 --unwindset _RNCNvMs_NtNtCskjFBwtpsoHr_8quandary7message6writerNtB6_6Writer30write_compressed_unhinted_name0Ba_.0:4,_RNCNvMs_NtNtCskjFBwtpsoHr_8quandary7message6writerNtB6_6Writer30write_compressed_unhinted_names_0Ba_.0:4,_RNvMs_NtNtCskjFBwtpsoHr_8quandary7message6writerNtB4_6Writer30write_compressed_unhinted_name.0:4,_RNvMs_NtNtCskjFBwtpsoHr_8quandary7message6writerNtB4_6Writer30write_compressed_unhinted_name.1:4,_RINvNvMNtNtCs8xvirJzNMvV_4core5slice5asciiSh27eq_ignore_ascii_case_chunks21eq_ignore_ascii_innerKj10_ECskjFBwtpsoHr_8quandary.0:3,_RNvMNtNtCs8xvirJzNMvV_4core5slice5asciiSh27eq_ignore_ascii_case_simpleCskjFBwtpsoHr_8quandary.0:3,_RINvMNtNtCs8xvirJzNMvV_4core5slice5asciiSh27eq_ignore_ascii_case_chunksKj10_ECskjFBwtpsoHr_8quandary.0:3,_RNvNtNtCskjFBwtpsoHr_8quandary4name4wire23parse_uncompressed_name.0:5,_RNvMs_NtCskjFBwtpsoHr_8quandary4nameNtB4_4Name15initialize_into.0:5,_RINvNtCs8xvirJzNMvV_4core3ptr9drop_glueSTjINtNtCs6xMQmN1AWUs_5alloc5boxed3BoxNtNtCskjFBwtpsoHr_8quandary4name4NameEEEB1h_.0:3,_RINvNtNtCskjFBwtpsoHr_8quandary6server5query11do_referralNtNtB2_10kani_query8MockZoneEB6_.0:2,_RINvNtNtCskjFBwtpsoHr_8quandary6server5query11do_referralNtNtB2_10kani_query8MockZoneEB6_.1:2,_RINvNtNtCskjFBwtpsoHr_8quandary6server5query11do_referralNtNtB2_10kani_query8MockZoneEB6_.2:2" stubs="M1,T0"
 //   fn="Server::handle_non_axfr_query,answer,add_negative_caching_soa,Writer::add_authority_rr,Writer::try_push,Writer::with_rollback,Writer::clear_rrs,Writer::set_tc"
 //   bound="UDP; question a. A IN; NxDomain: 52 octets needed (SOA with two root names); every size limit 43..=54 (one run each); unwind 7"
 //   sym="SOA TTL, MINIMUM, 4 SOA octets per run"
@@ -2288,7 +2288,7 @@ proof!(c04_neg_udp_c, 7, {
     kani::cover!(true, "limits 43..=54 done");
 });
 
-// @harness name=c04_neg_udp_d props=C04,C05 panics=C04,C01 tier=thorough mem=4 t=3600 kani="--no-assertion-reach-checks" cbmc="--max-field-sensitivity-array-size 256 --unwindset _RNCNvMs_NtNtCskjFBwtpsoHr_8quandary7message6writerNtB6_6Writer30write_compressed_unhinted_name0Ba_.0:4,_RNCNvMs_NtNtCskjFBwtpsoHr_8quandary7message6writerNtB6_6Writer30write_compressed_unhinted_names_0Ba_.0:4,_RNvMs_NtNtCskjFBwtpsoHr_8quandary7message6writerNtB4_6Writer30write_compressed_unhinted_name.0:4,_RNvMs_NtNtCskjFBwtpsoHr_8quandary7message6writerNtB4_6Writer30write_compressed_unhinted_name.1:4,_RINvNvMNtNtCs8xvirJzNMvV_4core5slice5asciiSh27eq_ignore_ascii_case_chunks21eq_ignore_ascii_innerKj10_ECskjFBwtpsoHr_8quandary.0:3,_RNvMNtNtCs8xvirJzNMvV_4core5slice5asciiSh27eq_ignore_ascii_case_simpleCskjFBwtpsoHr_8quandary.0:3,_RINvMNtNtCs8xvirJzNMvV_4core5slice5asciiSh27eq_ignore_ascii_case_chunksKj10_ECskjFBwtpsoHr_8quandary.0:3,_RNvNtNtCskjFBwtpsoHr_8quandary4name4wire23parse_uncompressed_name.0:5,_RNvMs_NtCskjFBwtpsoHr_8quandary4nameNtB4_4Name15initialize_into.0:5,_RINvNtCs8xvirJzNMvV_4core3ptr9drop_glueSTjINtNtCs6xMQmN1AWUs_5alloc5boxed3BoxNtNtCskjFBwtpsoHr_8quandary4name4NameEEEB1h_.0:3,_RINvNtNtCskjFBwtpsoHr_8quandary6server5query11do_referralNtNtB2_10kani_query8MockZoneEB6_.0:2,_RINvNtNtCskjFBwtpsoHr_8quandary6server5query11do_referralNtNtB2_10kani_query8MockZoneEB6_.1:2,_RINvNtNtCskjFBwtpsoHr_8quandary6server5query11do_referralNtNtB2_10kani_query8MockZoneEB6_.2:2" stubs="M1,T0"
+// @harness name=c04_neg_udp_d props=C04,C05 panics=C04,C01 tier=thorough mem=4 t=2400 kani="--no-assertion-reach-checks" cbmc="--max-field-sensitivity-array-size 256 --unwindset _RNCNvMs_NtNtCskjFBwtpsoHr_8quandary7message6writerNtB6_6Writer30write_compressed_unhinted_name0Ba_.0:4,_RNCNvMs_NtNtCskjFBwtpsoHr_8quandary7message6writerNtB6_6Writer30write_compressed_unhinted_names_0Ba_.0:4,_RNvMs_NtNtCskjFBwtpsoHr_8quandary7message6writerNtB4_6Writer30write_compressed_unhinted_name.0:4,_RNvMs_NtNtCskjFBwtpsoHr_8quandary7message6writerNtB4_6Writer30write_compressed_unhinted_name.1:4,_RINvNvMNtNtCs8xvirJzNMvV_4core5slice5asciiSh27eq_ignore_ascii_case_chunks21eq_ignore_ascii_innerKj10_ECskjFBwtpsoHr_8quandary.0:3,_RNvMNtNtCs8xvirJzNMvV_4core5slice5asciiSh27eq_ignore_ascii_case_simpleCskjFBwtpsoHr_8quandary.0:3,_RINvMNtNtCs8xvirJzNMvV_4core5slice5asciiSh27eq_ignore_ascii_case_chunksKj10_ECskjFBwtpsoHr_8quandary.0:3,_RNvNtNtCskjFBwtpsoHr_8quandary4name4wire23parse_uncompressed_name.0:5,_RNvMs_NtCskjFBwtpsoHr_8quandary4nameNtB4_4Name15initialize_into.0:5,_RINvNtCs8xvirJzNMvV_4core3ptr9drop_glueSTjINtNtCs6xMQmN1AWUs_5alloc5boxed3BoxNtNtCskjFBwtpsoHr_8quandary4name4NameEEEB1h_.0:3,_RINvNtNtCskjFBwtpsoHr_8quandary6server5query11do_referralNtNtB2_10kani_query8MockZoneEB6_.0:2,_RINvNtNtCskjFBwtpsoHr_8quandary6server5query11do_referralNtNtB2_10kani_query8MockZoneEB6_.1:2,_RINvNtNtCskjFBwtpsoHr_8quandary6server5query11do_referralNtNtB2_10kani_query8MockZoneEB6_.2:2" stubs="M1,T0"
 //   fn="Server::handle_non_axfr_query,answer,add_negative_caching_soa,Writer::add_authority_rr,Writer::try_push,Writer::with_rollback,Writer::clear_rrs,Writer::set_tc"
 //   bound="UDP; question a. A IN; NxDomain: 52 octets needed (SOA with two root names); every size limit 55..=64 (one run each); unwind 7"
 //   sym="SOA TTL, MINIMUM, 4 SOA octets per run"
@@ -2308,7 +2308,7 @@ fn trunc_glue(udp: bool, limit: usize, has_a: bool, has_aaaa: bool) {
     );
 }
 
-// @harness name=c04_glue_q props=C04,C05 panics=C04,C01 tier=quick mem=4 t=3600 kani="--no-assertion-reach-checks" cbmc="--max-field-sensitivity-array-size 256 --unwindset _RNCNvMs_NtNtCskjFBwtpsoHr_8quandary7message6writerNtB6_6Writer30write_compressed_unhinted_name0Ba_.0:4,_RNCNvMs_NtNtCskjFBwtpsoHr_8quandary7message6writerNtB6_6Writer30write_compressed_unhinted_names_0Ba_.0:4,_RNvMs_NtNtCskjFBwtpsoHr_8quandary7message6writerNtB4_6Writer30write_compressed_unhinted_name.0:4,_RNvMs_NtNtCskjFBwtpsoHr_8quandary7message6writerNtB4_6Writer30write_compressed_unhinted_name.1:4,_RINvNvMNtNtCs8xvirJzNMvV_4core5slice5asciiSh27eq_ignore_ascii_case_chunks21eq_ignore_ascii_innerKj10_ECskjFBwtpsoHr_8quandary.0:3,_RNvMNtNtCs8xvirJzNMvV_4core5slice5asciiSh27eq_ignore_ascii_case_simpleCskjFBwtpsoHr_8quandary.0:3,_RINvMNtNtCs8xvirJzNMvV_4core5slice5asciiSh27eq_ignore_ascii_case_chunksKj10_ECskjFBwtpsoHr_8quandary.0:3,_RNvNtNtCskjFBwtpsoHr_8quandary4name4wire23parse_uncompressed_name.0:5,_RNvMs_NtCskjFBwtpsoHr_8quandary4nameNtB4_4Name15initialize_into.0:5,_RINvNtCs8xvirJzNMvV_4core3ptr9drop_glueSTjINtNtCs6xMQmN1AWUs_5alloc5boxed3BoxNtNtCskjFBwtpsoHr_8quandary4name4NameEEEB1h_.0:3,_RINvNtNtCskjFBwtpsoHr_8quandary6server5query11do_referralNtNtB2_10kani_query8MockZoneEB6_.0:2,_RINvNtNtCskjFBwtpsoHr_8quandary6server5query11do_referralNtNtB2_10kani_query8MockZoneEB6_.1:2,_RINvNtNtCskjFBwtpsoHr_8quandary6server5query11do_referralNtNtB2_10kani_query8MockZoneEB6_.2:2" stubs="M1,T0,N1"
+// @harness name=c04_glue_q props=C04,C05 panics=C04,C01 tier=quick mem=4 t=2400 kani="--no-assertion-reach-checks" cbmc="--max-field-sensitivity-array-size 256 --unwindset _RNCNvMs_NtNtCskjFBwtpsoHr_8quandary7message6writerNtB6_6Writer30write_compressed_unhinted_name0Ba_.0:4,_RNCNvMs_NtNtCskjFBwtpsoHr_8quandary7message6writerNtB6_6Writer30write_compressed_unhinted_names_0Ba_.0:4,_RNvMs_NtNtCskjFBwtpsoHr_8quandary7message6writerNtB4_6Writer30write_compressed_unhinted_name.0:4,_RNvMs_NtNtCskjFBwtpsoHr_8quandary7message6writerNtB4_6Writer30write_compressed_unhinted_name.1:4,_RINvNvMNtNtCs8xvirJzNMvV_4core5slice5asciiSh27eq_ignore_ascii_case_chunks21eq_ignore_ascii_innerKj10_ECskjFBwtpsoHr_8quandary.0:3,_RNvMNtNtCs8xvirJzNMvV_4core5slice5asciiSh27eq_ignore_ascii_case_simpleCskjFBwtpsoHr_8quandary.0:3,_RINvMNtNtCs8xvirJzNMvV_4core5slice5asciiSh27eq_ignore_ascii_case_chunksKj10_ECskjFBwtpsoHr_8quandary.0:3,_RNvNtNtCskjFBwtpsoHr_8quandary4name4wire23parse_uncompressed_name.0:5,_RNvMs_NtCskjFBwtpsoHr_8quandary4nameNtB4_4Name15initialize_into.0:5,_RINvNtCs8xvirJzNMvV_4core3ptr9drop_glueSTjINtNtCs6xMQmN1AWUs_5alloc5boxed3BoxNtNtCskjFBwtpsoHr_8quandary4name4NameEEEB1h_.0:3,_RINvNtNtCskjFBwtpsoHr_8quandary6server5query11do_referralNtNtB2_10kani_query8MockZoneEB6_.0:2,_RINvNtNtCskjFBwtpsoHr_8quandary6server5query11do_referralNtNtB2_10kani_query8MockZoneEB6_.1:2,_RINvNtNtCskjFBwtpsoHr_8quandary6server5query11do_referralNtNtB2_10kani_query8MockZoneEB6_.2:2" stubs="M1,T0,N1"
 //   fn="Server::handle_non_axfr_query,answer,do_referral,add_additional_addresses,execute_allowing_truncation,Writer::add_authority_rrset,Writer::add_additional_rrset,Writer::with_rollback,Writer::clear_rrs,Writer::set_tc"
 //   bound="UDP; question a. A IN; Referral(cut a., NS b.a.) with glue A: NS record ends at 35, glue record at 51; size limits 34 50 51: below 51 TC and no records, never a referral without its glue; unwind 7"
 //   sym="NS TTL, TTLs and octets of the address records per run"
@@ -2317,7 +2317,7 @@ proof_ref!(c04_glue_q, 7, {
     kani::cover!(true, "boundary limits done");
 });
 
-// @harness name=c04_glue_a_udp_a props=C04,C05 panics=C04,C01 tier=thorough mem=4 t=3600 kani="--no-assertion-reach-checks" cbmc="--max-field-sensitivity-array-size 256 --unwindset _RNCNvMs_NtNtCskjFBwtpsoHr_8quandary7message6writerNtB6_6Writer30write_compressed_unhinted_name0Ba_.0:4,_RNCNvMs_NtNtCskjFBwtpsoHr_8quandary7message6writerNtB6_6Writer30write_compressed_unhinted_names_0Ba_.0:4,_RNvMs_NtNtCskjFBwtpsoHr_8quandary7message6writerNtB4_6Writer30write_compressed_unhinted_name.0:4,_RNvMs_NtNtCskjFBwtpsoHr_8quandary7message6writerNtB4_6Writer30write_compressed_unhinted_name.1:4,_RINvNvMNtNtCs8xvirJzNMvV_4core5slice5asciiSh27eq_ignore_ascii_case_chunks21eq_ignore_ascii_innerKj10_ECskjFBwtpsoHr_8quandary.0:3,_RNvMNtNtCs8xvirJzNMvV_4core5slice5asciiSh27eq_ignore_ascii_case_simpleCskjFBwtpsoHr_8quandary.0:3,_RINvMNtNtCs8xvirJzNMvV_4core5slice5asciiSh27eq_ignore_ascii_case_chunksKj10_ECskjFBwtpsoHr_8quandary.0:3,_RNvNtNtCskjFBwtpsoHr_8quandary4name4wire23parse_uncompressed_name.0:5,_RNvMs_NtCskjFBwtpsoHr_8quandary4nameNtB4_4Name15initialize_into.0:5,_RINvNtCs8xvirJzNMvV_4core3ptr9drop_glueSTjINtNtCs6xMQmN1AWUs_5alloc5boxed3BoxNtNtCskjFBwtpsoHr_8quandary4name4NameEEEB1h_.0:3,_RINvNtNtCskjFBwtpsoHr_8quandary6server5query11do_referralNtNtB2_10kani_query8MockZoneEB6_.0:2,_RINvNtNtCskjFBwtpsoHr_8quandary6server5query11do_referralNtNtB2_10kani_query8MockZoneEB6_.1:2,_RINvNtNtCskjFBwtpsoHr_8quandary6server5query11do_referralNtNtB2_10kani_query8MockZoneEB6_.2:2" stubs="M1,T0,N1"
+// @harness name=c04_glue_a_udp_a props=C04,C05 panics=C04,C01 tier=thorough mem=4 t=2400 kani="--no-assertion-reach-checks" cbmc="--max-field-sensitivity-array-size 256 --unwindset _RNCNvMs_NtNtCskjFBwtpsoHr_8quandary7message6writerNtB6_6Writer30write_compressed_unhinted_name0Ba_.0:4,_RNCNvMs_NtNtCskjFBwtpsoHr_8quandary7message6writerNtB6_6Writer30write_compressed_unhinted_names_0Ba_.0:4,_RNvMs_NtNtCskjFBwtpsoHr_8quandary7message6writerNtB4_6Writer30write_compressed_unhinted_name.0:4,_RNvMs_NtNtCskjFBwtpsoHr_8quandary7message6writerNtB4_6Writer30write_compressed_unhinted_name.1:4,_RINvNvMNtNtCs8xvirJzNMvV_4core5slice5asciiSh27eq_ignore_ascii_case_chunks21eq_ignore_ascii_innerKj10_ECskjFBwtpsoHr_8quandary.0:3,_RNvMNtNtCs8xvirJzNMvV_4core5slice5asciiSh27eq_ignore_ascii_case_simpleCskjFBwtpsoHr_8quandary.0:3,_RINvMNtNtCs8xvirJzNMvV_4core5slice5asciiSh27eq_ignore_ascii_case_chunksKj10_ECskjFBwtpsoHr_8quandary.0:3,_RNvNtNtCskjFBwtpsoHr_8quandary4name4wire23parse_uncompressed_name.0:5,_RNvMs_NtCskjFBwtpsoHr_8quandary4nameNtB4_4Name15initialize_into.0:5,_RINvNtCs8xvirJzNMvV_4core3ptr9drop_glueSTjINtNtCs6xMQmN1AWUs_5alloc5boxed3BoxNtNtCskjFBwtpsoHr_8quandary4name4NameEEEB1h_.0:3,_RINvNtNtCskjFBwtpsoHr_8quandary6server5query11do_referralNtNtB2_10kani_query8MockZoneEB6_.0:2,_RINvNtNtCskjFBwtpsoHr_8quandary6server5query11do_referralNtNtB2_10kani_query8MockZoneEB6_.1:2,_RINvNtNtCskjFBwtpsoHr_8quandary6server5query11do_referralNtNtB2_10kani_query8MockZoneEB6_.2:2" stubs="M1,T0,N1"
 //   fn="Server::handle_non_axfr_query,answer,do_referral,add_additional_addresses,execute_allowing_truncation,Writer::add_authority_rrset,Writer::add_additional_rrset,Writer::with_rollback,Writer::clear_rrs,Writer::set_tc"
 //   bound="UDP; Referral(cut a., NS b.a.) with glue A (51 octets needed): TC and no records below, never a referral without its glue; every size limit 19..=30 (one run each); unwind 7"
 //   sym="NS TTL, TTLs and octets of the address records per run"
@@ -2326,7 +2326,7 @@ proof_ref!(c04_glue_a_udp_a, 7, {
     kani::cover!(true, "limits 19..=30 done");
 });
 
-// @harness name=c04_glue_a_udp_b props=C04,C05 panics=C04,C01 tier=thorough mem=4 t=3600 kani="--no-assertion-reach-checks" cbmc="--max-field-sensitivity-array-size 256 --unwindset _RNCNvMs_NtNtCskjFBwtpsoHr_8quandary7message6writerNtB6_6Writer30write_compressed_unhinted_name0Ba_.0:4,_RNCNvMs_NtNtCskjFBwtpsoHr_8quandary7message6writerNtB6_6Writer30write_compressed_unhinted_names_0Ba_.0:4,_RNvMs_NtNtCskjFBwtpsoHr_8quandary7message6writerNtB4_6Writer30write_compressed_unhinted_name.0:4,_RNvMs_NtNtCskjFBwtpsoHr_8quandary7message6writerNtB4_6Writer30write_compressed_unhinted_name.1:4,_RINvNvMNtNtCs8xvirJzNMvV_4core5slice5asciiSh27eq_ignore_ascii_case_chunks21eq_ignore_ascii_innerKj10_ECskjFBwtpsoHr_8quandary.0:3,_RNvMNtNtCs8xvirJzNMvV_4core5slice5asciiSh27eq_ignore_ascii_case_simpleCskjFBwtpsoHr_8quandary.0:3,_RINvMNtNtCs8xvirJzNMvV_4core5slice5asciiSh27eq_ignore_ascii_case_chunksKj10_ECskjFBwtpsoHr_8quandary.0:3,_RNvNtNtCskjFBwtpsoHr_8quandary4name4wire23parse_uncompressed_name.0:5,_RNvMs_NtCskjFBwtpsoHr_8quandary4nameNtB4_4Name15initialize_into.0:5,_RINvNtCs8xvirJzNMvV_4core3ptr9drop_glueSTjINtNtCs6xMQmN1AWUs_5alloc5boxed3BoxNtNtCskjFBwtpsoHr_8quandary4name4NameEEEB1h_.0:3,_RINvNtNtCskjFBwtpsoHr_8quandary6server5query11do_referralNtNtB2_10kani_query8MockZoneEB6_.0:2,_RINvNtNtCskjFBwtpsoHr_8quandary6server5query11do_referralNtNtB2_10kani_query8MockZoneEB6_.1:2,_RINvNtNtCskjFBwtpsoHr_8quandary6server5query11do_referralNtNtB2_10kani_query8MockZoneEB6_.2:2" stubs="M1,T0,N1"
+// @harness name=c04_glue_a_udp_b props=C04,C05 panics=C04,C01 tier=thorough mem=4 t=2400 kani="--no-assertion-reach-checks" cbmc="--max-field-sensitivity-array-size 256 --unwindset _RNCNvMs_NtNtCskjFBwtpsoHr_8quandary7message6writerNtB6_6Writer30write_compressed_unhinted_name0Ba_.0:4,_RNCNvMs_NtNtCskjFBwtpsoHr_8quandary7message6writerNtB6_6Writer30write_compressed_unhinted_names_0Ba_.0:4,_RNvMs_NtNtCskjFBwtpsoHr_8quandary7message6writerNtB4_6Writer30write_compressed_unhinted_name.0:4,_RNvMs_NtNtCskjFBwtpsoHr_8quandary7message6writerNtB4_6Writer30write_compressed_unhinted_name.1:4,_RINvNvMNtNtCs8xvirJzNMvV_4core5slice5asciiSh27eq_ignore_ascii_case_chunks21eq_ignore_ascii_innerKj10_ECskjFBwtpsoHr_8quandary.0:3,_RNvMNtNtCs8xvirJzNMvV_4core5slice5asciiSh27eq_ignore_ascii_case_simpleCskjFBwtpsoHr_8quandary.0:3,_RINvMNtNtCs8xvirJzNMvV_4core5slice5asciiSh27eq_ignore_ascii_case_chunksKj10_ECskjFBwtpsoHr_8quandary.0:3,_RNvNtNtCskjFBwtpsoHr_8quandary4name4wire23parse_uncompressed_name.0:5,_RNvMs_NtCskjFBwtpsoHr_8quandary4nameNtB4_4Name15initialize_into.0:5,_RINvNtCs8xvirJzNMvV_4core3ptr9drop_glueSTjINtNtCs6xMQmN1AWUs_5alloc5boxed3BoxNtNtCskjFBwtpsoHr_8quandary4name4NameEEEB1h_.0:3,_RINvNtNtCskjFBwtpsoHr_8quandary6server5query11do_referralNtNtB2_10kani_query8MockZoneEB6_.0:2,_RINvNtNtCskjFBwtpsoHr_8quandary6server5query11do_referralNtNtB2_10kani_query8MockZoneEB6_.1:2,_RINvNtNtCskjFBwtpsoHr_8quandary6server5query11do_referralNtNtB2_10kani_query8MockZoneEB6_.2:2" stubs="M1,T0,N1"
 //   fn="Server::handle_non_axfr_query,answer,do_referral,add_additional_addresses,execute_allowing_truncation,Writer::add_authority_rrset,Writer::add_additional_rrset,Writer::with_rollback,Writer::clear_rrs,Writer::set_tc"
 //   bound="UDP; Referral(cut a., NS b.a.) with glue A (51 octets needed): TC and no records below, never a referral without its glue; every size limit 31..=42 (one run each); unwind 7"
 //   sym="NS TTL, TTLs and octets of the address records per run"
@@ -2335,7 +2335,7 @@ proof_ref!(c04_glue_a_udp_b, 7, {
     kani::cover!(true, "limits 31..=42 done");
 });
 
-// @harness name=c04_glue_a_udp_c props=C04,C05 panics=C04,C01 tier=thorough mem=4 t=3600 kani="--no-assertion-reach-checks" cbmc="--max-field-sensitivity-array-size 256 --unwindset _RNCNvMs_NtNtCskjFBwtpsoHr_8quandary7message6writerNtB6_6Writer30write_compressed_unhinted_name0Ba_.0:4,_RNCNvMs_NtNtCskjFBwtpsoHr_8quandary7message6writerNtB6_6Writer30write_compressed_unhinted_names_0Ba_.0:4,_RNvMs_NtNtCskjFBwtpsoHr_8quandary7message6writerNtB4_6Writer30write_compressed_unhinted_name.0:4,_RNvMs_NtNtCskjFBwtpsoHr_8quandary7message6writerNtB4_6Writer30write_compressed_unhinted_name.1:4,_RINvNvMNtNtCs8xvirJzNMvV_4core5slice5asciiSh27eq_ignore_ascii_case_chunks21eq_ignore_ascii_innerKj10_ECskjFBwtpsoHr_8quandary.0:3,_RNvMNtNtCs8xvirJzNMvV_4core5slice5asciiSh27eq_ignore_ascii_case_simpleCskjFBwtpsoHr_8quandary.0:3,_RINvMNtNtCs8xvirJzNMvV_4core5slice5asciiSh27eq_ignore_ascii_case_chunksKj10_ECskjFBwtpsoHr_8quandary.0:3,_RNvNtNtCskjFBwtpsoHr_8quandary4name4wire23parse_uncompressed_name.0:5,_RNvMs_NtCskjFBwtpsoHr_8quandary4nameNtB4_4Name15initialize_into.0:5,_RINvNtCs8xvirJzNMvV_4core3ptr9drop_glueSTjINtNtCs6xMQmN1AWUs_5alloc5boxed3BoxNtNtCskjFBwtpsoHr_8quandary4name4NameEEEB1h_.0:3,_RINvNtNtCskjFBwtpsoHr_8quandary6server5query11do_referralNtNtB2_10kani_query8MockZoneEB6_.0:2,_RINvNtNtCskjFBwtpsoHr_8quandary6server5query11do_referralNtNtB2_10kani_query8MockZoneEB6_.1:2,_RINvNtNtCskjFBwtpsoHr_8quandary6server5query11do_referralNtNtB2_10kani_query8MockZoneEB6_.2:2" stubs="M1,T0,N1"
+// @harness name=c04_glue_a_udp_c props=C04,C05 panics=C04,C01 tier=thorough mem=4 t=2400 kani="--no-assertion-reach-checks" cbmc="--max-field-sensitivity-array-size 256 --unwindset _RNCNvMs_NtNtCskjFBwtpsoHr_8quandary7message6writerNtB6_6Writer30write_compressed_unhinted_name0Ba_.0:4,_RNCNvMs_NtNtCskjFBwtpsoHr_8quandary7message6writerNtB6_6Writer30write_compressed_unhinted_names_0Ba_.0:4,_RNvMs_NtNtCskjFBwtpsoHr_8quandary7message6writerNtB4_6Writer30write_compressed_unhinted_name.0:4,_RNvMs_NtNtCskjFBwtpsoHr_8quandary7message6writerNtB4_6Writer30write_compressed_unhinted_name.1:4,_RINvNvMNtNtCs8xvirJzNMvV_4core5slice5asciiSh27eq_ignore_ascii_case_chunks21eq_ignore_ascii_innerKj10_ECskjFBwtpsoHr_8quandary.0:3,_RNvMNtNtCs8xvirJzNMvV_4core5slice5asciiSh27eq_ignore_ascii_case_simpleCskjFBwtpsoHr_8quandary.0:3,_RINvMNtNtCs8xvirJzNMvV_4core5slice5asciiSh27eq_ignore_ascii_case_chunksKj10_ECskjFBwtpsoHr_8quandary.0:3,_RNvNtNtCskjFBwtpsoHr_8quandary4name4wire23parse_uncompressed_name.0:5,_RNvMs_NtCskjFBwtpsoHr_8quandary4nameNtB4_4Name15initialize_into.0:5,_RINvNtCs8xvirJzNMvV_4core3ptr9drop_glueSTjINtNtCs6xMQmN1AWUs_5alloc5boxed3BoxNtNtCskjFBwtpsoHr_8quandary4name4NameEEEB1h_.0:3,_RINvNtNtCskjFBwtpsoHr_8quandary6server5query11do_referralNtNtB2_10kani_query8MockZoneEB6_.0:2,_RINvNtNtCskjFBwtpsoHr_8quandary6server5query11do_referralNtNtB2_10kani_query8MockZoneEB6_.1:2,_RINvNtNtCskjFBwtpsoHr_8quandary6server5query11do_referralNtNtB2_10kani_query8MockZoneEB6_.2:2" stubs="M1,T0,N1"
 //   fn="Server::handle_non_axfr_query,answer,do_referral,add_additional_addresses,execute_allowing_truncation,Writer::add_authority_rrset,Writer::add_additional_rrset,Writer::with_rollback,Writer::clear_rrs,Writer::set_tc"
 //   bound="UDP; Referral(cut a., NS b.a.) with glue A (51 octets needed): TC and no records below, never a referral without its glue; every size limit 43..=54 (one run each); unwind 7"
 //   sym="NS TTL, TTLs and octets of the address records per run"
@@ -2344,7 +2344,7 @@ proof_ref!(c04_glue_a_udp_c, 7, {
     kani::cover!(true, "limits 43..=54 done");
 });
 
-// @harness name=c04_glue_a_udp_d props=C04,C05 panics=C04,C01 tier=thorough mem=4 t=3600 kani="--no-assertion-reach-checks" cbmc="--max-field-sensitivity-array-size 256 --unwindset _RNCNvMs_NtNtCskjFBwtpsoHr_8quandary7message6writerNtB6_6Writer30write_compressed_unhinted_name0Ba_.0:4,_RNCNvMs_NtNtCskjFBwtpsoHr_8quandary7message6writerNtB6_6Writer30write_compressed_unhinted_names_0Ba_.0:4,_RNvMs_NtNtCskjFBwtpsoHr_8quandary7message6writerNtB4_6Writer30write_compressed_unhinted_name.0:4,_RNvMs_NtNtCskjFBwtpsoHr_8quandary7message6writerNtB4_6Writer30write_compressed_unhinted_name.1:4,_RINvNvMNtNtCs8xvirJzNMvV_4core5slice5asciiSh27eq_ignore_ascii_case_chunks21eq_ignore_ascii_innerKj10_ECskjFBwtpsoHr_8quandary.0:3,_RNvMNtNtCs8xvirJzNMvV_4core5slice5asciiSh27eq_ignore_ascii_case_simpleCskjFBwtpsoHr_8quandary.0:3,_RINvMNtNtCs8xvirJzNMvV_4core5slice5asciiSh27eq_ignore_ascii_case_chunksKj10_ECskjFBwtpsoHr_8quandary.0:3,_RNvNtNtCskjFBwtpsoHr_8quandary4name4wire23parse_uncompressed_name.0:5,_RNvMs_NtCskjFBwtpsoHr_8quandary4nameNtB4_4Name15initialize_into.0:5,_RINvNtCs8xvirJzNMvV_4core3ptr9drop_glueSTjINtNtCs6xMQmN1AWUs_5alloc5boxed3BoxNtNtCskjFBwtpsoHr_8quandary4name4NameEEEB1h_.0:3,_RINvNtNtCskjFBwtpsoHr_8quandary6server5query11do_referralNtNtB2_10kani_query8MockZoneEB6_.0:2,_RINvNtNtCskjFBwtpsoHr_8quandary6server5query11do_referralNtNtB2_10kani_query8MockZoneEB6_.1:2,_RINvNtNtCskjFBwtpsoHr_8quandary6server5query11do_referralNtNtB2_10kani_query8MockZoneEB6_.2:2" stubs="M1,T0,N1"
+// @harness name=c04_glue_a_udp_d props=C04,C05 panics=C04,C01 tier=thorough mem=4 t=2400 kani="--no-assertion-reach-checks" cbmc="--max-field-sensitivity-array-size 256 --unwindset _RNCNvMs_NtNtCskjFBwtpsoHr_8quandary7message6writerNtB6_6Writer30write_compressed_unhinted_name0Ba_.0:4,_RNCNvMs_NtNtCskjFBwtpsoHr_8quandary7message6writerNtB6_6Writer30write_compressed_unhinted_names_0Ba_.0:4,_RNvMs_NtNtCskjFBwtpsoHr_8quandary7message6writerNtB4_6Writer30write_compressed_unhinted_name.0:4,_RNvMs_NtNtCskjFBwtpsoHr_8quandary7message6writerNtB4_6Writer30write_compressed_unhinted_name.1:4,_RINvNvMNtNtCs8xvirJzNMvV_4core5slice5asciiSh27eq_ignore_ascii_case_chunks21eq_ignore_ascii_innerKj10_ECskjFBwtpsoHr_8quandary.0:3,_RNvMNtNtCs8xvirJzNMvV_4core5slice5asciiSh27eq_ignore_ascii_case_simpleCskjFBwtpsoHr_8quandary.0:3,_RINvMNtNtCs8xvirJzNMvV_4core5slice5asciiSh27eq_ignore_ascii_case_chunksKj10_ECskjFBwtpsoHr_8quandary.0:3,_RNvNtNtCskjFBwtpsoHr_8quandary4name4wire23parse_uncompressed_name.0:5,_RNvMs_NtCskjFBwtpsoHr_8quandary4nameNtB4_4Name15initialize_into.0:5,_RINvNtCs8xvirJzNMvV_4core3ptr9drop_glueSTjINtNtCs6xMQmN1AWUs_5alloc5boxed3BoxNtNtCskjFBwtpsoHr_8quandary4name4NameEEEB1h_.0:3,_RINvNtNtCskjFBwtpsoHr_8quandary6server5query11do_referralNtNtB2_10kani_query8MockZoneEB6_.0:2,_RINvNtNtCskjFBwtpsoHr_8quandary6server5query11do_referralNtNtB2_10kani_query8MockZoneEB6_.1:2,_RINvNtNtCskjFBwtpsoHr_8quandary6server5query11do_referralNtNtB2_10kani_query8MockZoneEB6_.2:2" stubs="M1,T0,N1"
 //   fn="Server::handle_non_axfr_query,answer,do_referral,add_additional_addresses,execute_allowing_truncation,Writer::add_authority_rrset,Writer::add_additional_rrset,Writer::with_rollback,Writer::clear_rrs,Writer::set_tc"
 //   bound="UDP; Referral(cut a., NS b.a.) with glue A (51 octets needed): TC and no records below, never a referral without its glue; every size limit 55..=64 (one run each); unwind 7"
 //   sym="NS TTL, TTLs and octets of the address records per run"
@@ -2353,7 +2353,7 @@ proof_ref!(c04_glue_a_udp_d, 7, {
     kani::cover!(true, "limits 55..=64 done");
 });
 
-// @harness name=c04_glue_a_tcp props=C04,C05 panics=C04,C01 tier=thorough mem=4 t=3600 kani="--no-assertion-reach-checks" cbmc="--max-field-sensitivity-array-size 256 --unwindset _RNCNvMs_NtNtCskjFBwtpsoHr_8quandary7message6writerNtB6_6Writer30write_compressed_unhinted_name0Ba_.0:4,_RNCNvMs_NtNtCskjFBwtpsoHr_8quandary7message6writerNtB6_6Writer30write_compressed_unhinted_names_0Ba_.0:4,_RNvMs_NtNtCskjFBwtpsoHr_8quandary7message6writerNtB4_6Writer30write_compressed_unhinted_name.0:4,_RNvMs_NtNtCskjFBwtpsoHr_8quandary7message6writerNtB4_6Writer30write_compressed_unhinted_name.1:4,_RINvNvMNtNtCs8xvirJzNMvV_4core5slice5asciiSh27eq_ignore_ascii_case_chunks21eq_ignore_ascii_innerKj10_ECskjFBwtpsoHr_8quandary.0:3,_RNvMNtNtCs8xvirJzNMvV_4core5slice5asciiSh27eq_ignore_ascii_case_simpleCskjFBwtpsoHr_8quandary.0:3,_RINvMNtNtCs8xvirJzNMvV_4core5slice5asciiSh27eq_ignore_ascii_case_chunksKj10_ECskjFBwtpsoHr_8quandary.0:3,_RNvNtNtCskjFBwtpsoHr_8quandary4name4wire23parse_uncompressed_name.0:5,_RNvMs_NtCskjFBwtpsoHr_8quandary4nameNtB4_4Name15initialize_into.0:5,_RINvNtCs8xvirJzNMvV_4core3ptr9drop_glueSTjINtNtCs6xMQmN1AWUs_5alloc5boxed3BoxNtNtCskjFBwtpsoHr_8quandary4name4NameEEEB1h_.0:3,_RINvNtNtCskjFBwtpsoHr_8quandary6server5query11do_referralNtNtB2_10kani_query8MockZoneEB6_.0:2,_RINvNtNtCskjFBwtpsoHr_8quandary6server5query11do_referralNtNtB2_10kani_query8MockZoneEB6_.1:2,_RINvNtNtCskjFBwtpsoHr_8quandary6server5query11do_referralNtNtB2_10kani_query8MockZoneEB6_.2:2" stubs="M1,T0,N1"
+// @harness name=c04_glue_a_tcp props=C04,C05 panics=C04,C01 tier=thorough mem=4 t=2400 kani="--no-assertion-reach-checks" cbmc="--max-field-sensitivity-array-size 256 --unwindset _RNCNvMs_NtNtCskjFBwtpsoHr_8quandary7message6writerNtB6_6Writer30write_compressed_unhinted_name0Ba_.0:4,_RNCNvMs_NtNtCskjFBwtpsoHr_8quandary7message6writerNtB6_6Writer30write_compressed_unhinted_names_0Ba_.0:4,_RNvMs_NtNtCskjFBwtpsoHr_8quandary7message6writerNtB4_6Writer30write_compressed_unhinted_name.0:4,_RNvMs_NtNtCskjFBwtpsoHr_8quandary7message6writerNtB4_6Writer30write_compressed_unhinted_name.1:4,_RINvNvMNtNtCs8xvirJzNMvV_4core5slice5asciiSh27eq_ignore_ascii_case_chunks21eq_ignore_ascii_innerKj10_ECskjFBwtpsoHr_8quandary.0:3,_RNvMNtNtCs8xvirJzNMvV_4core5slice5asciiSh27eq_ignore_ascii_case_simpleCskjFBwtpsoHr_8quandary.0:3,_RINvMNtNtCs8xvirJzNMvV_4core5slice5asciiSh27eq_ignore_ascii_case_chunksKj10_ECskjFBwtpsoHr_8quandary.0:3,_RNvNtNtCskjFBwtpsoHr_8quandary4name4wire23parse_uncompressed_name.0:5,_RNvMs_NtCskjFBwtpsoHr_8quandary4nameNtB4_4Name15initialize_into.0:5,_RINvNtCs8xvirJzNMvV_4core3ptr9drop_glueSTjINtNtCs6xMQmN1AWUs_5alloc5boxed3BoxNtNtCskjFBwtpsoHr_8quandary4name4NameEEEB1h_.0:3,_RINvNtNtCskjFBwtpsoHr_8quandary6server5query11do_referralNtNtB2_10kani_query8MockZoneEB6_.0:2,_RINvNtNtCskjFBwtpsoHr_8quandary6server5query11do_referralNtNtB2_10kani_query8MockZoneEB6_.1:2,_RINvNtNtCskjFBwtpsoHr_8quandary6server5query11do_referralNtNtB2_10kani_query8MockZoneEB6_.2:2" stubs="M1,T0,N1"
 //   fn="Server::handle_non_axfr_query,answer,do_referral,add_additional_addresses,execute_allowing_truncation,Writer::add_authority_rrset,Writer::add_additional_rrset,Writer::with_rollback,Writer::clear_rrs,Writer::set_tc"
 //   bound="TCP context; Referral(cut a., NS b.a.) with glue A; size limits 19 34 35 36 50 51 64: SERVFAIL without records instead of TC; unwind 7"
 //   sym="NS TTL, TTLs and octets of the address records per run"
@@ -2362,7 +2362,7 @@ proof_ref!(c04_glue_a_tcp, 7, {
     kani::cover!(true, "TCP runs done");
 });
 
-// @harness name=c04_glue_aaaa_udp props=C04,C05 panics=C04,C01 tier=thorough mem=4 t=3600 kani="--no-assertion-reach-checks" cbmc="--max-field-sensitivity-array-size 256 --unwindset _RNCNvMs_NtNtCskjFBwtpsoHr_8quandary7message6writerNtB6_6Writer30write_compressed_unhinted_name0Ba_.0:4,_RNCNvMs_NtNtCskjFBwtpsoHr_8quandary7message6writerNtB6_6Writer30write_compressed_unhinted_names_0Ba_.0:4,_RNvMs_NtNtCskjFBwtpsoHr_8quandary7message6writerNtB4_6Writer30write_compressed_unhinted_name.0:4,_RNvMs_NtNtCskjFBwtpsoHr_8quandary7message6writerNtB4_6Writer30write_compressed_unhinted_name.1:4,_RINvNvMNtNtCs8xvirJzNMvV_4core5slice5asciiSh27eq_ignore_ascii_case_chunks21eq_ignore_ascii_innerKj10_ECskjFBwtpsoHr_8quandary.0:3,_RNvMNtNtCs8xvirJzNMvV_4core5slice5asciiSh27eq_ignore_ascii_case_simpleCskjFBwtpsoHr_8quandary.0:3,_RINvMNtNtCs8xvirJzNMvV_4core5slice5asciiSh27eq_ignore_ascii_case_chunksKj10_ECskjFBwtpsoHr_8quandary.0:3,_RNvNtNtCskjFBwtpsoHr_8quandary4name4wire23parse_uncompressed_name.0:5,_RNvMs_NtCskjFBwtpsoHr_8quandary4nameNtB4_4Name15initialize_into.0:5,_RINvNtCs8xvirJzNMvV_4core3ptr9drop_glueSTjINtNtCs6xMQmN1AWUs_5alloc5boxed3BoxNtNtCskjFBwtpsoHr_8quandary4name4NameEEEB1h_.0:3,_RINvNtNtCskjFBwtpsoHr_8quandary6server5query11do_referralNtNtB2_10kani_query8MockZoneEB6_.0:2,_RINvNtNtCskjFBwtpsoHr_8quandary6server5query11do_referralNtNtB2_10kani_query8MockZoneEB6_.1:2,_RINvNtNtCskjFBwtpsoHr_8quandary6server5query11do_referralNtNtB2_10kani_query8MockZoneEB6_.2:2" stubs="M1,T0,N1"
+// @harness name=c04_glue_aaaa_udp props=C04,C05 panics=C04,C01 tier=thorough mem=4 t=2400 kani="--no-assertion-reach-checks" cbmc="--max-field-sensitivity-array-size 256 --unwindset _RNCNvMs_NtNtCskjFBwtpsoHr_8quandary7message6writerNtB6_6Writer30write_compressed_unhinted_name0Ba_.0:4,_RNCNvMs_NtNtCskjFBwtpsoHr_8quandary7message6writerNtB6_6Writer30write_compressed_unhinted_names_0Ba_.0:4,_RNvMs_NtNtCskjFBwtpsoHr_8quandary7message6writerNtB4_6Writer30write_compressed_unhinted_name.0:4,_RNvMs_NtNtCskjFBwtpsoHr_8quandary7message6writerNtB4_6Writer30write_compressed_unhinted_name.1:4,_RINvNvMNtNtCs8xvirJzNMvV_4core5slice5asciiSh27eq_ignore_ascii_case_chunks21eq_ignore_ascii_innerKj10_ECskjFBwtpsoHr_8quandary.0:3,_RNvMNtNtCs8xvirJzNMvV_4core5slice5asciiSh27eq_ignore_ascii_case_simpleCskjFBwtpsoHr_8quandary.0:3,_RINvMNtNtCs8xvirJzNMvV_4core5slice5asciiSh27eq_ignore_ascii_case_chunksKj10_ECskjFBwtpsoHr_8quandary.0:3,_RNvNtNtCskjFBwtpsoHr_8quandary4name4wire23parse_uncompressed_name.0:5,_RNvMs_NtCskjFBwtpsoHr_8quandary4nameNtB4_4Name15initialize_into.0:5,_RINvNtCs8xvirJzNMvV_4core3ptr9drop_glueSTjINtNtCs6xMQmN1AWUs_5alloc5boxed3BoxNtNtCskjFBwtpsoHr_8quandary4name4NameEEEB1h_.0:3,_RINvNtNtCskjFBwtpsoHr_8quandary6server5query11do_referralNtNtB2_10kani_query8MockZoneEB6_.0:2,_RINvNtNtCskjFBwtpsoHr_8quandary6server5query11do_referralNtNtB2_10kani_query8MockZoneEB6_.1:2,_RINvNtNtCskjFBwtpsoHr_8quandary6server5query11do_referralNtNtB2_10kani_query8MockZoneEB6_.2:2" stubs="M1,T0,N1"
 //   fn="Server::handle_non_axfr_query,answer,do_referral,add_additional_addresses,execute_allowing_truncation,Writer::add_authority_rrset,Writer::add_additional_rrset,Writer::with_rollback,Writer::clear_rrs,Writer::set_tc"
 //   bound="UDP; Referral(cut a., NS b.a.) with glue AAAA only (63 octets needed) at limits 34 35 36 46 47 62 63 64, and with A + AAAA (79 needed: never fits) at 35 51 63 64; unwind 7"
 //   sym="NS TTL, TTLs and octets of the address records per run"
@@ -2383,7 +2383,7 @@ fn trunc_optional(limit: usize) -> (u8, usize) {
     (case, n)
 }
 
-// @harness name=c04_optional_udp_a props=C04,C05 panics=C04,C01 tier=thorough mem=4 t=3600 kani="--no-assertion-reach-checks" cbmc="--max-field-sensitivity-array-size 256 --unwindset _RNCNvMs_NtNtCskjFBwtpsoHr_8quandary7message6writerNtB6_6Writer30write_compressed_unhinted_name0Ba_.0:4,_RNCNvMs_NtNtCskjFBwtpsoHr_8quandary7message6writerNtB6_6Writer30write_compressed_unhinted_names_0Ba_.0:4,_RNvMs_NtNtCskjFBwtpsoHr_8quandary7message6writerNtB4_6Writer30write_compressed_unhinted_name.0:4,_RNvMs_NtNtCskjFBwtpsoHr_8quandary7message6writerNtB4_6Writer30write_compressed_unhinted_name.1:4,_RINvNvMNtNtCs8xvirJzNMvV_4core5slice5asciiSh27eq_ignore_ascii_case_chunks21eq_ignore_ascii_innerKj10_ECskjFBwtpsoHr_8quandary.0:3,_RNvMNtNtCs8xvirJzNMvV_4core5slice5asciiSh27eq_ignore_ascii_case_simpleCskjFBwtpsoHr_8quandary.0:3,_RINvMNtNtCs8xvirJzNMvV_4core5slice5asciiSh27eq_ignore_ascii_case_chunksKj10_ECskjFBwtpsoHr_8quandary.0:3,_RNvNtNtCskjFBwtpsoHr_8quandary4name4wire23parse_uncompressed_name.0:5,_RNvMs_NtCskjFBwtpsoHr_8quandary4nameNtB4_4Name15initialize_into.0:5,_RINvNtCs8xvirJzNMvV_4core3ptr9drop_glueSTjINtNtCs6xMQmN1AWUs_5alloc5boxed3BoxNtNtCskjFBwtpsoHr_8quandary4name4NameEEEB1h_.0:3,_RINvNtNtCskjFBwtpsoHr_8quandary6server5query11do_referralNtNtB2_10kani_query8MockZoneEB6_.0:2,_RINvNtNtCskjFBwtpsoHr_8quandary6server5query11do_referralNtNtB2_10kani_query8MockZoneEB6_.1:2,_RINvNtNtCskjFBwtpsoHr_8quandary6server5query11do_referralNtNtB2_10kani_query8MockZoneEB6_.2:2" stubs="M1,T0,N1"
+// @harness name=c04_optional_udp_a props=C04,C05 panics=C04,C01 tier=thorough mem=4 t=2400 kani="--no-assertion-reach-checks" cbmc="--max-field-sensitivity-array-size 256 --unwindset _RNCNvMs_NtNtCskjFBwtpsoHr_8quandary7message6writerNtB6_6Writer30write_compressed_unhinted_name0Ba_.0:4,_RNCNvMs_NtNtCskjFBwtpsoHr_8quandary7message6writerNtB6_6Writer30write_compressed_unhinted_names_0Ba_.0:4,_RNvMs_NtNtCskjFBwtpsoHr_8quandary7message6writerNtB4_6Writer30write_compressed_unhinted_name.0:4,_RNvMs_NtNtCskjFBwtpsoHr_8quandary7message6writerNtB4_6Writer30write_compressed_unhinted_name.1:4,_RINvNvMNtNtCs8xvirJzNMvV_4core5slice5asciiSh27eq_ignore_ascii_case_chunks21eq_ignore_ascii_innerKj10_ECskjFBwtpsoHr_8quandary.0:3,_RNvMNtNtCs8xvirJzNMvV_4core5slice5asciiSh27eq_ignore_ascii_case_simpleCskjFBwtpsoHr_8quandary.0:3,_RINvMNtNtCs8xvirJzNMvV_4core5slice5asciiSh27eq_ignore_ascii_case_chunksKj10_ECskjFBwtpsoHr_8quandary.0:3,_RNvNtNtCskjFBwtpsoHr_8quandary4name4wire23parse_uncompressed_name.0:5,_RNvMs_NtCskjFBwtpsoHr_8quandary4nameNtB4_4Name15initialize_into.0:5,_RINvNtCs8xvirJzNMvV_4core3ptr9drop_glueSTjINtNtCs6xMQmN1AWUs_5alloc5boxed3BoxNtNtCskjFBwtpsoHr_8quandary4name4NameEEEB1h_.0:3,_RINvNtNtCskjFBwtpsoHr_8quandary6server5query11do_referralNtNtB2_10kani_query8MockZoneEB6_.0:2,_RINvNtNtCskjFBwtpsoHr_8quandary6server5query11do_referralNtNtB2_10kani_query8MockZoneEB6_.1:2,_RINvNtNtCskjFBwtpsoHr_8quandary6server5query11do_referralNtNtB2_10kani_query8MockZoneEB6_.2:2" stubs="M1,T0,N1"
 //   fn="Server::handle_non_axfr_query,answer,do_referral,add_additional_addresses,execute_allowing_truncation,Writer::add_authority_rrset,Writer::add_additional_rrset,Writer::with_rollback,Writer::clear_rrs,Writer::set_tc"
 //   bound="UDP; Referral(cut a., NS c.), c. a name of the parent zone with an A: NS record ends at 34, optional A at 50; dropped without TC when it does not fit, present when it does; every size limit 19..=30; unwind 7"
 //   sym="NS TTL, TTLs and octets of the address records per run"
@@ -2392,7 +2392,7 @@ proof_ref!(c04_optional_udp_a, 7, {
     kani::cover!(true, "limits done");
 });
 
-// @harness name=c04_optional_udp_b props=C04,C05 panics=C04,C01 tier=thorough mem=4 t=3600 kani="--no-assertion-reach-checks" cbmc="--max-field-sensitivity-array-size 256 --unwindset _RNCNvMs_NtNtCskjFBwtpsoHr_8quandary7message6writerNtB6_6Writer30write_compressed_unhinted_name0Ba_.0:4,_RNCNvMs_NtNtCskjFBwtpsoHr_8quandary7message6writerNtB6_6Writer30write_compressed_unhinted_names_0Ba_.0:4,_RNvMs_NtNtCskjFBwtpsoHr_8quandary7message6writerNtB4_6Writer30write_compressed_unhinted_name.0:4,_RNvMs_NtNtCskjFBwtpsoHr_8quandary7message6writerNtB4_6Writer30write_compressed_unhinted_name.1:4,_RINvNvMNtNtCs8xvirJzNMvV_4core5slice5asciiSh27eq_ignore_ascii_case_chunks21eq_ignore_ascii_innerKj10_ECskjFBwtpsoHr_8quandary.0:3,_RNvMNtNtCs8xvirJzNMvV_4core5slice5asciiSh27eq_ignore_ascii_case_simpleCskjFBwtpsoHr_8quandary.0:3,_RINvMNtNtCs8xvirJzNMvV_4core5slice5asciiSh27eq_ignore_ascii_case_chunksKj10_ECskjFBwtpsoHr_8quandary.0:3,_RNvNtNtCskjFBwtpsoHr_8quandary4name4wire23parse_uncompressed_name.0:5,_RNvMs_NtCskjFBwtpsoHr_8quandary4nameNtB4_4Name15initialize_into.0:5,_RINvNtCs8xvirJzNMvV_4core3ptr9drop_glueSTjINtNtCs6xMQmN1AWUs_5alloc5boxed3BoxNtNtCskjFBwtpsoHr_8quandary4name4NameEEEB1h_.0:3,_RINvNtNtCskjFBwtpsoHr_8quandary6server5query11do_referralNtNtB2_10kani_query8MockZoneEB6_.0:2,_RINvNtNtCskjFBwtpsoHr_8quandary6server5query11do_referralNtNtB2_10kani_query8MockZoneEB6_.1:2,_RINvNtNtCskjFBwtpsoHr_8quandary6server5query11do_referralNtNtB2_10kani_query8MockZoneEB6_.2:2" stubs="M1,T0,N1"
+// @harness name=c04_optional_udp_b props=C04,C05 panics=C04,C01 tier=thorough mem=4 t=2400 kani="--no-assertion-reach-checks" cbmc="--max-field-sensitivity-array-size 256 --unwindset _RNCNvMs_NtNtCskjFBwtpsoHr_8quandary7message6writerNtB6_6Writer30write_compressed_unhinted_name0Ba_.0:4,_RNCNvMs_NtNtCskjFBwtpsoHr_8quandary7message6writerNtB6_6Writer30write_compressed_unhinted_names_0Ba_.0:4,_RNvMs_NtNtCskjFBwtpsoHr_8quandary7message6writerNtB4_6Writer30write_compressed_unhinted_name.0:4,_RNvMs_NtNtCskjFBwtpsoHr_8quandary7message6writerNtB4_6Writer30write_compressed_unhinted_name.1:4,_RINvNvMNtNtCs8xvirJzNMvV_4core5slice5asciiSh27eq_ignore_ascii_case_chunks21eq_ignore_ascii_innerKj10_ECskjFBwtpsoHr_8quandary.0:3,_RNvMNtNtCs8xvirJzNMvV_4core5slice5asciiSh27eq_ignore_ascii_case_simpleCskjFBwtpsoHr_8quandary.0:3,_RINvMNtNtCs8xvirJzNMvV_4core5slice5asciiSh27eq_ignore_ascii_case_chunksKj10_ECskjFBwtpsoHr_8quandary.0:3,_RNvNtNtCskjFBwtpsoHr_8quandary4name4wire23parse_uncompressed_name.0:5,_RNvMs_NtCskjFBwtpsoHr_8quandary4nameNtB4_4Name15initialize_into.0:5,_RINvNtCs8xvirJzNMvV_4core3ptr9drop_glueSTjINtNtCs6xMQmN1AWUs_5alloc5boxed3BoxNtNtCskjFBwtpsoHr_8quandary4name4NameEEEB1h_.0:3,_RINvNtNtCskjFBwtpsoHr_8quandary6server5query11do_referralNtNtB2_10kani_query8MockZoneEB6_.0:2,_RINvNtNtCskjFBwtpsoHr_8quandary6server5query11do_referralNtNtB2_10kani_query8MockZoneEB6_.1:2,_RINvNtNtCskjFBwtpsoHr_8quandary6server5query11do_referralNtNtB2_10kani_query8MockZoneEB6_.2:2" stubs="M1,T0,N1"
 //   fn="Server::handle_non_axfr_query,answer,do_referral,add_additional_addresses,execute_allowing_truncation,Writer::add_authority_rrset,Writer::add_additional_rrset,Writer::with_rollback,Writer::clear_rrs,Writer::set_tc"
 //   bound="UDP; Referral(cut a., NS c.), c. a name of the parent zone with an A: NS record ends at 34, optional A at 50; dropped without TC when it does not fit, present when it does; every size limit 31..=42; unwind 7"
 //   sym="NS TTL, TTLs and octets of the address records per run"
@@ -2401,7 +2401,7 @@ proof_ref!(c04_optional_udp_b, 7, {
     kani::cover!(true, "limits done");
 });
 
-// @harness name=c04_optional_udp_c props=C04,C05 panics=C04,C01 tier=thorough mem=4 t=3600 kani="--no-assertion-reach-checks" cbmc="--max-field-sensitivity-array-size 256 --unwindset _RNCNvMs_NtNtCskjFBwtpsoHr_8quandary7message6writerNtB6_6Writer30write_compressed_unhinted_name0Ba_.0:4,_RNCNvMs_NtNtCskjFBwtpsoHr_8quandary7message6writerNtB6_6Writer30write_compressed_unhinted_names_0Ba_.0:4,_RNvMs_NtNtCskjFBwtpsoHr_8quandary7message6writerNtB4_6Writer30write_compressed_unhinted_name.0:4,_RNvMs_NtNtCskjFBwtpsoHr_8quandary7message6writerNtB4_6Writer30write_compressed_unhinted_name.1:4,_RINvNvMNtNtCs8xvirJzNMvV_4core5slice5asciiSh27eq_ignore_ascii_case_chunks21eq_ignore_ascii_innerKj10_ECskjFBwtpsoHr_8quandary.0:3,_RNvMNtNtCs8xvirJzNMvV_4core5slice5asciiSh27eq_ignore_ascii_case_simpleCskjFBwtpsoHr_8quandary.0:3,_RINvMNtNtCs8xvirJzNMvV_4core5slice5asciiSh27eq_ignore_ascii_case_chunksKj10_ECskjFBwtpsoHr_8quandary.0:3,_RNvNtNtCskjFBwtpsoHr_8quandary4name4wire23parse_uncompressed_name.0:5,_RNvMs_NtCskjFBwtpsoHr_8quandary4nameNtB4_4Name15initialize_into.0:5,_RINvNtCs8xvirJzNMvV_4core3ptr9drop_glueSTjINtNtCs6xMQmN1AWUs_5alloc5boxed3BoxNtNtCskjFBwtpsoHr_8quandary4name4NameEEEB1h_.0:3,_RINvNtNtCskjFBwtpsoHr_8quandary6server5query11do_referralNtNtB2_10kani_query8MockZoneEB6_.0:2,_RINvNtNtCskjFBwtpsoHr_8quandary6server5query11do_referralNtNtB2_10kani_query8MockZoneEB6_.1:2,_RINvNtNtCskjFBwtpsoHr_8quandary6server5query11do_referralNtNtB2_10kani_query8MockZoneEB6_.2:2" stubs="M1,T0,N1"
+// @harness name=c04_optional_udp_c props=C04,C05 panics=C04,C01 tier=thorough mem=4 t=2400 kani="--no-assertion-reach-checks" cbmc="--max-field-sensitivity-array-size 256 --unwindset _RNCNvMs_NtNtCskjFBwtpsoHr_8quandary7message6writerNtB6_6Writer30write_compressed_unhinted_name0Ba_.0:4,_RNCNvMs_NtNtCskjFBwtpsoHr_8quandary7message6writerNtB6_6Writer30write_compressed_unhinted_names_0Ba_.0:4,_RNvMs_NtNtCskjFBwtpsoHr_8quandary7message6writerNtB4_6Writer30write_compressed_unhinted_name.0:4,_RNvMs_NtNtCskjFBwtpsoHr_8quandary7message6writerNtB4_6Writer30write_compressed_unhinted_name.1:4,_RINvNvMNtNtCs8xvirJzNMvV_4core5slice5asciiSh27eq_ignore_ascii_case_chunks21eq_ignore_ascii_innerKj10_ECskjFBwtpsoHr_8quandary.0:3,_RNvMNtNtCs8xvirJzNMvV_4core5slice5asciiSh27eq_ignore_ascii_case_simpleCskjFBwtpsoHr_8quandary.0:3,_RINvMNtNtCs8xvirJzNMvV_4core5slice5asciiSh27eq_ignore_ascii_case_chunksKj10_ECskjFBwtpsoHr_8quandary.0:3,_RNvNtNtCskjFBwtpsoHr_8quandary4name4wire23parse_uncompressed_name.0:5,_RNvMs_NtCskjFBwtpsoHr_8quandary4nameNtB4_4Name15initialize_into.0:5,_RINvNtCs8xvirJzNMvV_4core3ptr9drop_glueSTjINtNtCs6xMQmN1AWUs_5alloc5boxed3BoxNtNtCskjFBwtpsoHr_8quandary4name4NameEEEB1h_.0:3,_RINvNtNtCskjFBwtpsoHr_8quandary6server5query11do_referralNtNtB2_10kani_query8MockZoneEB6_.0:2,_RINvNtNtCskjFBwtpsoHr_8quandary6server5query11do_referralNtNtB2_10kani_query8MockZoneEB6_.1:2,_RINvNtNtCskjFBwtpsoHr_8quandary6server5query11do_referralNtNtB2_10kani_query8MockZoneEB6_.2:2" stubs="M1,T0,N1"
 //   fn="Server::handle_non_axfr_query,answer,do_referral,add_additional_addresses,execute_allowing_truncation,Writer::add_authority_rrset,Writer::add_additional_rrset,Writer::with_rollback,Writer::clear_rrs,Writer::set_tc"
 //   bound="UDP; Referral(cut a., NS c.), c. a name of the parent zone with an A: NS record ends at 34, optional A at 50; dropped without TC when it does not fit, present when it does; every size limit 43..=54; unwind 7"
 //   sym="NS TTL, TTLs and octets of the address records per run"
@@ -2411,7 +2411,7 @@ proof_ref!(c04_optional_udp_c, 7, {
     kani::cover!(case == PARTIAL && n == 34, "optional A dropped without TC");
 });
 
-// @harness name=c04_optional_udp_d props=C04,C05 panics=C04,C01 tier=thorough mem=4 t=3600 kani="--no-assertion-reach-checks" cbmc="--max-field-sensitivity-array-size 256 --unwindset _RNCNvMs_NtNtCskjFBwtpsoHr_8quandary7message6writerNtB6_6Writer30write_compressed_unhinted_name0Ba_.0:4,_RNCNvMs_NtNtCskjFBwtpsoHr_8quandary7message6writerNtB6_6Writer30write_compressed_unhinted_names_0Ba_.0:4,_RNvMs_NtNtCskjFBwtpsoHr_8quandary7message6writerNtB4_6Writer30write_compressed_unhinted_name.0:4,_RNvMs_NtNtCskjFBwtpsoHr_8quandary7message6writerNtB4_6Writer30write_compressed_unhinted_name.1:4,_RINvNvMNtNtCs8xvirJzNMvV_4core5slice5asciiSh27eq_ignore_ascii_case_chunks21eq_ignore_ascii_innerKj10_ECskjFBwtpsoHr_8quandary.0:3,_RNvMNtNtCs8xvirJzNMvV_4core5slice5asciiSh27eq_ignore_ascii_case_simpleCskjFBwtpsoHr_8quandary.0:3,_RINvMNtNtCs8xvirJzNMvV_4core5slice5asciiSh27eq_ignore_ascii_case_chunksKj10_ECskjFBwtpsoHr_8quandary.0:3,_RNvNtNtCskjFBwtpsoHr_8quandary4name4wire23parse_uncompressed_name.0:5,_RNvMs_NtCskjFBwtpsoHr_8quandary4nameNtB4_4Name15initialize_into.0:5,_RINvNtCs8xvirJzNMvV_4core3ptr9drop_glueSTjINtNtCs6xMQmN1AWUs_5alloc5boxed3BoxNtNtCskjFBwtpsoHr_8quandary4name4NameEEEB1h_.0:3,_RINvNtNtCskjFBwtpsoHr_8quandary6server5query11do_referralNtNtB2_10kani_query8MockZoneEB6_.0:2,_RINvNtNtCskjFBwtpsoHr_8quandary6server5query11do_referralNtNtB2_10kani_query8MockZoneEB6_.1:2,_RINvNtNtCskjFBwtpsoHr_8quandary6server5query11do_referralNtNtB2_10kani_query8MockZoneEB6_.2:2" stubs="M1,T0,N1"
+// @harness name=c04_optional_udp_d props=C04,C05 panics=C04,C01 tier=thorough mem=4 t=2400 kani="--no-assertion-reach-checks" cbmc="--max-field-sensitivity-array-size 256 --unwindset _RNCNvMs_NtNtCskjFBwtpsoHr_8quandary7message6writerNtB6_6Writer30write_compressed_unhinted_name0Ba_.0:4,_RNCNvMs_NtNtCskjFBwtpsoHr_8quandary7message6writerNtB6_6Writer30write_compressed_unhinted_names_0Ba_.0:4,_RNvMs_NtNtCskjFBwtpsoHr_8quandary7message6writerNtB4_6Writer30write_compressed_unhinted_name.0:4,_RNvMs_NtNtCskjFBwtpsoHr_8quandary7message6writerNtB4_6Writer30write_compressed_unhinted_name.1:4,_RINvNvMNtNtCs8xvirJzNMvV_4core5slice5asciiSh27eq_ignore_ascii_case_chunks21eq_ignore_ascii_innerKj10_ECskjFBwtpsoHr_8quandary.0:3,_RNvMNtNtCs8xvirJzNMvV_4core5slice5asciiSh27eq_ignore_ascii_case_simpleCskjFBwtpsoHr_8quandary.0:3,_RINvMNtNtCs8xvirJzNMvV_4core5slice5asciiSh27eq_ignore_ascii_case_chunksKj10_ECskjFBwtpsoHr_8quandary.0:3,_RNvNtNtCskjFBwtpsoHr_8quandary4name4wire23parse_uncompressed_name.0:5,_RNvMs_NtCskjFBwtpsoHr_8quandary4nameNtB4_4Name15initialize_into.0:5,_RINvNtCs8xvirJzNMvV_4core3ptr9drop_glueSTjINtNtCs6xMQmN1AWUs_5alloc5boxed3BoxNtNtCskjFBwtpsoHr_8quandary4name4NameEEEB1h_.0:3,_RINvNtNtCskjFBwtpsoHr_8quandary6server5query11do_referralNtNtB2_10kani_query8MockZoneEB6_.0:2,_RINvNtNtCskjFBwtpsoHr_8quandary6server5query11do_referralNtNtB2_10kani_query8MockZoneEB6_.1:2,_RINvNtNtCskjFBwtpsoHr_8quandary6server5query11do_referralNtNtB2_10kani_query8MockZoneEB6_.2:2" stubs="M1,T0,N1"
 //   fn="Server::handle_non_axfr_query,answer,do_referral,add_additional_addresses,execute_allowing_truncation,Writer::add_authority_rrset,Writer::add_additional_rrset,Writer::with_rollback,Writer::clear_rrs,Writer::set_tc"
 //   bound="UDP; Referral(cut a., NS c.), c. a name of the parent zone with an A: NS record ends at 34, optional A at 50; dropped without TC when it does not fit, present when it does; every size limit 55..=64; unwind 7"
 //   sym="NS TTL, TTLs and octets of the address records per run"
@@ -2430,7 +2430,7 @@ fn trunc_mx(limit: usize) -> (u8, usize) {
     (case, n)
 }
 
-// @harness name=c04_mx_udp_a props=C04,C05 panics=C04,C01 tier=thorough mem=4 t=3600 kani="--no-assertion-reach-checks" cbmc="--max-field-sensitivity-array-size 256 --unwindset _RNCNvMs_NtNtCskjFBwtpsoHr_8quandary7message6writerNtB6_6Writer30write_compressed_unhinted_name0Ba_.0:4,_RNCNvMs_NtNtCskjFBwtpsoHr_8quandary7message6writerNtB6_6Writer30write_compressed_unhinted_names_0Ba_.0:4,_RNvMs_NtNtCskjFBwtpsoHr_8quandary7message6writerNtB4_6Writer30write_compressed_unhinted_name.0:4,_RNvMs_NtNtCskjFBwtpsoHr_8quandary7message6writerNtB4_6Writer30write_compressed_unhinted_name.1:4,_RINvNvMNtNtCs8xvirJzNMvV_4core5slice5asciiSh27eq_ignore_ascii_case_chunks21eq_ignore_ascii_innerKj10_ECskjFBwtpsoHr_8quandary.0:3,_RNvMNtNtCs8xvirJzNMvV_4core5slice5asciiSh27eq_ignore_ascii_case_simpleCskjFBwtpsoHr_8quandary.0:3,_RINvMNtNtCs8xvirJzNMvV_4core5slice5asciiSh27eq_ignore_ascii_case_chunksKj10_ECskjFBwtpsoHr_8quandary.0:3,_RNvNtNtCskjFBwtpsoHr_8quandary4name4wire23parse_uncompressed_name.0:5,_RNvMs_NtCskjFBwtpsoHr_8quandary4nameNtB4_4Name15initialize_into.0:5,_RINvNtCs8xvirJzNMvV_4core3ptr9drop_glueSTjINtNtCs6xMQmN1AWUs_5alloc5boxed3BoxNtNtCskjFBwtpsoHr_8quandary4name4NameEEEB1h_.0:3,_RINvNtNtCskjFBwtpsoHr_8quandary6server5query11do_referralNtNtB2_10kani_query8MockZoneEB6_.0:2,_RINvNtNtCskjFBwtpsoHr_8quandary6server5query11do_referralNtNtB2_10kani_query8MockZoneEB6_.1:2,_RINvNtNtCskjFBwtpsoHr_8quandary6server5query11do_referralNtNtB2_10kani_query8MockZoneEB6_.2:2" stubs="M1,T0"
+// @harness name=c04_mx_udp_a props=C04,C05 panics=C04,C01 tier=thorough mem=4 t=2400 kani="--no-assertion-reach-checks" cbmc="--max-field-sensitivity-array-size 256 --unwindset _RNCNvMs_NtNtCskjFBwtpsoHr_8quandary7message6writerNtB6_6Writer30write_compressed_unhinted_name0Ba_.0:4,_RNCNvMs_NtNtCskjFBwtpsoHr_8quandary7message6writerNtB6_6Writer30write_compressed_unhinted_names_0Ba_.0:4,_RNvMs_NtNtCskjFBwtpsoHr_8quandary7message6writerNtB4_6Writer30write_compressed_unhinted_name.0:4,_RNvMs_NtNtCskjFBwtpsoHr_8quandary7message6writerNtB4_6Writer30write_compressed_unhinted_name.1:4,_RINvNvMNtNtCs8xvirJzNMvV_4core5slice5asciiSh27eq_ignore_ascii_case_chunks21eq_ignore_ascii_innerKj10_ECskjFBwtpsoHr_8quandary.0:3,_RNvMNtNtCs8xvirJzNMvV_4core5slice5asciiSh27eq_ignore_ascii_case_simpleCskjFBwtpsoHr_8quandary.0:3,_RINvMNtNtCs8xvirJzNMvV_4core5slice5asciiSh27eq_ignore_ascii_case_chunksKj10_ECskjFBwtpsoHr_8quandary.0:3,_RNvNtNtCskjFBwtpsoHr_8quandary4name4wire23parse_uncompressed_name.0:5,_RNvMs_NtCskjFBwtpsoHr_8quandary4nameNtB4_4Name15initialize_into.0:5,_RINvNtCs8xvirJzNMvV_4core3ptr9drop_glueSTjINtNtCs6xMQmN1AWUs_5alloc5boxed3BoxNtNtCskjFBwtpsoHr_8quandary4name4NameEEEB1h_.0:3,_RINvNtNtCskjFBwtpsoHr_8quandary6server5query11do_referralNtNtB2_10kani_query8MockZoneEB6_.0:2,_RINvNtNtCskjFBwtpsoHr_8quandary6server5query11do_referralNtNtB2_10kani_query8MockZoneEB6_.1:2,_RINvNtNtCskjFBwtpsoHr_8quandary6server5query11do_referralNtNtB2_10kani_query8MockZoneEB6_.2:2" stubs="M1,T0"
 //   fn="Server::handle_non_axfr_query,answer,do_additional_section_processing,add_additional_addresses,execute_allowing_truncation,Writer::with_rollback,Writer::clear_rrs,Writer::set_tc"
 //   bound="UDP; question a. MX IN; Found(MX b.), b. with an A: MX record ends at 36, optional A at 52; every size limit 19..=30; unwind 7"
 //   sym="ttl, pref, TTL and octets of the A record per run"
@@ -2439,7 +2439,7 @@ proof!(c04_mx_udp_a, 7, {
     kani::cover!(true, "limits done");
 });
 
-// @harness name=c04_mx_udp_b props=C04,C05 panics=C04,C01 tier=thorough mem=4 t=3600 kani="--no-assertion-reach-checks" cbmc="--max-field-sensitivity-array-size 256 --unwindset _RNCNvMs_NtNtCskjFBwtpsoHr_8quandary7message6writerNtB6_6Writer30write_compressed_unhinted_name0Ba_.0:4,_RNCNvMs_NtNtCskjFBwtpsoHr_8quandary7message6writerNtB6_6Writer30write_compressed_unhinted_names_0Ba_.0:4,_RNvMs_NtNtCskjFBwtpsoHr_8quandary7message6writerNtB4_6Writer30write_compressed_unhinted_name.0:4,_RNvMs_NtNtCskjFBwtpsoHr_8quandary7message6writerNtB4_6Writer30write_compressed_unhinted_name.1:4,_RINvNvMNtNtCs8xvirJzNMvV_4core5slice5asciiSh27eq_ignore_ascii_case_chunks21eq_ignore_ascii_innerKj10_ECskjFBwtpsoHr_8quandary.0:3,_RNvMNtNtCs8xvirJzNMvV_4core5slice5asciiSh27eq_ignore_ascii_case_simpleCskjFBwtpsoHr_8quandary.0:3,_RINvMNtNtCs8xvirJzNMvV_4core5slice5asciiSh27eq_ignore_ascii_case_chunksKj10_ECskjFBwtpsoHr_8quandary.0:3,_RNvNtNtCskjFBwtpsoHr_8quandary4name4wire23parse_uncompressed_name.0:5,_RNvMs_NtCskjFBwtpsoHr_8quandary4nameNtB4_4Name15initialize_into.0:5,_RINvNtCs8xvirJzNMvV_4core3ptr9drop_glueSTjINtNtCs6xMQmN1AWUs_5alloc5boxed3BoxNtNtCskjFBwtpsoHr_8quandary4name4NameEEEB1h_.0:3,_RINvNtNtCskjFBwtpsoHr_8quandary6server5query11do_referralNtNtB2_10kani_query8MockZoneEB6_.0:2,_RINvNtNtCskjFBwtpsoHr_8quandary6server5query11do_referralNtNtB2_10kani_query8MockZoneEB6_.1:2,_RINvNtNtCskjFBwtpsoHr_8quandary6server5query11do_referralNtNtB2_10kani_query8MockZoneEB6_.2:2" stubs="M1,T0"
+// @harness name=c04_mx_udp_b props=C04,C05 panics=C04,C01 tier=thorough mem=4 t=2400 kani="--no-assertion-reach-checks" cbmc="--max-field-sensitivity-array-size 256 --unwindset _RNCNvMs_NtNtCskjFBwtpsoHr_8quandary7message6writerNtB6_6Writer30write_compressed_unhinted_name0Ba_.0:4,_RNCNvMs_NtNtCskjFBwtpsoHr_8quandary7message6writerNtB6_6Writer30write_compressed_unhinted_names_0Ba_.0:4,_RNvMs_NtNtCskjFBwtpsoHr_8quandary7message6writerNtB4_6Writer30write_compressed_unhinted_name.0:4,_RNvMs_NtNtCskjFBwtpsoHr_8quandary7message6writerNtB4_6Writer30write_compressed_unhinted_name.1:4,_RINvNvMNtNtCs8xvirJzNMvV_4core5slice5asciiSh27eq_ignore_ascii_case_chunks21eq_ignore_ascii_innerKj10_ECskjFBwtpsoHr_8quandary.0:3,_RNvMNtNtCs8xvirJzNMvV_4core5slice5asciiSh27eq_ignore_ascii_case_simpleCskjFBwtpsoHr_8quandary.0:3,_RINvMNtNtCs8xvirJzNMvV_4core5slice5asciiSh27eq_ignore_ascii_case_chunksKj10_ECskjFBwtpsoHr_8quandary.0:3,_RNvNtNtCskjFBwtpsoHr_8quandary4name4wire23parse_uncompressed_name.0:5,_RNvMs_NtCskjFBwtpsoHr_8quandary4nameNtB4_4Name15initialize_into.0:5,_RINvNtCs8xvirJzNMvV_4core3ptr9drop_glueSTjINtNtCs6xMQmN1AWUs_5alloc5boxed3BoxNtNtCskjFBwtpsoHr_8quandary4name4NameEEEB1h_.0:3,_RINvNtNtCskjFBwtpsoHr_8quandary6server5query11do_referralNtNtB2_10kani_query8MockZoneEB6_.0:2,_RINvNtNtCskjFBwtpsoHr_8quandary6server5query11do_referralNtNtB2_10kani_query8MockZoneEB6_.1:2,_RINvNtNtCskjFBwtpsoHr_8quandary6server5query11do_referralNtNtB2_10kani_query8MockZoneEB6_.2:2" stubs="M1,T0"
 //   fn="Server::handle_non_axfr_query,answer,do_additional_section_processing,add_additional_addresses,execute_allowing_truncation,Writer::with_rollback,Writer::clear_rrs,Writer::set_tc"
 //   bound="UDP; question a. MX IN; Found(MX b.), b. with an A: MX record ends at 36, optional A at 52; every size limit 31..=42; unwind 7"
 //   sym="ttl, pref, TTL and octets of the A record per run"
@@ -2448,7 +2448,7 @@ proof!(c04_mx_udp_b, 7, {
     kani::cover!(true, "limits done");
 });
 
-// @harness name=c04_mx_udp_c props=C04,C05 panics=C04,C01 tier=thorough mem=4 t=3600 kani="--no-assertion-reach-checks" cbmc="--max-field-sensitivity-array-size 256 --unwindset _RNCNvMs_NtNtCskjFBwtpsoHr_8quandary7message6writerNtB6_6Writer30write_compressed_unhinted_name0Ba_.0:4,_RNCNvMs_NtNtCskjFBwtpsoHr_8quandary7message6writerNtB6_6Writer30write_compressed_unhinted_names_0Ba_.0:4,_RNvMs_NtNtCskjFBwtpsoHr_8quandary7message6writerNtB4_6Writer30write_compressed_unhinted_name.0:4,_RNvMs_NtNtCskjFBwtpsoHr_8quandary7message6writerNtB4_6Writer30write_compressed_unhinted_name.1:4,_RINvNvMNtNtCs8xvirJzNMvV_4core5slice5asciiSh27eq_ignore_ascii_case_chunks21eq_ignore_ascii_innerKj10_ECskjFBwtpsoHr_8quandary.0:3,_RNvMNtNtCs8xvirJzNMvV_4core5slice5asciiSh27eq_ignore_ascii_case_simpleCskjFBwtpsoHr_8quandary.0:3,_RINvMNtNtCs8xvirJzNMvV_4core5slice5asciiSh27eq_ignore_ascii_case_chunksKj10_ECskjFBwtpsoHr_8quandary.0:3,_RNvNtNtCskjFBwtpsoHr_8quandary4name4wire23parse_uncompressed_name.0:5,_RNvMs_NtCskjFBwtpsoHr_8quandary4nameNtB4_4Name15initialize_into.0:5,_RINvNtCs8xvirJzNMvV_4core3ptr9drop_glueSTjINtNtCs6xMQmN1AWUs_5alloc5boxed3BoxNtNtCskjFBwtpsoHr_8quandary4name4NameEEEB1h_.0:3,_RINvNtNtCskjFBwtpsoHr_8quandary6server5query11do_referralNtNtB2_10kani_query8MockZoneEB6_.0:2,_RINvNtNtCskjFBwtpsoHr_8quandary6server5query11do_referralNtNtB2_10kani_query8MockZoneEB6_.1:2,_RINvNtNtCskjFBwtpsoHr_8quandary6server5query11do_referralNtNtB2_10kani_query8MockZoneEB6_.2:2" stubs="M1,T0"
+// @harness name=c04_mx_udp_c props=C04,C05 panics=C04,C01 tier=thorough mem=4 t=2400 kani="--no-assertion-reach-checks" cbmc="--max-field-sensitivity-array-size 256 --unwindset _RNCNvMs_NtNtCskjFBwtpsoHr_8quandary7message6writerNtB6_6Writer30write_compressed_unhinted_name0Ba_.0:4,_RNCNvMs_NtNtCskjFBwtpsoHr_8quandary7message6writerNtB6_6Writer30write_compressed_unhinted_names_0Ba_.0:4,_RNvMs_NtNtCskjFBwtpsoHr_8quandary7message6writerNtB4_6Writer30write_compressed_unhinted_name.0:4,_RNvMs_NtNtCskjFBwtpsoHr_8quandary7message6writerNtB4_6Writer30write_compressed_unhinted_name.1:4,_RINvNvMNtNtCs8xvirJzNMvV_4core5slice5asciiSh27eq_ignore_ascii_case_chunks21eq_ignore_ascii_innerKj10_ECskjFBwtpsoHr_8quandary.0:3,_RNvMNtNtCs8xvirJzNMvV_4core5slice5asciiSh27eq_ignore_ascii_case_simpleCskjFBwtpsoHr_8quandary.0:3,_RINvMNtNtCs8xvirJzNMvV_4core5slice5asciiSh27eq_ignore_ascii_case_chunksKj10_ECskjFBwtpsoHr_8quandary.0:3,_RNvNtNtCskjFBwtpsoHr_8quandary4name4wire23parse_uncompressed_name.0:5,_RNvMs_NtCskjFBwtpsoHr_8quandary4nameNtB4_4Name15initialize_into.0:5,_RINvNtCs8xvirJzNMvV_4core3ptr9drop_glueSTjINtNtCs6xMQmN1AWUs_5alloc5boxed3BoxNtNtCskjFBwtpsoHr_8quandary4name4NameEEEB1h_.0:3,_RINvNtNtCskjFBwtpsoHr_8quandary6server5query11do_referralNtNtB2_10kani_query8MockZoneEB6_.0:2,_RINvNtNtCskjFBwtpsoHr_8quandary6server5query11do_referralNtNtB2_10kani_query8MockZoneEB6_.1:2,_RINvNtNtCskjFBwtpsoHr_8quandary6server5query11do_referralNtNtB2_10kani_query8MockZoneEB6_.2:2" stubs="M1,T0"
 //   fn="Server::handle_non_axfr_query,answer,do_additional_section_processing,add_additional_addresses,execute_allowing_truncation,Writer::with_rollback,Writer::clear_rrs,Writer::set_tc"
 //   bound="UDP; question a. MX IN; Found(MX b.), b. with an A: MX record ends at 36, optional A at 52; every size limit 43..=54; unwind 7"
 //   sym="ttl, pref, TTL and octets of the A record per run"
@@ -2458,7 +2458,7 @@ proof!(c04_mx_udp_c, 7, {
     kani::cover!(case == PARTIAL && n == 36, "address of the exchange dropped without TC");
 });
 
-// @harness name=c04_mx_udp_d props=C04,C05 panics=C04,C01 tier=thorough mem=4 t=3600 kani="--no-assertion-reach-checks" cbmc="--max-field-sensitivity-array-size 256 --unwindset _RNCNvMs_NtNtCskjFBwtpsoHr_8quandary7message6writerNtB6_6Writer30write_compressed_unhinted_name0Ba_.0:4,_RNCNvMs_NtNtCskjFBwtpsoHr_8quandary7message6writerNtB6_6Writer30write_compressed_unhinted_names_0Ba_.0:4,_RNvMs_NtNtCskjFBwtpsoHr_8quandary7message6writerNtB4_6Writer30write_compressed_unhinted_name.0:4,_RNvMs_NtNtCskjFBwtpsoHr_8quandary7message6writerNtB4_6Writer30write_compressed_unhinted_name.1:4,_RINvNvMNtNtCs8xvirJzNMvV_4core5slice5asciiSh27eq_ignore_ascii_case_chunks21eq_ignore_ascii_innerKj10_ECskjFBwtpsoHr_8quandary.0:3,_RNvMNtNtCs8xvirJzNMvV_4core5slice5asciiSh27eq_ignore_ascii_case_simpleCskjFBwtpsoHr_8quandary.0:3,_RINvMNtNtCs8xvirJzNMvV_4core5slice5asciiSh27eq_ignore_ascii_case_chunksKj10_ECskjFBwtpsoHr_8quandary.0:3,_RNvNtNtCskjFBwtpsoHr_8quandary4name4wire23parse_uncompressed_name.0:5,_RNvMs_NtCskjFBwtpsoHr_8quandary4nameNtB4_4Name15initialize_into.0:5,_RINvNtCs8xvirJzNMvV_4core3ptr9drop_glueSTjINtNtCs6xMQmN1AWUs_5alloc5boxed3BoxNtNtCskjFBwtpsoHr_8quandary4name4NameEEEB1h_.0:3,_RINvNtNtCskjFBwtpsoHr_8quandary6server5query11do_referralNtNtB2_10kani_query8MockZoneEB6_.0:2,_RINvNtNtCskjFBwtpsoHr_8quandary6server5query11do_referralNtNtB2_10kani_query8MockZoneEB6_.1:2,_RINvNtNtCskjFBwtpsoHr_8quandary6server5query11do_referralNtNtB2_10kani_query8MockZoneEB6_.2:2" stubs="M1,T0"
+// @harness name=c04_mx_udp_d props=C04,C05 panics=C04,C01 tier=thorough mem=4 t=2400 kani="--no-assertion-reach-checks" cbmc="--max-field-sensitivity-array-size 256 --unwindset _RNCNvMs_NtNtCskjFBwtpsoHr_8quandary7message6writerNtB6_6Writer30write_compressed_unhinted_name0Ba_.0:4,_RNCNvMs_NtNtCskjFBwtpsoHr_8quandary7message6writerNtB6_6Writer30write_compressed_unhinted_names_0Ba_.0:4,_RNvMs_NtNtCskjFBwtpsoHr_8quandary7message6writerNtB4_6Writer30write_compressed_unhinted_name.0:4,_RNvMs_NtNtCskjFBwtpsoHr_8quandary7message6writerNtB4_6Writer30write_compressed_unhinted_name.1:4,_RINvNvMNtNtCs8xvirJzNMvV_4core5slice5asciiSh27eq_ignore_ascii_case_chunks21eq_ignore_ascii_innerKj10_ECskjFBwtpsoHr_8quandary.0:3,_RNvMNtNtCs8xvirJzNMvV_4core5slice5asciiSh27eq_ignore_ascii_case_simpleCskjFBwtpsoHr_8quandary.0:3,_RINvMNtNtCs8xvirJzNMvV_4core5slice5asciiSh27eq_ignore_ascii_case_chunksKj10_ECskjFBwtpsoHr_8quandary.0:3,_RNvNtNtCskjFBwtpsoHr_8quandary4name4wire23parse_uncompressed_name.0:5,_RNvMs_NtCskjFBwtpsoHr_8quandary4nameNtB4_4Name15initialize_into.0:5,_RINvNtCs8xvirJzNMvV_4core3ptr9drop_glueSTjINtNtCs6xMQmN1AWUs_5alloc5boxed3BoxNtNtCskjFBwtpsoHr_8quandary4name4NameEEEB1h_.0:3,_RINvNtNtCskjFBwtpsoHr_8quandary6server5query11do_referralNtNtB2_10kani_query8MockZoneEB6_.0:2,_RINvNtNtCskjFBwtpsoHr_8quandary6server5query11do_referralNtNtB2_10kani_query8MockZoneEB6_.1:2,_RINvNtNtCskjFBwtpsoHr_8quandary6server5query11do_referralNtNtB2_10kani_query8MockZoneEB6_.2:2" stubs="M1,T0"
 //   fn="Server::handle_non_axfr_query,answer,do_additional_section_processing,add_additional_addresses,execute_allowing_truncation,Writer::with_rollback,Writer::clear_rrs,Writer::set_tc"
 //   bound="UDP; question a. MX IN; Found(MX b.), b. with an A: MX record ends at 36, optional A at 52; every size limit 55..=64; unwind 7"
 //   sym="ttl, pref, TTL and octets of the A record per run"
@@ -2467,7 +2467,7 @@ proof!(c04_mx_udp_d, 7, {
     kani::cover!(true, "limits done");
 });
 
-// @harness name=c04_2ns_udp props=C04,C05 panics=C04,C01 tier=thorough mem=4 t=3600 kani="--no-assertion-reach-checks" cbmc="--max-field-sensitivity-array-size 256 --unwindset _RNCNvMs_NtNtCskjFBwtpsoHr_8quandary7message6writerNtB6_6Writer30write_compressed_unhinted_name0Ba_.0:4,_RNCNvMs_NtNtCskjFBwtpsoHr_8quandary7message6writerNtB6_6Writer30write_compressed_unhinted_names_0Ba_.0:4,_RNvMs_NtNtCskjFBwtpsoHr_8quandary7message6writerNtB4_6Writer30write_compressed_unhinted_name.0:4,_RNvMs_NtNtCskjFBwtpsoHr_8quandary7message6writerNtB4_6Writer30write_compressed_unhinted_name.1:4,_RINvNvMNtNtCs8xvirJzNMvV_4core5slice5asciiSh27eq_ignore_ascii_case_chunks21eq_ignore_ascii_innerKj10_ECskjFBwtpsoHr_8quandary.0:3,_RNvMNtNtCs8xvirJzNMvV_4core5slice5asciiSh27eq_ignore_ascii_case_simpleCskjFBwtpsoHr_8quandary.0:3,_RINvMNtNtCs8xvirJzNMvV_4core5slice5asciiSh27eq_ignore_ascii_case_chunksKj10_ECskjFBwtpsoHr_8quandary.0:3,_RNvNtNtCskjFBwtpsoHr_8quandary4name4wire23parse_uncompressed_name.0:5,_RNvMs_NtCskjFBwtpsoHr_8quandary4nameNtB4_4Name15initialize_into.0:5,_RINvNtCs8xvirJzNMvV_4core3ptr9drop_glueSTjINtNtCs6xMQmN1AWUs_5alloc5boxed3BoxNtNtCskjFBwtpsoHr_8quandary4name4NameEEEB1h_.0:3,_RINvNtNtCskjFBwtpsoHr_8quandary6server5query11do_referralNtNtB2_10kani_query8MockZoneEB6_.0:3,_RINvNtNtCskjFBwtpsoHr_8quandary6server5query11do_referralNtNtB2_10kani_query8MockZoneEB6_.1:2,_RINvNtNtCskjFBwtpsoHr_8quandary6server5query11do_referralNtNtB2_10kani_query8MockZoneEB6_.2:2" stubs="M1,T0,N1"
+// @harness name=c04_2ns_udp props=C04,C05 panics=C04,C01 tier=thorough mem=4 t=2400 kani="--no-assertion-reach-checks" cbmc="--max-field-sensitivity-array-size 256 --unwindset _RNCNvMs_NtNtCskjFBwtpsoHr_8quandary7message6writerNtB6_6Writer30write_compressed_unhinted_name0Ba_.0:4,_RNCNvMs_NtNtCskjFBwtpsoHr_8quandary7message6writerNtB6_6Writer30write_compressed_unhinted_names_0Ba_.0:4,_RNvMs_NtNtCskjFBwtpsoHr_8quandary7message6writerNtB4_6Writer30write_compressed_unhinted_name.0:4,_RNvMs_NtNtCskjFBwtpsoHr_8quandary7message6writerNtB4_6Writer30write_compressed_unhinted_name.1:4,_RINvNvMNtNtCs8xvirJzNMvV_4core5slice5asciiSh27eq_ignore_ascii_case_chunks21eq_ignore_ascii_innerKj10_ECskjFBwtpsoHr_8quandary.0:3,_RNvMNtNtCs8xvirJzNMvV_4core5slice5asciiSh27eq_ignore_ascii_case_simpleCskjFBwtpsoHr_8quandary.0:3,_RINvMNtNtCs8xvirJzNMvV_4core5slice5asciiSh27eq_ignore_ascii_case_chunksKj10_ECskjFBwtpsoHr_8quandary.0:3,_RNvNtNtCskjFBwtpsoHr_8quandary4name4wire23parse_uncompressed_name.0:5,_RNvMs_NtCskjFBwtpsoHr_8quandary4nameNtB4_4Name15initialize_into.0:5,_RINvNtCs8xvirJzNMvV_4core3ptr9drop_glueSTjINtNtCs6xMQmN1AWUs_5alloc5boxed3BoxNtNtCskjFBwtpsoHr_8quandary4name4NameEEEB1h_.0:3,_RINvNtNtCskjFBwtpsoHr_8quandary6server5query11do_referralNtNtB2_10kani_query8MockZoneEB6_.0:3,_RINvNtNtCskjFBwtpsoHr_8quandary6server5query11do_referralNtNtB2_10kani_query8MockZoneEB6_.1:2,_RINvNtNtCskjFBwtpsoHr_8quandary6server5query11do_referralNtNtB2_10kani_query8MockZoneEB6_.2:2" stubs="M1,T0,N1"
 //   fn="Server::handle_non_axfr_query,answer,do_referral,add_additional_addresses,execute_allowing_truncation,Writer::add_authority_rrset,Writer::add_additional_rrset,Writer::with_rollback,Writer::clear_rrs,Writer::set_tc"
 //   bound="UDP; Referral(cut a., NS {a., c.}), glue A of a. (ends at 64) and an A of c. (80); size limits 47 48 62 63: the glue does not fit: TC, no records (64: c05_referral_2ns_drop); unwind 7"
 //   sym="NS TTL, 2 address TTLs, 8 address octets per run"
